@@ -13,7 +13,93 @@ Proof.
   induction l as [|e l IHl]; [reflexivity|]. cbn [map]. rewrite IHl. f_equal. destruct e; reflexivity.
 Qed.
 
+Lemma subst_pelem_idxfree : forall ie l, forallb idxfree_pe l = true -> map (subst_pelem ie) l = l.
+Proof.
+  intros ie. induction l as [|e l IH]; intro H; [reflexivity|]. cbn [forallb] in H. apply andb_prop in H.
+  destruct H as [H1 H2]. cbn [map]. rewrite (IH H2). f_equal. destruct e; try reflexivity. discriminate H1.
+Qed.
+Lemma subst_params_idxfree : forall ie ps, idxfree ps = true -> subst_params ie ps = ps.
+Proof.
+  intros ie. unfold subst_params, idxfree. induction ps as [|p ps IH]; intro H; [reflexivity|].
+  cbn [forallb] in H. apply andb_prop in H. destruct H as [H1 H2]. cbn [map]. rewrite (IH H2). f_equal.
+  destruct p as [v|v l|sn j]; try reflexivity. cbn [subst_param idxfree_p] in *. rewrite (subst_pelem_idxfree ie l H1). reflexivity.
+Qed.
+
+Definition cnts_plain (cs : list (ident * list (lkey * cval))) : Prop := Forall (fun ud => plain (snd ud)) cs.
+Lemma cnts_plain_get : forall cs u d, cnts_plain cs -> dict_get ident_eqb u cs = Some d -> plain d.
+Proof.
+  induction cs as [|[k v] r IH]; intros u d H Hg; [discriminate Hg|]. inversion H as [|? ? H1 H2]; subst.
+  cbn [dict_get] in Hg. destruct (ident_eqb u k); [inversion Hg; subst; exact H1|apply (IH u d H2 Hg)].
+Qed.
+Lemma cnts_plain_set : forall cs u d, cnts_plain cs -> plain d -> cnts_plain (dict_set ident_eqb u d cs).
+Proof.
+  induction cs as [|[k v] r IH]; intros u d H Hd; [constructor; [exact Hd|constructor]|].
+  inversion H as [|? ? H1 H2]; subst. cbn [dict_set]. destruct (ident_eqb u k); constructor; try assumption.
+  apply IH; assumption.
+Qed.
+
+(* ---- the counters dict of a task instance with its running counting loops ---- *)
+Lemma list_eqb_nat_iff : forall a b : list nat, list_eqb Nat.eqb a b = true <-> a = b.
+Proof.
+  induction a as [|x a IH]; intros [|y b]; cbn [list_eqb]; split; intro H; try reflexivity; try discriminate H.
+  - apply andb_prop in H. destruct H as [H1 H2]. apply Nat.eqb_eq in H1. apply IH in H2. subst. reflexivity.
+  - inversion H; subst. rewrite Nat.eqb_refl. cbn [andb]. apply IH. reflexivity.
+Qed.
+Lemma lkey_eqb_loop : forall a b, lkey_eqb (KLoop a) (KLoop b) = true <-> a = b.
+Proof.
+  intros [t1 p1] [t2 p2]. cbn [lkey_eqb]. unfold site_eqb'. cbn [st_task st_path]. split; intro H.
+  - apply andb_prop in H. destruct H as [H1 H2]. apply Nat.eqb_eq in H1. apply list_eqb_nat_iff in H2. subst. reflexivity.
+  - inversion H; subst. rewrite Nat.eqb_refl. cbn [andb]. apply list_eqb_nat_iff. reflexivity.
+Qed.
+Lemma lkey_eqb_loop_neq : forall a b, a <> b -> lkey_eqb (KLoop a) (KLoop b) = false.
+Proof. intros a b H. destruct (lkey_eqb (KLoop a) (KLoop b)) eqn:E; [|reflexivity]. apply lkey_eqb_loop in E. contradiction. Qed.
+
+Lemma enc_app : forall a b, enc (a ++ b) = enc a ++ enc b.
+Proof. intros. unfold enc. apply map_app. Qed.
+Lemma enc_get_none : forall key l, (forall k, ~ In (key, k) l) -> dict_get lkey_eqb (KLoop key) (enc l) = None.
+Proof.
+  intros key. induction l as [|[k0 n0] l IH]; intro H; [reflexivity|]. cbn [enc map dict_get fst snd].
+  rewrite lkey_eqb_loop_neq by (intros ->; apply (H n0); left; reflexivity).
+  apply IH. intros k Hk. apply (H k). right. exact Hk.
+Qed.
+Lemma enc_set_new : forall key n l, (forall k, ~ In (key, k) l) ->
+    dict_set lkey_eqb (KLoop key) (CInt n) (enc l) = enc (l ++ [(key, n)]).
+Proof.
+  intros key n. induction l as [|[k0 n0] l IH]; intro H; [reflexivity|]. cbn [enc map dict_set fst snd app].
+  rewrite lkey_eqb_loop_neq by (intros ->; apply (H n0); left; reflexivity).
+  f_equal. apply IH. intros k Hk. apply (H k). right. exact Hk.
+Qed.
+Lemma enc_get_last : forall key n l, (forall k, ~ In (key, k) l) ->
+    dict_get lkey_eqb (KLoop key) (enc (l ++ [(key, n)])) = Some (CInt n).
+Proof.
+  intros key n. induction l as [|[k0 n0] l IH]; intro H.
+  - cbn [enc map dict_get fst snd app]. rewrite (proj2 (lkey_eqb_loop key key) eq_refl). reflexivity.
+  - cbn [enc map dict_get fst snd app]. rewrite lkey_eqb_loop_neq by (intros ->; apply (H n0); left; reflexivity).
+    apply IH. intros k Hk. apply (H k). right. exact Hk.
+Qed.
+Lemma enc_set_last : forall key n n' l, (forall k, ~ In (key, k) l) ->
+    dict_set lkey_eqb (KLoop key) (CInt n') (enc (l ++ [(key, n)])) = enc (l ++ [(key, n')]).
+Proof.
+  intros key n n'. induction l as [|[k0 n0] l IH]; intro H.
+  - cbn [enc map dict_set fst snd app]. rewrite (proj2 (lkey_eqb_loop key key) eq_refl). reflexivity.
+  - cbn [enc map dict_set fst snd app]. rewrite lkey_eqb_loop_neq by (intros ->; apply (H n0); left; reflexivity).
+    f_equal. apply IH. intros k Hk. apply (H k). right. exact Hk.
+Qed.
+Lemma enc_del_last : forall key n l, (forall k, ~ In (key, k) l) ->
+    dict_del lkey_eqb (KLoop key) (enc (l ++ [(key, n)])) = enc l.
+Proof.
+  intros key n. unfold dict_del. induction l as [|[k0 n0] l IH]; intro H.
+  - cbn [enc map filter fst snd app]. rewrite (proj2 (lkey_eqb_loop key key) eq_refl). reflexivity.
+  - cbn [enc map filter fst snd app]. rewrite lkey_eqb_loop_neq by (intros ->; apply (H n0); left; reflexivity).
+    cbn [negb]. f_equal. apply IH. intros k Hk. apply (H k). right. exact Hk.
+Qed.
+Lemma enc_plain : forall l, plain (enc l).
+Proof. intro l. unfold plain, enc. apply Forall_forall. intros kv Hin. apply in_map_iff in Hin. destruct Hin as (x & <- & _). eexists. reflexivity. Qed.
+Lemma in_rev_fresh : forall (key : site) (l : list (site * nat)), (forall k, ~ In (key, k) l) -> forall k, ~ In (key, k) (rev l).
+Proof. intros key l H k Hin. apply in_rev in Hin. exact (H k Hin). Qed.
+
 Section Sim.
+  Variable NC : bool.
   Variable tasks : list task.
   Variable env : envcfg.
   Variable Henv : env_quiet env.
@@ -32,7 +118,7 @@ Section Sim.
     iv_cbs : ns_cbs ns = ns_cbs N0;
     iv_ti : ns_test_ids ns = true;
     iv_ls : ls_ok (ns_ls ns);
-    iv_cnt : ns_counters ns = [];
+    iv_cnt : cnts_plain (ns_counters ns) /\ (NC = true -> ns_counters ns = []);
     iv_start : ns_start_place ns = 0;
     iv_final : ns_final_place ns = 1;
     iv_npl : List.length (ns_places ns) = List.length (ns_places N0);
@@ -77,10 +163,11 @@ Section Sim.
   Lemma RunCb_TS : forall ai s a,
       ls_ok (ns_ls s) -> ns_test_ids s = true ->
       nth_error (ns_apis s) ai = Some a -> a_params a = a_src a ->
-      (forall ci, a_ctx a = Some ci -> exists c, nth_error (ns_apis s) ci = Some c) -> ns_counters s = [] ->
+      (forall ci, a_ctx a = Some ci -> exists c, nth_error (ns_apis s) ci = Some c) ->
+      (forall ci, a_ctx a = Some ci -> ci <> ai) -> sub_ok s a ->
       RunCb tasks env (CbTS ai) s (notified TS (with_uuid (ITest (ns_tid s)) a) false (ts_pre ai s)).
   Proof.
-    intros ai s a Hls Hti Ha Hps Hc Hn. exists 4. intros f Hf. do 4 (destruct f as [|f]; [lia|]).
+    intros ai s a Hls Hti Ha Hps Hc Hne Hn. exists 4. intros f Hf. do 4 (destruct f as [|f]; [lia|]).
     destruct (a_in_loop a) eqn:E; [apply run_cb_TS_loop|apply run_cb_TS]; assumption.
   Qed.
   (* the state in which the notification of a started service is sent; a service inside a loop
@@ -89,11 +176,12 @@ Section Sim.
   Lemma RunCb_SS : forall ai s a p,
       ls_ok (ns_ls s) -> ns_test_ids s = true ->
       nth_error (ns_apis s) ai = Some a -> a_params a = a_src a ->
-      (forall ci, a_ctx a = Some ci -> exists c, nth_error (ns_apis s) ci = Some c) -> ns_counters s = [] ->
+      (forall ci, a_ctx a = Some ci -> exists c, nth_error (ns_apis s) ci = Some c) ->
+      (forall ci, a_ctx a = Some ci -> ci <> ai) -> sub_ok s a ->
       dict_get ident_eqb (a_uuid a) (ns_place_dict s) = Some p ->
       RunCb tasks env (CbSS ai) s (notified SS (with_uuid (ITest (ns_sid s)) a) false (ss_st (a_in_loop a) ai p s)).
   Proof.
-    intros ai s a p Hls Hti Ha Hps Hc Hn Hd. exists 4. intros f Hf. do 4 (destruct f as [|f]; [lia|]).
+    intros ai s a p Hls Hti Ha Hps Hc Hne Hn Hd. exists 4. intros f Hf. do 4 (destruct f as [|f]; [lia|]).
     unfold ss_st. destruct (a_in_loop a) eqn:E; [apply run_cb_SS_loop|apply run_cb_SS]; assumption.
   Qed.
   Lemma RunCb_SF : forall ai s a,
@@ -107,6 +195,16 @@ Section Sim.
       RunCb tasks env (CbTF ai) s (notified TF a (Nat.eqb (a_name a) production_task) s).
   Proof.
     intros. exists 4. intros f Hf. do 4 (destruct f as [|f]; [lia|]). apply run_cb_TF; assumption.
+  Qed.
+
+  Lemma inv_sub_ok : forall ns a, Inv ns -> NC || idxfree (a_src a) = true -> sub_ok ns a.
+  Proof.
+    intros ns a Hinv H ci c d _ _ Hd. destruct (iv_cnt _ Hinv) as [Hp Hn]. split; [apply (cnts_plain_get _ _ _ Hp Hd)|].
+    destruct NC; [rewrite (Hn eq_refl) in Hd; discriminate Hd|]. right. exact H.
+  Qed.
+  Lemma subst_params_ok : forall ie ins, (NC = true -> ie = []) -> NC || idxfree ins = true -> subst_params ie ins = ins.
+  Proof.
+    intros ie ins Hie H. destruct NC; [rewrite (Hie eq_refl); apply subst_params_nil|apply subst_params_idxfree; exact H].
   Qed.
 
   (* ---- one notification on the reference side, default listeners, no observers ---- *)
@@ -139,8 +237,9 @@ Section Sim.
     injection H as E1 E2 E3 E4 E5 E6 E7 E8 E9. subst. split; reflexivity.
   Qed.
 
-  Lemma sim_SS : forall f il u n at_ ins ctx cid a fin g st g' ns pend,
-      start_stmt orc imm (S f) cid [] (XService n at_ ins) g = Ok (st, g') ->
+  Lemma sim_SS : forall f ie il u n at_ ins ctx cid a fin g st g' ns pend,
+      start_stmt orc imm (S f) cid ie (XService n at_ ins) g = Ok (st, g') ->
+      (NC = true -> ie = []) -> NC || idxfree ins = true ->
       Inv ns -> GR g ns pend ->
       nth_error (ns_apis ns) a = Some (with_uuid u (svc_api il n at_ ins ctx a)) ->
       dict_get ident_eqb u (ns_place_dict ns) = Some fin ->
@@ -150,9 +249,11 @@ Section Sim.
       RunCb tasks env (CbSS a) ns ns' /\ ns_cbs ns' = ns_cbs ns /\ Inv ns' /\ GR g' ns' (pend ++ [g_sid g]) /\
       ns_places ns' = ns_places ns /\
       ns_apis ns' = upd a (with_uuid (ITest (g_sid g))) (ns_apis ns) /\
-      ns_place_dict ns' = (ITest (g_sid g), fin) :: ns_place_dict ns.
+      ns_place_dict ns' = (ITest (g_sid g), fin) :: ns_place_dict ns /\
+      ns_counters ns' = ns_counters ns.
   Proof.
-    intros f il u n at_ ins ctx cid a fin g st g' ns pend H Hinv Hgr Ha Hd (ac & Hac & Huc) Hne ns'.
+    intros f ie il u n at_ ins ctx cid a fin g st g' ns pend H Hie Hidx Hinv Hgr Ha Hd (ac & Hac & Huc) Hne ns'.
+    pose proof (inv_sub_ok ns (with_uuid u (svc_api il n at_ ins ctx a)) Hinv Hidx) as Hsub.
     destruct Hinv as [I1 I2 I3 I4 I5 I6 I7 I8 I9 (d & Id & Ik) I11].
     destruct Hgr as [G1 G2 G3 G4 G5 G6 G7 G8 G9 G10].
     cbn [start_stmt] in H. unfold bind, fresh_s, await, set_awaited, emit, tick_ss in H.
@@ -181,7 +282,9 @@ Section Sim.
     split; [reflexivity|]. split; [reflexivity|]. split; [reflexivity|].
     split.
     { pose proof (RunCb_SS a ns _ fin I4 I3 Ha eq_refl) as Hr. cbn [with_uuid a_uuid a_in_loop svc_api] in Hr.
-      apply Hr; [|exact I5|exact Hd]. intros ci Hci. cbn [a_ctx] in Hci. inversion Hci; subst ci. exists ac. exact Hac. }
+      apply Hr; [| |exact Hsub|exact Hd].
+      - intros ci Hci. cbn [a_ctx] in Hci. inversion Hci; subst ci. exists ac. exact Hac.
+      - intros ci Hci. cbn [a_ctx] in Hci. inversion Hci; subst ci. exact Hne. }
     unfold ns'. split; [rewrite nf_cbs; exact E_cbs|].
     split; [|split; [|split; [|split]]].
     - constructor; rewrite ?nf_trans, ?nf_cbs, ?nf_test_ids, ?nf_ls, ?nf_obs, ?nf_start_place, ?nf_final_place,
@@ -212,14 +315,14 @@ Section Sim.
       + rewrite G5. f_equal. f_equal.
         apply notif_entries_eq; rewrite ?E_ls, ?E_obs, ?E_run; try assumption; try reflexivity.
         unfold notif_of, mk. cbn [a_name a_site a_uuid a_ctx a_params with_uuid svc_api ident_nat].
-        rewrite subst_params_nil, G2. f_equal.
+        rewrite (subst_params_ok ie ins Hie Hidx), G2. f_equal.
         unfold ctx_uuid_nat. rewrite E_apis.
         rewrite nth_error_upd_neq by congruence. rewrite Hac, Huc. reflexivity.
       + rewrite E_aw, G8, map_app, G2. reflexivity.
       + unfold pend_after. cbn [a_uuid with_uuid]. rewrite E_pend, G9, map_app, G2. reflexivity.
     - rewrite nf_places. exact E_pl.
     - rewrite nf_apis, <- G2. exact E_apis.
-    - rewrite nf_place_dict, <- G2. exact E_dict.
+    - split; [rewrite nf_place_dict, <- G2; exact E_dict|rewrite nf_counters; exact E_cn].
   Qed.
 
   (* the context identifier a notification reports *)
@@ -249,6 +352,7 @@ Section Sim.
   Lemma sim_TS : forall a a0 ocid g g1 ns pend,
       Inv ns -> GR g ns pend ->
       nth_error (ns_apis ns) a = Some a0 -> a_params a0 = a_src a0 -> a_is_task a0 = true ->
+      NC || idxfree (a_src a0) = true ->
       octx_is ns a (a_ctx a0) ocid ->
       g_step g g1 (mk TS (a_name a0) (a_site a0) (g_tid g) ocid (a_params a0)) false
              (S (g_tid g)) (g_running g) ->
@@ -256,14 +360,18 @@ Section Sim.
       RunCb tasks env (CbTS a) ns ns' /\ ns_cbs ns' = ns_cbs ns /\ Inv ns' /\ GR g1 ns' pend /\
       ns_places ns' = ns_places ns /\
       ns_apis ns' = upd a (with_uuid (ITest (g_tid g))) (ns_apis ns) /\
-      ns_place_dict ns' = ns_place_dict ns.
+      ns_place_dict ns' = ns_place_dict ns /\ ns_counters ns' = ns_counters ns.
   Proof.
-    intros a a0 ocid g g1 ns pend Hinv Hgr Ha Hl Htask Hc (S1 & S2 & S3 & S4 & S5 & S6 & S7 & S8 & S9) ns'.
+    intros a a0 ocid g g1 ns pend Hinv Hgr Ha Hl Htask Hidx Hc (S1 & S2 & S3 & S4 & S5 & S6 & S7 & S8 & S9) ns'.
+    pose proof (inv_sub_ok ns a0 Hinv Hidx) as Hsub.
     destruct Hinv as [I1 I2 I3 I4 I5 I6 I7 I8 I9 (d & Id & Ik) I11].
     destruct Hgr as [G1 G2 G3 G4 G5 G6 G7 G8 G9 G10].
     split.
-    { apply RunCb_TS; try assumption. intros ci Hci. rewrite Hci in Hc. destruct ocid as [cid0|]; cbn [octx_is] in Hc; [|contradiction].
-      destruct Hc as [(ac & Hac & _) _]. exists ac. exact Hac. }
+    { apply RunCb_TS; try assumption.
+      - intros ci Hci. rewrite Hci in Hc. destruct ocid as [cid0|]; cbn [octx_is] in Hc; [|contradiction].
+        destruct Hc as [(ac & Hac & _) _]. exists ac. exact Hac.
+      - intros ci Hci. rewrite Hci in Hc. destruct ocid as [cid0|]; cbn [octx_is] in Hc; [|contradiction].
+        destruct Hc as [_ Hne]. exact Hne. }
     unfold ns'. split; [rewrite nf_cbs; reflexivity|].
     split; [|split; [|split; [|split]]].
     - constructor; rewrite ?nf_trans, ?nf_cbs, ?nf_test_ids, ?nf_ls, ?nf_obs, ?nf_start_place, ?nf_final_place,
@@ -299,7 +407,7 @@ Section Sim.
       + rewrite nf_q. change (ns_q (ts_pre a ns)) with (ns_q ns). congruence.
     - rewrite nf_places. reflexivity.
     - rewrite nf_apis, <- G1. reflexivity.
-    - rewrite nf_place_dict. reflexivity.
+    - split; [rewrite nf_place_dict; reflexivity|rewrite nf_counters; reflexivity].
   Qed.
 
   Lemma remove_first_ITest : forall id pend,
@@ -850,15 +958,32 @@ Section Sim.
     rewrite (fr_apis _ _ _ _ F) by lia. exact H1.
   Qed.
 
+  (* ---- the loop counters: what the lemmas below assume about the context of a component ---- *)
+  Record CX (ns : NS) (ctx cid : nat) (ie : ienv) (kl : list (site * nat)) (rt : bool) (p : pos) : Prop := {
+    cx_c0 : C0 ns kl;
+    cx_ie : NC = true -> ie = [];
+    cx_rt : rt = true -> ctx = 0 /\ cid = 0 /\ klb kl p
+  }.
+  Lemma CX_pos : forall ns ns' ctx cid ie kl rt p q,
+      CX ns ctx cid ie kl rt p -> C0 ns' kl -> List.length (s_pre (psi p)) <= List.length (s_pre (psi q)) ->
+      CX ns' ctx cid ie kl rt q.
+  Proof.
+    intros ns ns' ctx cid ie kl rt p q [H1 H2 H3] Hc Hle. constructor; [exact Hc|exact H2|].
+    intro Hr. destruct (H3 Hr) as (A & B & C). split; [exact A|]. split; [exact B|]. eapply klb_sub; eassumption.
+  Qed.
+  Lemma C0_same : forall ns ns' kl, ns_counters ns' = ns_counters ns -> C0 ns kl -> C0 ns' kl.
+  Proof. intros ns ns' kl E H. unfold C0, counters_of in *. rewrite E. exact H. Qed.
+
   (* the start callbacks of a component, run in order after the entering transition has fired
      (the entry places hold their tokens; everything around the component is blocked): the
      reference state, the bookkeeping and the marking that start_stmt denotes.  A Condition's
      callback evaluates the net again from inside (fire_event of the decision place); a component
      that completes at once does so inside such evaluations *)
   Definition StartOK (f : nat) : Prop :=
-    forall s p ctx cid xcbs t2 g st g' ns m pend,
-      start_stmt orc imm f cid [] s g = Ok (st, g') ->
-      frag s = true -> wired N0 s p ctx xcbs -> no_parloop xcbs = true ->
+    forall s p ctx cid ie kl rt xcbs t2 g st g' ns m pend,
+      start_stmt orc imm f cid ie s g = Ok (st, g') ->
+      frag s = true -> sok NC rt s = true -> CX ns ctx cid ie kl rt p ->
+      wired N0 s p ctx xcbs -> no_parloop xcbs = true ->
       pp p + nplaces s <= nP -> pt p + ntrans s <= nT ->
       t2 < nT -> ~ in_t s p t2 -> In (xplace s p) (preN N0 t2) ->
       Inv ns -> GR g ns pend -> ctx_is ns ctx cid -> ctx < pa p ->
@@ -868,10 +993,11 @@ Section Sim.
                      Marks ns' m' /\ agrees_in (pp p) (pp p + nplaces s) m' (mlx st s p) /\
                      agrees_out (pp p) (pp p + nplaces s) m m' /\
                      StartRes ns ns' g g' pend (svc_ids st) p (napis s) /\
-                     act N0 ns' st s p ctx.
+                     (act N0 ns' st s p ctx /\ C0 ns' (rch st s p kl)).
 
-  Lemma start_svc_case : forall f n at_ ins p ctx cid xcbs g st g' ns m pend,
-      start_stmt orc imm (S f) cid [] (XService n at_ ins) g = Ok (st, g') ->
+  Lemma start_svc_case : forall f n at_ ins p ctx cid ie kl rt xcbs g st g' ns m pend,
+      start_stmt orc imm (S f) cid ie (XService n at_ ins) g = Ok (st, g') ->
+      sok NC rt (XService n at_ ins) = true -> CX ns ctx cid ie kl rt p ->
       wired N0 (XService n at_ ins) p ctx xcbs ->
       Inv ns -> GR g ns pend -> ctx_is ns ctx cid -> ctx < pa p ->
       Marks ns m -> (forall q, in_p (XService n at_ ins) p q -> cnt m q = cnt (entries (XService n at_ ins) p) q) ->
@@ -879,14 +1005,14 @@ Section Sim.
                      Marks ns' m' /\ agrees_in (pp p) (pp p + 3) m' (mlx st (XService n at_ ins) p) /\
                      agrees_out (pp p) (pp p + 3) m m' /\
                      StartRes ns ns' g g' pend (svc_ids st) p 1 /\
-                     act N0 ns' st (XService n at_ ins) p ctx.
+                     (act N0 ns' st (XService n at_ ins) p ctx /\ C0 ns' (rch st (XService n at_ ins) p kl)).
   Proof.
-    intros f n at_ ins p ctx cid xcbs g st g' ns m pend H Hw Hinv Hgr Hctx Hlt Hm Hin.
+    intros f n at_ ins p ctx cid ie kl rt xcbs g st g' ns m pend H Hsok Hcx Hw Hinv Hgr Hctx Hlt Hm Hin.
     cbn [wired] in Hw. destruct Hw as (_ & _ & _ & (il & Hapi) & Hdict).
     destruct (iv_ready _ Hinv _ _ Hapi) as (u & Ha & Hrd).
     destruct (Hrd eq_refl (pa p) eq_refl) as [Hd _]. rewrite Hdict in Hd.
-    destruct (sim_SS f il u n at_ ins ctx cid (pa p) (pp p + 1) g st g' ns pend H Hinv Hgr Ha Hd Hctx ltac:(lia))
-      as (-> & Haw & Hsid & Hrun & Hcbs & Hinv' & Hgr' & Hpl & Hap & Hdi).
+    destruct (sim_SS f ie il u n at_ ins ctx cid (pa p) (pp p + 1) g st g' ns pend H (cx_ie _ _ _ _ _ _ _ Hcx) Hsok Hinv Hgr Ha Hd Hctx ltac:(lia))
+      as (-> & Haw & Hsid & Hrun & Hcbs & Hinv' & Hgr' & Hpl & Hap & Hdi & Hcn).
     eexists. exists m. cbn [is_done Enters mlx].
     split; [apply Starts_RunList; eapply rl_cons; [exact Hrun|exact Hcbs|apply rl_nil]|].
     split; [eapply Marks_places; [exact Hpl|exact Hm]|].
@@ -898,7 +1024,8 @@ Section Sim.
       split; [exact Haw|]. split; [lia|].
       exists [(ITest (g_sid g), pp p + 1)]. split; [rewrite Hdi; reflexivity|].
       constructor; [|constructor]. exists (g_sid g). split; [reflexivity|]. rewrite (gr_sid _ _ _ Hgr). lia.
-    - cbn [act]. split; [exists il; rewrite Hap, (nth_error_upd_eq _ _ _ _ _ Ha); reflexivity|].
+    - split; [|cbn [rch]; apply (C0_same ns _ kl Hcn (cx_c0 _ _ _ _ _ _ _ Hcx))].
+      cbn [act]. split; [exists il; rewrite Hap, (nth_error_upd_eq _ _ _ _ _ Ha); reflexivity|].
       split; [rewrite Hdi; cbn [dict_get ident_eqb]; rewrite Nat.eqb_refl; reflexivity|].
       rewrite (gr_sid _ _ _ Hgr'), Hsid. lia.
   Qed.
@@ -942,9 +1069,10 @@ Section Sim.
     match r with None => True | Some (j, st) => act_block N0 ns l bp ctx j st end.
   Definition is_none {A : Type} (o : option A) : bool := match o with None => true | Some _ => false end.
   Definition StartBK (f : nat) : Prop :=
-    forall l bp ctx cid xcbs t2 i s g r g' ns m pend,
-      run_block orc imm f cid [] l i g = Ok (r, g') -> nth_error l i = Some s ->
-      frag_block l = true -> wired_block (wired N0) N0 ctx xcbs l bp -> no_parloop xcbs = true ->
+    forall l bp ctx cid ie kl rt xcbs t2 i s g r g' ns m pend,
+      run_block orc imm f cid ie l i g = Ok (r, g') -> nth_error l i = Some s ->
+      frag_block l = true -> sok_block NC rt l = true -> CX ns ctx cid ie kl rt bp ->
+      wired_block (wired N0) N0 ctx xcbs l bp -> no_parloop xcbs = true ->
       pp bp + nplaces_l l <= nP -> pt bp + ntrans_b l <= nT ->
       t2 < nT -> ~ in_tb l bp t2 -> In (xplace_b l bp) (preN N0 t2) ->
       Inv ns -> GR g ns pend -> ctx_is ns ctx cid -> ctx < pa bp ->
@@ -954,7 +1082,13 @@ Section Sim.
                      Marks ns' m' /\ agrees_in (pp bp) (pp bp + nplaces_l l) m' (mlb l bp r) /\
                      agrees_out (pp bp) (pp bp + nplaces_l l) m m' /\
                      StartRes ns ns' g g' pend (ids_opt r) bp (napis_l l) /\
-                     actb ns' l bp ctx r.
+                     (actb ns' l bp ctx r /\ C0 ns' (rchb l bp r kl)).
+
+  Lemma CX_spos : forall ns ns' ctx cid ie kl rt l bp i,
+      CX ns ctx cid ie kl rt bp -> C0 ns' kl -> CX ns' ctx cid ie kl rt (spos l bp i).
+  Proof. intros. eapply CX_pos; [eassumption|assumption|]. rewrite (proj1 (psi_spos l bp i)). apply Nat.le_refl. Qed.
+  Lemma C0_fire : forall ns tr kl, C0 ns kl -> C0 (fire_ns tr ns) kl.
+  Proof. intros ns tr kl H. exact H. Qed.
 
   Lemma StartRes_fire : forall a tr b g g' pend ids p da,
       StartRes (fire_ns tr a) b g g' pend ids p da -> StartRes a b g g' pend ids p da.
@@ -977,8 +1111,8 @@ Section Sim.
 
   Lemma start_block_case : forall f, (forall f0, f0 <= f -> StartOK f0) -> StartBK (S f).
   Proof.
-    induction f as [|f IHf]; intros HS l bp ctx cid xcbs t2 i s g r g' ns m pend
-                                    H Hn Hf Hw Hnp HP HT Ht2 Hnt2 Hx2 Hinv Hgr Hctx Hlt Hm Hin HO.
+    induction f as [|f IHf]; intros HS l bp ctx cid ie kl rt xcbs t2 i s g r g' ns m pend
+                                    H Hn Hf Hsok Hcx Hw Hnp HP HT Ht2 Hnt2 Hx2 Hinv Hgr Hctx Hlt Hm Hin HO.
     { rewrite run_block_S, Hn in H. mstep; discriminate. }
     rewrite run_block_S, Hn in H. mstep as st g1 E1.
     pose proof (frag_block_nth _ _ _ Hf Hn) as Hfs.
@@ -991,9 +1125,10 @@ Section Sim.
     fold pi in Et2, T2, T3, Houti.
     assert (Hnpi : no_parloop (if Nat.eqb (S i) (List.length l) then xcbs else []) = true)
       by (destruct (Nat.eqb (S i) (List.length l)); [exact Hnp|reflexivity]).
-    destruct (HS (S f) (le_n _) s pi ctx cid _ t2i g st g1 ns m pend E1 Hfs Ws Hnpi ltac:(lia) ltac:(lia) T1 T2 T3 Hinv Hgr Hctx
+    destruct (HS (S f) (le_n _) s pi ctx cid ie kl rt _ t2i g st g1 ns m pend E1 Hfs (sok_block_nth _ _ _ _ _ Hsok Hn)
+                 (CX_spos _ _ _ _ _ _ _ l bp i Hcx (cx_c0 _ _ _ _ _ _ _ Hcx)) Ws Hnpi ltac:(lia) ltac:(lia) T1 T2 T3 Hinv Hgr Hctx
                  ltac:(lia) Hm ltac:(intros q Hq; apply Hin; unfold in_p, in_pb in *; lia) Houti)
-      as (ns1 & m1 & Hen1 & Mk1 & Ai1 & Ao1 & Hres1 & Hact1).
+      as (ns1 & m1 & Hen1 & Mk1 & Ai1 & Ao1 & Hres1 & Hact1 & Hc1).
     pose proof Hres1 as (Inv1 & Gr1 & Ap1 & Aw1 & Sid1 & Di1).
     assert (Hmz : forall q, in_pb l bp q -> ~ in_p s pi q -> cnt m1 q = 0).
     { intros q Hq Hnq. rewrite (Ao1 q ltac:(unfold in_p in Hnq; exact Hnq)). apply Hz; assumption. }
@@ -1054,8 +1189,10 @@ Section Sim.
         assert (Hctxf : ctx_is nsf ctx cid).
         { destruct Hctx as (ac & Hac & Hu). exists ac. split; [|exact Hu]. change (ns_apis nsf) with (ns_apis ns1).
           rewrite Ap1 by lia. exact Hac. }
-        destruct (IHf ltac:(intros f0 Hf0; apply HS; lia) l bp ctx cid xcbs t2 (S i) s' g1 r g' nsf m'' pend
-                      H En' Hf Hw Hnp HP HT Ht2 Hnt2 Hx2 Invf Grf Hctxf Hlt Mkf Hin'' (Hout_out _ _ _ _ _ _ _ HO Hout''))
+        assert (Hcxf : CX nsf ctx cid ie kl rt bp).
+        { eapply CX_pos; [exact Hcx|exact Hc1|apply Nat.le_refl]. }
+        destruct (IHf ltac:(intros f0 Hf0; apply HS; lia) l bp ctx cid ie kl rt xcbs t2 (S i) s' g1 r g' nsf m'' pend
+                      H En' Hf Hsok Hcxf Hw Hnp HP HT Ht2 Hnt2 Hx2 Invf Grf Hctxf Hlt Mkf Hin'' (Hout_out _ _ _ _ _ _ _ HO Hout''))
           as (ns2 & m2 & Hen2 & Mk2 & Ai2 & Ao2 & Hres2 & Hact2). fold pj in Hen2.
         pose proof Hres2 as (Inv2 & Gr2 & Ap2 & Aw2 & Sid2 & Di2).
         destruct Hen1 as [k Hk].
@@ -1068,7 +1205,7 @@ Section Sim.
              eapply MS_trans; [specialize (Hen2 [] (Unw k (rest :: K))); rewrite app_nil_r in Hen2; exact Hen2|].
              change ([] :: Unw k (rest :: K)) with (Unw (S k) (rest :: K)).
              apply MS_unwind; [exact Inv2|]. apply (dis_dead ns2 m2 Inv2 Mk2).
-             apply (block_dis l bp ctx xcbs t2 j st' ns2 m m2 Hf Hw Hx2 HO); [|exact Ai2|exact Hact2].
+             apply (block_dis l bp ctx xcbs t2 j st' ns2 m m2 Hf Hw Hx2 HO); [|exact Ai2|exact (proj1 Hact2)].
              intros q Hq. rewrite (Ao2 q Hq). apply Hout''. exact Hq.
           -- destruct Hen2 as [k2 Hk2]. exists (k2 + S k). intros rest K. eapply MS_trans; [apply Hgo|].
              specialize (Hk2 [] (Unw k (rest :: K))). rewrite app_nil_r, Unw_nest in Hk2. exact Hk2.
@@ -1088,7 +1225,7 @@ Section Sim.
         { destruct (xplace_b_nth l bp Hf) as (sl & Hl & E). rewrite <- Hi in Hl, E. rewrite Hn in Hl. inversion Hl; subst sl. exact E. }
         exists ns1, m1. cbn [is_none mlb actb ids_opt]. rewrite El.
         split; [exact Hen1|]. split; [exact Mk1|].
-        split; [|split; [eapply agrees_out_widen; [exact Ao1|lia|lia]|split; [eapply StartRes_widen; [exact Hres1|lia|lia]|exact I]]].
+        split; [|split; [eapply agrees_out_widen; [exact Ao1|lia|lia]|split; [eapply StartRes_widen; [exact Hres1|lia|lia]|split; [exact I|exact Hc1]]]].
         eapply (agrees_in_widen (pp pi) (pp pi + nplaces s)); [exact Ai1|exact Ao1|lia|lia|].
         intros q Hq Hnq. split; [apply Hz; [exact Hq|unfold in_p; lia]|].
         pose proof (xplace_range s Hfs pi). cnt_cases.
@@ -1101,7 +1238,8 @@ Section Sim.
         eapply (agrees_in_widen (pp pi) (pp pi + nplaces s)); [exact Ai1|exact Ao1|lia|lia|].
         intros q Hq Hnq. split; [apply Hz; [exact Hq|unfold in_p; lia]|].
         apply not_in_cnt. intro Hi. destruct (ml_range N0 ns1 st s pi ctx Hfs Hact1 q Hi) as [Hr _]. unfold in_p in Hr. lia.
-      + split; [exact D|]. split; [reflexivity|rewrite Hn; exact Hact1].
+      + split; [|cbn [rchb]; unfold rch_block; rewrite Hn; exact Hc1].
+        split; [exact D|]. split; [reflexivity|rewrite Hn; exact Hact1].
   Qed.
 
   Lemma ids_list_snoc : forall st sts, ids_list (st :: sts) = svc_ids st ++ ids_list sts.
@@ -1130,10 +1268,16 @@ Section Sim.
   (* forking the branches of a Parallel, one after the other: the branches before the current one
      are running or complete, those after it have been entered only.  [pre_done]: the branches
      before this suffix are all complete *)
+  Lemma rch_is_call : forall st b q kl, is_call b = true -> rch st b q kl = kl.
+  Proof. intros st b q kl H. destruct b; try discriminate H. destruct st; reflexivity. Qed.
+  Lemma psi_adv : forall b q, s_pre (psi (adv b q)) = s_pre (psi q).
+  Proof. reflexivity. Qed.
+
   Lemma start_list_case : forall fl, (forall f0, f0 < fl -> StartOK f0) ->
-      forall bs q ctx cid sync (pre_done : bool) g sts g' ns m pend,
-        start_list orc imm fl cid (map (fun b => ([], b)) bs) g = Ok (sts, g') ->
-        frag_brs bs = true -> wired_list (wired N0) ctx bs q ->
+      forall bs q ctx cid ie kl rt sync (pre_done : bool) g sts g' ns m pend,
+        start_list orc imm fl cid (map (fun b => (ie, b)) bs) g = Ok (sts, g') ->
+        frag_brs bs = true -> forallb (sok NC rt) bs = true -> CX ns ctx cid ie kl rt q ->
+        wired_list (wired N0) ctx bs q ->
         pp q + nplaces_l bs <= nP -> pt q + ntrans_l bs <= nT ->
         sync < nT -> ~ (pt q <= sync < pt q + ntrans_l bs) ->
         (forall k b, nth_error bs k = Some b -> In (xplace b (bpos bs q k)) (preN N0 sync)) ->
@@ -1147,21 +1291,22 @@ Section Sim.
                        Marks ns' m' /\ agrees_in (pp q) (pp q + nplaces_l bs) m' (ml_list sts bs q) /\
                        agrees_out (pp q) (pp q + nplaces_l bs) m m' /\
                        StartRes ns ns' g g' pend (ids_list sts) q (napis_l bs) /\
-                       act_list N0 ns' sts bs q ctx.
+                       (act_list N0 ns' sts bs q ctx /\ C0 ns' kl).
   Proof.
     intros fl HS bs. revert fl HS.
-    induction bs as [|b r IH]; intros fl HS q ctx cid sync pre_done g sts g' ns m pend
-                                      H Hf Hw HP HT Hsy Hnsy Hxs Hinv Hgr Hctx Hlt Hm Hin HO Hsync;
+    induction bs as [|b r IH]; intros fl HS q ctx cid ie kl rt sync pre_done g sts g' ns m pend
+                                      H Hf Hsok Hcx Hw HP HT Hsy Hnsy Hxs Hinv Hgr Hctx Hlt Hm Hin HO Hsync;
       (destruct fl as [|f]; [discriminate H|]).
     - cbn [map start_list] in H. mstep. exists ns, m. cbn [is_nil negb]. rewrite andb_false_r. cbn [Enters].
       split; [apply Starts_nil|]. split; [exact Hm|].
       split; [intros x Hx; unfold nplaces_l in Hx; cbn in Hx; lia|]. split; [intros x _; reflexivity|].
-      split; [|exact I].
+      split; [|split; [exact I|exact (cx_c0 _ _ _ _ _ _ _ Hcx)]].
       unfold ids_list. cbn [flat_map]. split; [exact Hinv|]. split; [rewrite app_nil_r; exact Hgr|].
       split; [reflexivity|]. split; [rewrite app_nil_r; reflexivity|]. split; [lia|].
       exists []. split; [reflexivity|constructor].
     - cbn [map] in H. rewrite start_list_S in H. mstep as st g1 E1. mstep as sts1 g2 E2. mstep.
-      pose proof Hf as Hfall. apply frag_brs_cons in Hf. destruct Hf as (_ & Hfb & Hfr').
+      pose proof Hf as Hfall. apply frag_brs_cons in Hf. destruct Hf as (Hcall & Hfb & Hfr').
+      cbn [forallb] in Hsok. apply andb_prop in Hsok. destruct Hsok as [Hsokb Hsokr].
       pose proof Hw as Hwall. cbn [wired_list] in Hw. destruct Hw as [Wb Wr].
       rewrite nplaces_l_cons, ntrans_l_cons in *.
       set (q1 := adv b q) in *.
@@ -1188,9 +1333,11 @@ Section Sim.
         - destruct (HO j Hj ltac:(lia) Hne) as (x & X1 & X2 & X3). exists x. split; [exact X1|]. split; [lia|exact X3].
         - destruct (Hlater j ltac:(lia)) as (x & X1 & X2 & X3). exists x. split; [exact X1|]. split; [lia|]. apply not_in_cnt. exact X3.
         - destruct (HO j Hj ltac:(lia) Hne) as (x & X1 & X2 & X3). exists x. split; [exact X1|]. split; [lia|exact X3]. }
-      destruct (HS f ltac:(lia) b q ctx cid [] sync g st g1 ns m pend E1 Hfb Wb eq_refl ltac:(lia) ltac:(lia) Hsy
+      destruct (HS f ltac:(lia) b q ctx cid ie kl rt [] sync g st g1 ns m pend E1 Hfb Hsokb Hcx Wb eq_refl ltac:(lia) ltac:(lia) Hsy
                    ltac:(unfold in_t; lia) (Hxs 0 b eq_refl) Hinv Hgr Hctx Hlt Hm Hinb Houtb)
-        as (ns1 & m1 & Hen1 & Mk1 & Ai1 & Ao1 & Hres1 & Hact1).
+        as (ns1 & m1 & Hen1 & Mk1 & Ai1 & Ao1 & Hres1 & Hact1 & Hc1).
+      rewrite (rch_is_call st b q kl) in Hc1 by (destruct b; try discriminate Hcall; reflexivity).
+      assert (Hcx1 : CX ns1 ctx cid ie kl rt q1) by (eapply CX_pos; [exact Hcx|exact Hc1|apply Nat.le_refl]).
       pose proof Hres1 as (Hinv1 & Hgr1 & Hap1 & Haw1 & Hsid1 & Hd1).
       assert (Hctx1 : ctx_is ns1 ctx cid).
       { destruct Hctx as (ac & Hac & Hu). exists ac. split; [rewrite Hap1 by lia; exact Hac|exact Hu]. }
@@ -1216,7 +1363,7 @@ Section Sim.
         split; [rewrite app_nil_r; exact Hen1|]. split; [exact Mk1|].
         rewrite napis_l_cons. change (nplaces_l (@nil xstmt)) with 0. change (napis_l (@nil xstmt)) with 0.
         rewrite !Nat.add_0_r, !app_nil_r.
-        split; [exact Ai1|]. split; [exact Ao1|]. split; [|split; [exact Hact1|exact I]].
+        split; [exact Ai1|]. split; [exact Ao1|]. split; [|split; [split; [exact Hact1|exact I]|exact Hc1]].
         unfold ids_list. cbn [flat_map]. rewrite app_nil_r. exact Hres1.
       + (* the other branches are entered next *)
         assert (Hsync1 : (pre_done && is_done st) = false -> exists x, In x (preN N0 sync) /\ ~ (pp q1 <= x < pp q1 + nplaces_l r) /\ ~ In x m1).
@@ -1246,10 +1393,10 @@ Section Sim.
             + destruct (Hlater j ltac:(lia)) as (x & X1 & X2 & X3). exists x. split; [exact X1|].
               apply not_in_cnt. rewrite (Ao1 x ltac:(lia)). exact X3.
             + destruct (Hout1 j Hj ltac:(lia) Hne) as (x & X1 & X2 & X3). exists x. split; assumption. }
-        destruct (IH f ltac:(intros f0 Hf0; apply HS; lia) q1 ctx cid sync (pre_done && is_done st) g1 sts1 g2 ns1 m1 (pend ++ svc_ids st) E2 Hfr' Wr
+        destruct (IH f ltac:(intros f0 Hf0; apply HS; lia) q1 ctx cid ie kl rt sync (pre_done && is_done st) g1 sts1 g2 ns1 m1 (pend ++ svc_ids st) E2 Hfr' Hsokr Hcx1 Wr
                      ltac:(lia) ltac:(lia) Hsy ltac:(lia) ltac:(intros k b' Hb'; apply (Hxs (S k) b' Hb')) Hinv1 Hgr1 Hctx1
                      ltac:(lia) Mk1 Hin1 Hout1 Hsync1)
-          as (ns2 & m2 & Hen2 & Mk2 & Ai2 & Ao2 & Hres2 & Hact2).
+          as (ns2 & m2 & Hen2 & Mk2 & Ai2 & Ao2 & Hres2 & Hact2 & Hc2).
         pose proof Hres2 as (Hinv2 & Hgr2 & Hap2 & Haw2 & Hsid2 & Hd2).
         assert (Hact1' : act N0 ns2 st b q ctx).
         { apply (act_mono N0 ns1 ns2 st b q ctx Hfb Hact1).
@@ -1261,7 +1408,7 @@ Section Sim.
         { cbn [all_done is_nil negb]. destruct pre_done, (is_done st), (all_done sts1), r; cbn in *; try reflexivity; discriminate Q. }
         rewrite Eflag in Hen2.
         exists ns2, m2. split; [cbn [cat_of]; eapply Enters_pre; eassumption|]. split; [exact Mk2|].
-        split; [|split; [|split; [|split; assumption]]].
+        split; [|split; [|split; [|split; [split; assumption|exact Hc2]]]].
         * intros x Hx. cbn [ml_list]. fold q1. rewrite cnt_app.
           destruct (Nat.lt_ge_cases x (pp q + nplaces b)) as [A|A].
           -- rewrite (Ao2 x ltac:(lia)), (Ai1 x ltac:(lia)).
@@ -1366,10 +1513,17 @@ Section Sim.
     split; [exact W1|]. split; [exact S1|exact D1].
   Qed.
 
+  Lemma rchb_nocount : forall l bp r kl, sok_block NC false l = true -> rchb l bp r kl = kl.
+  Proof.
+    intros l bp [[j st]|] kl H; [|reflexivity]. cbn [rchb]. unfold rch_block.
+    destruct (nth_error l j) as [s'|] eqn:En; [|reflexivity]. apply (rch_nocount NC). apply (sok_block_nth _ _ _ _ _ H En).
+  Qed.
+
   Lemma start_call_case : forall f, (forall f0, f0 < S f -> StartOK f0) ->
-      forall t at_ ins bd p ctx cid xcbs t2 g st g' ns m pend,
-        start_stmt orc imm (S f) cid [] (XCall t at_ ins bd) g = Ok (st, g') ->
-        frag (XCall t at_ ins bd) = true -> wired N0 (XCall t at_ ins bd) p ctx xcbs -> no_parloop xcbs = true ->
+      forall t at_ ins bd p ctx cid ie kl rt xcbs t2 g st g' ns m pend,
+        start_stmt orc imm (S f) cid ie (XCall t at_ ins bd) g = Ok (st, g') ->
+        frag (XCall t at_ ins bd) = true -> sok NC rt (XCall t at_ ins bd) = true -> CX ns ctx cid ie kl rt p ->
+        wired N0 (XCall t at_ ins bd) p ctx xcbs -> no_parloop xcbs = true ->
         pp p + nplaces (XCall t at_ ins bd) <= nP -> pt p + ntrans (XCall t at_ ins bd) <= nT ->
         t2 < nT -> ~ in_t (XCall t at_ ins bd) p t2 -> In (xplace (XCall t at_ ins bd) p) (preN N0 t2) ->
         Inv ns -> GR g ns pend -> ctx_is ns ctx cid -> ctx < pa p ->
@@ -1379,9 +1533,11 @@ Section Sim.
                        Marks ns' m' /\ agrees_in (pp p) (pp p + nplaces (XCall t at_ ins bd)) m' (mlx st (XCall t at_ ins bd) p) /\
                        agrees_out (pp p) (pp p + nplaces (XCall t at_ ins bd)) m m' /\
                        StartRes ns ns' g g' pend (svc_ids st) p (napis (XCall t at_ ins bd)) /\
-                       act N0 ns' st (XCall t at_ ins bd) p ctx.
+                       (act N0 ns' st (XCall t at_ ins bd) p ctx /\ C0 ns' (rch st (XCall t at_ ins bd) p kl)).
   Proof.
-    intros f IHf t at_ ins bd p ctx cid xcbs t2 g st g' ns m pend H Hf Hw Hnp HP HT Ht2 Hnt2 Hx2 Hinv Hgr Hctx Hlt Hm Hin HO.
+    intros f IHf t at_ ins bd p ctx cid ie kl rt xcbs t2 g st g' ns m pend H Hf Hsok Hcx Hw Hnp HP HT Ht2 Hnt2 Hx2 Hinv Hgr Hctx Hlt Hm Hin HO.
+    cbn [sok] in Hsok. apply andb_prop in Hsok. destruct Hsok as [Hidx Hsokb].
+    pose proof (subst_params_ok ie ins (cx_ie _ _ _ _ _ _ _ Hcx) Hidx) as Hsub.
     pose proof (frag_call _ _ _ _ Hf) as [Hname Hfb].
     rewrite nplaces_call, ntrans_call, napis_call in *. unfold in_t, in_p in *. rewrite ?nplaces_call, ?ntrans_call in *.
     cbn [xplace] in Hx2.
@@ -1393,26 +1549,31 @@ Section Sim.
     cbn [wired] in Hw. destruct Hw as [(il & Hapi) Hwb].
     destruct (iv_ready _ Hinv _ _ Hapi) as (u & Ha & _).
     destruct (sim_TS (pa p) (with_uuid u (call_api il t at_ ins ctx (pa p))) (Some cid) g g1 ns pend Hinv Hgr Ha eq_refl eq_refl)
-      as (Hrun & Hcbs & Hinv1 & Hgr1 & Hpl1 & Hap1 & Hd1).
+      as (Hrun & Hcbs & Hinv1 & Hgr1 & Hpl1 & Hap1 & Hd1 & Hcn1).
+    { exact Hidx. }
     { cbn [octx_is call_api a_ctx with_uuid]. split; [exact Hctx|lia]. }
-    { unfold g1, g_step. cbn [call_api a_name a_site a_params with_uuid]. rewrite subst_params_nil.
+    { unfold g1, g_step. cbn [call_api a_name a_site a_params with_uuid]. rewrite Hsub.
       repeat split; reflexivity. }
     set (ns1 := notified TS (with_uuid (ITest (ns_tid ns)) (with_uuid u (call_api il t at_ ins ctx (pa p)))) false (ts_pre (pa p) ns)) in *.
     set (a1 := with_uuid (ITest (g_tid g)) (call_api il t at_ ins ctx (pa p))).
     assert (Hn0' : exists s0, nth_error bd 0 = Some s0) by (destruct bd; [discriminate Hfb|eexists; reflexivity]).
     destruct Hn0' as [s0 Hn0].
-    set (bp := body_pos p) in *.
+    set (bp := body_pos t p) in *.
     assert (Hctx1 : ctx_is ns1 (pa p) (g_tid g)).
     { eexists. split; [rewrite Hap1; apply nth_error_upd_eq; exact Ha|reflexivity]. }
     assert (Hm1 : Marks ns1 m) by (eapply Marks_places; [exact Hpl1|exact Hm]).
     assert (Hnp' : no_parloop (CbTF (pa p) :: xcbs) = true) by exact Hnp.
     destruct f as [|f']; [discriminate E2|].
-    destruct (start_block_case f' ltac:(intros f0 Hf0; apply IHf; lia) bd bp (pa p) (g_tid g) (CbTF (pa p) :: xcbs) t2 0 s0 g1 r g2 ns1 m pend
-                               E2 Hn0 Hfb Hwb Hnp' HP HT Ht2 ltac:(unfold in_tb; cbn [bp body_pos pt]; lia) Hx2 Hinv1 Hgr1 Hctx1
+    assert (Hc01 : C0 ns1 kl) by (apply (C0_same ns ns1 kl Hcn1 (cx_c0 _ _ _ _ _ _ _ Hcx))).
+    assert (Hcx1 : CX ns1 (pa p) (g_tid g) [] kl false bp).
+    { constructor; [exact Hc01|reflexivity|discriminate]. }
+    destruct (start_block_case f' ltac:(intros f0 Hf0; apply IHf; lia) bd bp (pa p) (g_tid g) [] kl false (CbTF (pa p) :: xcbs) t2 0 s0 g1 r g2 ns1 m pend
+                               E2 Hn0 Hfb Hsokb Hcx1 Hwb Hnp' HP HT Ht2 ltac:(unfold in_tb; cbn [bp body_pos pt]; lia) Hx2 Hinv1 Hgr1 Hctx1
                                ltac:(cbn [bp body_pos pa]; lia) Hm1)
-      as (ns2 & m2 & Hen2 & Mk2 & Ai2 & Ao2 & Hres2 & Hact2).
+      as (ns2 & m2 & Hen2 & Mk2 & Ai2 & Ao2 & Hres2 & Hact2 & Hc2).
     { intros q Hq. rewrite (Hin q Hq), entries_call, (entries_b_nth0 _ _ _ Hn0). reflexivity. }
     { exact HO. }
+    rewrite (rchb_nocount bd bp r kl Hsokb) in Hc2.
     pose proof Hres2 as (Hinv2 & Hgr2 & Hap2 & Haw2 & Hsid2 & Hd2).
     assert (Hapi2 : nth_error (ns_apis ns2) (pa p) = Some a1).
     { rewrite Hap2 by (cbn [bp body_pos pa]; lia). rewrite Hap1. rewrite (nth_error_upd_eq _ _ _ _ _ Ha). reflexivity. }
@@ -1429,6 +1590,7 @@ Section Sim.
       mstep. exists ns2, m2. cbn [is_done mlx svc_ids]. cbn [Enters].
       split; [eapply Starts_cons; [exact Hrun|exact Hcbs|exact Hen2]|].
       split; [exact Mk2|]. split; [rewrite ml_call; exact Ai2|]. split; [exact Ao2|]. split; [exact Hres12|].
+      split; [|rewrite rch_call; exact Hc2].
       rewrite act_call. fold bp. split; [|exact Hact2].
       exists il. exact Hapi2.
     - (* the body is complete: task finished *)
@@ -1443,7 +1605,7 @@ Section Sim.
       { unfold a1. cbn [octx_is with_uuid call_api a_ctx]. split; [exact Hctx2|lia]. }
       { reflexivity. }
       { rewrite <- Hg. unfold g_step, a1. cbn [with_uuid call_api a_name a_site a_uuid a_params ident_nat].
-        rewrite subst_params_nil. repeat split; reflexivity. }
+        rewrite Hsub. repeat split; reflexivity. }
       set (ns3 := notified TF a1 false ns2) in *.
       assert (Hr3 : RunCb tasks env (CbTF (pa p)) ns2 ns3).
       { pose proof (RunCb_TF (pa p) ns2 a1 (iv_ls _ Hinv2) Hapi2) as Hr.
@@ -1451,7 +1613,7 @@ Section Sim.
       exists ns3, m2. cbn [is_done mlx svc_ids xplace].
       split; [eapply Enters_cons; [exact Hrun|exact Hcbs|]; eapply Enters_cb; [exact Hen2|exact Hr3|exact Hcbs3]|].
       split; [eapply Marks_places; [exact Pl3|exact Mk2]|]. split; [exact Ai2|]. split; [exact Ao2|].
-      split; [|exact I].
+      split; [|split; [exact I|cbn [rch]; unfold ns3; apply (C0_same ns2 _ kl (nf_counters _ _ _ _) Hc2)]].
       destruct Hres12 as (_ & _ & A12 & W12 & S12 & D12).
       split; [exact Inv3|]. split; [rewrite app_nil_r; exact Gr3|]. split; [intros k Hk; rewrite Ap3; apply A12; exact Hk|].
       split; [rewrite <- Hg; exact W12|]. split; [rewrite <- Hg; exact S12|]. rewrite Di3. exact D12.
@@ -1472,9 +1634,10 @@ Section Sim.
   Qed.
 
   Lemma start_par_case : forall f, (forall f0, f0 < S f -> StartOK f0) ->
-      forall bs p ctx cid xcbs t2 g st g' ns m pend,
-        start_stmt orc imm (S f) cid [] (XParallel bs) g = Ok (st, g') ->
-        frag (XParallel bs) = true -> wired N0 (XParallel bs) p ctx xcbs -> no_parloop xcbs = true ->
+      forall bs p ctx cid ie kl rt xcbs t2 g st g' ns m pend,
+        start_stmt orc imm (S f) cid ie (XParallel bs) g = Ok (st, g') ->
+        frag (XParallel bs) = true -> sok NC rt (XParallel bs) = true -> CX ns ctx cid ie kl rt p ->
+        wired N0 (XParallel bs) p ctx xcbs -> no_parloop xcbs = true ->
         pp p + nplaces (XParallel bs) <= nP -> pt p + ntrans (XParallel bs) <= nT ->
         t2 < nT -> ~ in_t (XParallel bs) p t2 -> In (xplace (XParallel bs) p) (preN N0 t2) ->
         Inv ns -> GR g ns pend -> ctx_is ns ctx cid -> ctx < pa p ->
@@ -1484,9 +1647,10 @@ Section Sim.
                        Marks ns' m' /\ agrees_in (pp p) (pp p + nplaces (XParallel bs)) m' (mlx st (XParallel bs) p) /\
                        agrees_out (pp p) (pp p + nplaces (XParallel bs)) m m' /\
                        StartRes ns ns' g g' pend (svc_ids st) p (napis (XParallel bs)) /\
-                       act N0 ns' st (XParallel bs) p ctx.
+                       (act N0 ns' st (XParallel bs) p ctx /\ C0 ns' (rch st (XParallel bs) p kl)).
   Proof.
-    intros f IHf bs p ctx cid xcbs t2 g st g' ns m pend H Hf Hw Hnp HP HT Ht2 Hnt2 Hx2 Hinv Hgr Hctx Hlt Hm Hin HO.
+    intros f IHf bs p ctx cid ie kl rt xcbs t2 g st g' ns m pend H Hf Hsok Hcx Hw Hnp HP HT Ht2 Hnt2 Hx2 Hinv Hgr Hctx Hlt Hm Hin HO.
+    cbn [sok] in Hsok.
     pose proof (frag_par _ Hf) as [Hne Hfb]. pose proof Hw as Hwall.
     rewrite nplaces_par, ntrans_par, napis_par in *. unfold in_t, in_p in *. rewrite ?nplaces_par, ?ntrans_par in *.
     cbn [xplace] in Hx2. cbn [entries] in Hin.
@@ -1503,10 +1667,12 @@ Section Sim.
       - destruct (HO j Hj ltac:(lia) Hn2) as (q & Q1 & Q2 & Q3). exists q. split; [exact Q1|]. split; [lia|exact Q3]. }
     assert (Hxs : forall k b, nth_error bs k = Some b -> In (xplace b (bpos bs q0 k)) (preN N0 (pt p))).
     { intros k b Hb. rewrite Hpre. apply in_cat_of. exists k, b. split; [exact Hb|left; reflexivity]. }
-    destruct (start_list_case f ltac:(intros f0 Hf0; apply IHf; lia) bs q0 ctx cid (pt p) true g sts g1 ns m pend E1 Hfb Hwl
+    assert (Hcx0 : CX ns ctx cid ie kl rt q0).
+    { eapply CX_pos; [exact Hcx|exact (cx_c0 _ _ _ _ _ _ _ Hcx)|]. unfold q0, par_pos, si_sub, s_path. cbn [psi s_pre]. rewrite app_length. lia. }
+    destruct (start_list_case f ltac:(intros f0 Hf0; apply IHf; lia) bs q0 ctx cid ie kl rt (pt p) true g sts g1 ns m pend E1 Hfb Hsok Hcx0 Hwl
                               ltac:(lia) ltac:(lia) ltac:(lia) ltac:(lia) Hxs Hinv Hgr Hctx
                               ltac:(lia) Hm ltac:(intros x Hx; apply Hin; lia) Houtl ltac:(intro HH; discriminate HH))
-      as (ns' & m' & Hen & Mk & Ai & Ao & Hres & Hact).
+      as (ns' & m' & Hen & Mk & Ai & Ao & Hres & Hact & Hc').
     assert (Hnil : is_nil bs = false) by (destruct bs; [congruence|reflexivity]).
     rewrite Hnil in Hen. cbn [negb andb] in Hen. rewrite andb_true_r in Hen.
     assert (Hlen : List.length sts = List.length bs).
@@ -1518,7 +1684,7 @@ Section Sim.
       pose proof Hres as (Inv' & _).
       destruct (par_exit bs p ctx xcbs sts ns' m m' Hfb Hwall Hnp ltac:(lia) ltac:(lia) Hact Had Houtl Hpfin Inv' Mk Ai Ao)
         as (tr & Hms & Mkf & Invf & Aif & Aof). cbv zeta in Hms, Mkf, Invf, Aif, Aof.
-      eexists. eexists. split; [|split; [exact Mkf|split; [exact Aif|split; [exact Aof|split; [|exact I]]]]].
+      eexists. eexists. split; [|split; [exact Mkf|split; [exact Aif|split; [exact Aof|split; [|split; [exact I|exact Hc']]]]]].
       + destruct Hen as [k Hk]. exists k. intros rest K. eapply MS_trans; [apply Hk|apply Hms].
       + rewrite (ids_list_all_done _ Had) in Hres. apply StartRes_fired; [exact Hres|]. rewrite (iv_npl _ Invf), (iv_npl _ Inv'). reflexivity.
     - (* some branch waits *)
@@ -1529,7 +1695,7 @@ Section Sim.
         * rewrite (Ao (pp p) ltac:(lia)), Hpfin. symmetry. apply not_in_cnt. intro Hi.
           pose proof (ml_list_range N0 ns' sts bs q0 ctx _ Hfb Hact Hi). lia.
         * apply Ai. lia.
-      + apply act_par. split; assumption.
+      + split; [apply act_par; split; assumption|rewrite rch_par; exact Hc'].
   Qed.
 
   (* ---- the decision of a Condition on the reference side ---- *)
@@ -1638,9 +1804,9 @@ Section Sim.
   Qed.
 
   Lemma start_branch : forall f, (forall f0, f0 < S f -> StartOK f0) ->
-      forall e cbk ep pb xs scbs B cb fb sb PL PH TL TH AL AH ctx cid t2 q' g g1 r g' ns m pend,
+      forall cbk ep pb xs scbs B cb fb sb PL PH TL TH AL AH ctx cid ie kl rt t2 s1 g g1 r g' ns m pend,
         PL <= ep < PL + 3 -> PL <= pb < PL + 3 -> ep <> pb -> PL <= xs < PL + 4 ->
-        frag_block B = true -> wired_block (wired N0) N0 ctx [] B cb ->
+        frag_block B = true -> sok_block NC rt B = true -> wired_block (wired N0) N0 ctx [] B cb ->
         PL + 4 <= pp cb -> pp cb + nplaces_l B <= PH -> TL + 3 <= pt cb -> pt cb + ntrans_b B <= TH ->
         AL <= pa cb -> pa cb + napis_l B <= AH ->
         TL <= fb < TL + 2 -> TL + 2 <= sb < TH -> ~ in_tb B cb sb ->
@@ -1653,11 +1819,12 @@ Section Sim.
         ctx_is ns ctx cid -> ctx < AL ->
         Marks ns m -> (forall q, PL <= q < PH -> cnt m q = cnt [ep] q) ->
         Hout PL PH TL TH t2 m ->
-        (forall ac s', nth_error (ns_apis ns) ctx = Some ac ->
-                       EvalTo tasks env (placed pb (cond_pre e (ident_nat (a_uuid ac)) q' ns)) s' -> RunCb tasks env cbk ns s') ->
-        g_q g1 = q' ->
-        g_log g1 = rev (map (fun v => EQuery v cid) (expr_vars e)) ++ g_log g -> g_same g g1 ->
-        run_block orc imm f cid [] B 0 g1 = Ok (r, g') ->
+        Inv s1 -> GR g1 s1 pend -> CX s1 ctx cid ie kl rt cb ->
+        ns_places s1 = ns_places ns -> ns_apis s1 = ns_apis ns -> ns_place_dict s1 = ns_place_dict ns ->
+        ns_sid s1 = ns_sid ns -> ns_cbs s1 = ns_cbs ns ->
+        (forall s', EvalTo tasks env (placed pb s1) s' -> RunCb tasks env cbk ns s') ->
+        g_same g g1 ->
+        run_block orc imm f cid ie B 0 g1 = Ok (r, g') ->
         exists ns' m',
           match r with
           | Some _ => Starts [cbk] ns ns'
@@ -1671,31 +1838,15 @@ Section Sim.
           g_awaited g' = g_awaited g ++ ids_opt r /\ g_sid g <= g_sid g' /\
           (exists d, ns_place_dict ns' = d ++ ns_place_dict ns /\
                      Forall (fun kv => exists i, fst kv = ITest i /\ ns_sid ns <= i) d) /\
-          actb ns' B cb ctx r.
+          (actb ns' B cb ctx r /\ C0 ns' (rchb B cb r kl)).
   Proof.
-    intros f IHf e cbk ep pb xs scbs B cb fb sb PL PH TL TH AL AH ctx cid t2 q' g g1 r g' ns m pend Hep Hpb Hepb Hxs
-           HfB WB R1 R2 R3 R4 R5 R6 Hfb Hsb Hnsb Pfb Qfb Cfb Psb Qsb Csb Hnp Hoth HP HT Ht2 Hnt2 Hx2
-           Hinv Hgr Hctx Hlt Hm Hin HO Hopen Hq1 Hlog1 (T1 & T2 & T3 & T4 & T5 & T6 & T7) E2.
+    intros f IHf cbk ep pb xs scbs B cb fb sb PL PH TL TH AL AH ctx cid ie kl rt t2 s1 g g1 r g' ns m pend Hep Hpb Hepb Hxs
+           HfB HsokB WB R1 R2 R3 R4 R5 R6 Hfb Hsb Hnsb Pfb Qfb Cfb Psb Qsb Csb Hnp Hoth HP HT Ht2 Hnt2 Hx2
+           Hinv Hgr Hctx Hlt Hm Hin HO Inv1 Gr1 Hcx1 Epl Eap Edi Esid Ecb Hopen (T1 & T2 & T3 & T4 & T5 & T6 & T7) E2.
     pose proof Hctx as (ac & Hac & Huc).
-    (* the state in which the nested evaluation starts *)
-    set (s1 := cond_pre e (ident_nat (a_uuid ac)) q' ns).
-    assert (Inv1 : Inv s1) by (destruct Hinv as [I1 I2 I3 I4 I5 I6 I7 I8 I9 I10 I11]; constructor; assumption).
-    assert (Gr1 : GR g1 s1 pend).
-    { destruct Hgr as [G1 G2 G3 G4 G5 G6 G7 G8 G9 G10]. constructor.
-      - change (ns_tid s1) with (ns_tid ns). congruence.
-      - change (ns_sid s1) with (ns_sid ns). congruence.
-      - change (ns_nss s1) with (ns_nss ns). congruence.
-      - change (ns_running s1) with (ns_running ns). congruence.
-      - change (ns_log s1) with (rev (map (fun v => EQuery v (ident_nat (a_uuid ac))) (expr_vars e)) ++ ns_log ns).
-        rewrite Hlog1, G5, Huc. reflexivity.
-      - change (ns_ls s1) with (ns_ls ns). congruence.
-      - change (ns_obs s1) with (ns_obs ns). congruence.
-      - change (ns_awaited s1) with (ns_awaited ns). congruence.
-      - change (ns_pending s1) with (ns_pending ns). exact G9.
-      - change (ns_q s1) with q'. congruence. }
     assert (Hlenp : pb < List.length (ns_places s1)).
-    { change (ns_places s1) with (ns_places ns). rewrite (iv_npl _ Hinv). fold nP. lia. }
-    assert (Mk1 : Marks s1 m) by exact Hm.
+    { rewrite Epl, (iv_npl _ Hinv). fold nP. lia. }
+    assert (Mk1 : Marks s1 m) by (eapply Marks_places; [exact Epl|exact Hm]).
     assert (Mk2 : Marks (placed pb s1) (pb :: m)) by (apply Marks_placed; assumption).
     set (s2 := placed pb s1) in *.
     assert (Inv2 : Inv s2).
@@ -1704,7 +1855,7 @@ Section Sim.
     assert (Gr2 : GR g1 s2 pend) by (destruct Gr1; constructor; assumption).
     (* the callback opens an evaluation in s2 *)
     assert (Hpush : forall rest K, MS (ns, (cbk :: rest) :: K) (s2, [] :: rest :: K)).
-    { intros rest K. apply MS_push; [reflexivity|]. intros s' Hev. apply (Hopen ac s' Hac Hev). }
+    { intros rest K. apply MS_push; [exact Ecb|]. intros s' Hev. apply (Hopen s' Hev). }
     (* the first transition of the chosen branch *)
     assert (HfbT : fb < nT) by lia.
     destruct (trans_exists fb HfbT) as [trf Htrf].
@@ -1789,16 +1940,20 @@ Section Sim.
       - exact Cfb.
       - apply no_parloop_startcbs. }
     (* the branch starts *)
-    assert (Hctxf : ctx_is nsf ctx cid) by (exists ac; split; assumption).
+    assert (Hctxf : ctx_is nsf ctx cid).
+    { exists ac. split; [change (ns_apis nsf) with (ns_apis s1); rewrite Eap; exact Hac|exact Huc]. }
+    assert (Hcxf : CX nsf ctx cid ie kl rt cb) by (destruct Hcx1 as [X1 X2 X3]; constructor; [exact X1|exact X2|exact X3]).
     destruct f as [|f']; [discriminate E2|].
-    destruct (start_block_case f' ltac:(intros f0 Hlef0; apply IHf; lia) B cb ctx cid [] sb 0 s0 g1 r g' nsf m3 pend E2 Hn0 HfB WB eq_refl
+    destruct (start_block_case f' ltac:(intros f0 Hlef0; apply IHf; lia) B cb ctx cid ie kl rt [] sb 0 s0 g1 r g' nsf m3 pend E2 Hn0 HfB HsokB Hcxf WB eq_refl
                                ltac:(lia) ltac:(lia) ltac:(lia) Hnsb ltac:(rewrite Psb; left; reflexivity) Invf Grf Hctxf
                                ltac:(lia) Mkf)
-      as (ns4 & m4 & Hen4 & Mk4 & Ai4 & Ao4 & Hres4 & Hact4).
+      as (ns4 & m4 & Hen4 & Mk4 & Ai4 & Ao4 & Hres4 & Hact4 & Hc4).
     { intros q Hq. fold p0'. apply Hm3_in. unfold in_pb in Hq. lia. }
     { exact HoutB. }
     fold p0' in Hen4.
     pose proof Hres4 as (Inv4 & Gr4 & Ap4 & Aw4 & Sid4 & Di4).
+    change (ns_apis nsf) with (ns_apis s1) in Ap4. rewrite Eap in Ap4.
+    change (ns_place_dict nsf) with (ns_place_dict s1) in Di4. change (ns_sid nsf) with (ns_sid s1) in Di4. rewrite Edi, Esid in Di4.
     destruct r as [[j st0]|]; cbn [is_none mlb actb ids_opt Enters] in *.
     - (* the branch waits: the evaluation that the callback opened ends *)
       exists ns4, m4. split.
@@ -1815,7 +1970,7 @@ Section Sim.
       split; [exact Inv4|]. split; [exact Gr4|].
       split; [intros k Hk; rewrite Ap4 by lia; reflexivity|].
       split; [rewrite Aw4, T7; reflexivity|]. split; [rewrite <- T2; exact Sid4|].
-      split; [exact Di4|exact Hact4].
+      split; [exact Di4|split; [exact Hact4|exact Hc4]].
     - (* the branch is complete: its second transition fires *)
       destruct (block_exit B cb sb xs PL PH scbs ctx ns4 m3 m4 HfB WB R1 R2 HP ltac:(lia) Hxs Psb Qsb Csb Hnp HoutB Hz3 Inv4 Mk4 Ai4 Ao4)
         as (trs & Hms & Mk5 & Inv5 & Ai5 & Ao5). cbv zeta in Hms, Mk5, Inv5, Ai5, Ao5.
@@ -1828,13 +1983,35 @@ Section Sim.
       split; [exact Inv5|]. split; [apply GR_fire; exact Gr4|].
       split; [intros k Hk; change (ns_apis (fire_ns trs ns4)) with (ns_apis ns4); rewrite Ap4 by lia; reflexivity|].
       split; [rewrite Aw4, T7; reflexivity|]. split; [rewrite <- T2; exact Sid4|].
-      split; [exact Di4|exact I].
+      split; [exact Di4|split; [exact I|exact Hc4]].
+  Qed.
+
+  Lemma cond_pre_ok : forall e cid q' g g1 ns pend ac,
+      Inv ns -> GR g ns pend -> a_uuid ac = ITest cid ->
+      g_q g1 = q' -> g_log g1 = rev (map (fun v => EQuery v cid) (expr_vars e)) ++ g_log g -> g_same g g1 ->
+      Inv (cond_pre e (ident_nat (a_uuid ac)) q' ns) /\ GR g1 (cond_pre e (ident_nat (a_uuid ac)) q' ns) pend.
+  Proof.
+    intros e cid q' g g1 ns pend ac Hinv Hgr Huc Hq1 Hlog1 (T1 & T2 & T3 & T4 & T5 & T6 & T7).
+    set (s1 := cond_pre e (ident_nat (a_uuid ac)) q' ns).
+    split; [destruct Hinv as [I1 I2 I3 I4 I5 I6 I7 I8 I9 I10 I11]; constructor; assumption|].
+    destruct Hgr as [G1 G2 G3 G4 G5 G6 G7 G8 G9 G10]. constructor.
+    - change (ns_tid s1) with (ns_tid ns). congruence.
+    - change (ns_sid s1) with (ns_sid ns). congruence.
+    - change (ns_nss s1) with (ns_nss ns). congruence.
+    - change (ns_running s1) with (ns_running ns). congruence.
+    - change (ns_log s1) with (rev (map (fun v => EQuery v (ident_nat (a_uuid ac))) (expr_vars e)) ++ ns_log ns).
+      rewrite Hlog1, G5, Huc. reflexivity.
+    - change (ns_ls s1) with (ns_ls ns). congruence.
+    - change (ns_obs s1) with (ns_obs ns). congruence.
+    - change (ns_awaited s1) with (ns_awaited ns). congruence.
+    - change (ns_pending s1) with (ns_pending ns). exact G9.
+    - change (ns_q s1) with q'. congruence.
   Qed.
 
   Lemma start_cond_branch : forall f, (forall f0, f0 < S f -> StartOK f0) ->
-      forall e (b : bool) B cb fb sb PL PH TL TH AL AH ctx cid xcbs t2 q' g g1 r g' ns m pend,
+      forall e (b : bool) B cb fb sb PL PH TL TH AL AH ctx cid ie kl rt xcbs t2 q' g g1 r g' ns m pend,
         let pb := if b then PL else PL + 1 in
-        frag_block B = true -> wired_block (wired N0) N0 ctx [] B cb ->
+        frag_block B = true -> sok_block NC rt B = true -> CX ns ctx cid ie kl rt cb -> wired_block (wired N0) N0 ctx [] B cb ->
         PL + 4 <= pp cb -> pp cb + nplaces_l B <= PH -> TL + 3 <= pt cb -> pt cb + ntrans_b B <= TH ->
         AL <= pa cb -> pa cb + napis_l B <= AH ->
         TL <= fb < TL + 2 -> TL + 2 <= sb < TH -> ~ in_tb B cb sb ->
@@ -1849,7 +2026,7 @@ Section Sim.
         Hout PL PH TL TH t2 m ->
         decide expected_ops orc e (g_q g) = Ok (b, q') -> g_q g1 = q' ->
         g_log g1 = rev (map (fun v => EQuery v cid) (expr_vars e)) ++ g_log g -> g_same g g1 ->
-        run_block orc imm f cid [] B 0 g1 = Ok (r, g') ->
+        run_block orc imm f cid ie B 0 g1 = Ok (r, g') ->
         exists ns' m',
           Enters [CbCond e PL (PL + 1) ctx] ns ns' (is_none r) xcbs /\
           Marks ns' m' /\
@@ -1860,23 +2037,28 @@ Section Sim.
           g_awaited g' = g_awaited g ++ ids_opt r /\ g_sid g <= g_sid g' /\
           (exists d, ns_place_dict ns' = d ++ ns_place_dict ns /\
                      Forall (fun kv => exists i, fst kv = ITest i /\ ns_sid ns <= i) d) /\
-          actb ns' B cb ctx r.
+          (actb ns' B cb ctx r /\ C0 ns' (rchb B cb r kl)).
   Proof.
-    intros f IHf e b B cb fb sb PL PH TL TH AL AH ctx cid xcbs t2 q' g g1 r g' ns m pend pb
-           HfB WB R1 R2 R3 R4 R5 R6 Hfb Hsb Hnsb Pfb Qfb Cfb Psb Qsb Csb Hnp Hoth HP HT Ht2 Hnt2 Hx2
+    intros f IHf e b B cb fb sb PL PH TL TH AL AH ctx cid ie kl rt xcbs t2 q' g g1 r g' ns m pend pb
+           HfB HsokB Hcx WB R1 R2 R3 R4 R5 R6 Hfb Hsb Hnsb Pfb Qfb Cfb Psb Qsb Csb Hnp Hoth HP HT Ht2 Hnt2 Hx2
            Hinv Hgr Hctx Hlt Hm Hin HO Hdec Hq1 Hlog1 Hsame E2.
     assert (Hpb : PL <= pb < PL + 2) by (unfold pb; destruct b; lia).
-    assert (Hopen : forall ac s', nth_error (ns_apis ns) ctx = Some ac ->
+    pose proof Hctx as (ac & Hac & Huc).
+    destruct (cond_pre_ok e cid q' g g1 ns pend ac Hinv Hgr Huc Hq1 Hlog1 Hsame) as [Inv1 Gr1].
+    assert (Hopen : forall s',
                        EvalTo tasks env (placed pb (cond_pre e (ident_nat (a_uuid ac)) q' ns)) s' ->
                        RunCb tasks env (CbCond e PL (PL + 1) ctx) ns s').
-    { intros ac s' Hac Hev. apply (RunCb_Cond tasks env e PL (PL + 1) ctx ns ac b q' s' Hac).
+    { intros s' Hev. apply (RunCb_Cond tasks env e PL (PL + 1) ctx ns ac b q' s' Hac).
       - rewrite Horc, (gr_q _ _ _ Hgr). exact Hdec.
       - rewrite (gr_aw _ _ _ Hgr). apply no_setplace_awaited.
       - fold pb. apply (Marks_has_place ns m pb Hinv Hm). lia.
       - fold pb. exact Hev. }
-    destruct (start_branch f IHf e (CbCond e PL (PL + 1) ctx) (PL + 2) pb (PL + 3) xcbs B cb fb sb PL PH TL TH AL AH ctx cid t2 q' g g1 r g' ns m pend
-                           ltac:(lia) ltac:(lia) ltac:(lia) ltac:(lia) HfB WB R1 R2 R3 R4 R5 R6 Hfb Hsb Hnsb Pfb Qfb Cfb Psb Qsb Csb Hnp Hoth
-                           HP HT Ht2 Hnt2 Hx2 Hinv Hgr Hctx Hlt Hm Hin HO Hopen Hq1 Hlog1 Hsame E2)
+    assert (Hcx1 : CX (cond_pre e (ident_nat (a_uuid ac)) q' ns) ctx cid ie kl rt cb).
+    { destruct Hcx as [X1 X2 X3]. constructor; [exact X1|exact X2|exact X3]. }
+    destruct (start_branch f IHf (CbCond e PL (PL + 1) ctx) (PL + 2) pb (PL + 3) xcbs B cb fb sb PL PH TL TH AL AH ctx cid ie kl rt t2
+                           (cond_pre e (ident_nat (a_uuid ac)) q' ns) g g1 r g' ns m pend
+                           ltac:(lia) ltac:(lia) ltac:(lia) ltac:(lia) HfB HsokB WB R1 R2 R3 R4 R5 R6 Hfb Hsb Hnsb Pfb Qfb Cfb Psb Qsb Csb Hnp Hoth
+                           HP HT Ht2 Hnt2 Hx2 Hinv Hgr Hctx Hlt Hm Hin HO Inv1 Gr1 Hcx1 eq_refl eq_refl eq_refl eq_refl eq_refl Hopen Hsame E2)
       as (ns' & m' & Hen & Rest).
     exists ns', m'. split; [|exact Rest]. destruct r as [[j st0]|]; exact Hen.
   Qed.
@@ -1897,7 +2079,7 @@ Section Sim.
         agrees_in (pp p) (pp p + (4 + nplaces_l P)) m' [pp p + 3] /\
         agrees_out (pp p) (pp p + (4 + nplaces_l P)) m m' /\
         Inv ns' /\ GR g1 ns' pend /\ ns_apis ns' = ns_apis ns /\ ns_place_dict ns' = ns_place_dict ns /\
-        ns_sid ns' = ns_sid ns.
+        ns_sid ns' = ns_sid ns /\ ns_counters ns' = ns_counters ns.
   Proof.
     intros e P p ctx cid xcbs t2 q' g g1 ns m pend HfP Hw Hnp HP HT Ht2 Hnt2 Hx2 Hinv Hgr Hctx Hm Hin HO Hdec Hq1 Hlog1
            (T1 & T2 & T3 & T4 & T5 & T6 & T7).
@@ -1989,60 +2171,49 @@ Section Sim.
     split; [exact Invf|]. split; [exact Grf|]. repeat split; reflexivity.
   Qed.
 
-  Lemma loop_else : forall e P p ctx cid xcbs t2 q' g g1 ns m pend,
-      frag_block P = true -> wired N0 (XWhile e P) p ctx xcbs -> no_parloop xcbs = true ->
+  Definition loop_wired (P : list xstmt) (p : pos) (ctx : nat) (xcbs : list cb) : Prop :=
+    preN N0 (pt p) = [pp p; pp p + 1] /\ preN N0 (pt p + 1) = [pp p; pp p + 2] /\ postN N0 (pt p + 1) = [pp p + 3] /\
+    cbsN N0 (pt p + 1) = xcbs /\ preN N0 (pt p + 2) = [xplace_b P (loop_p p)] /\
+    wired_block (wired N0) N0 ctx [] P (loop_p p).
+  Lemma loop_wired_while : forall e P p ctx xcbs, wired N0 (XWhile e P) p ctx xcbs -> loop_wired P p ctx xcbs.
+  Proof. intros e P p ctx xcbs Hw. cbn [wired] in Hw. destruct Hw as (W1 & W2 & W3 & W4 & W5 & W6 & W7 & W8 & W9 & WP). repeat split; assumption. Qed.
+  Lemma loop_wired_count : forall v l P p ctx xcbs, wired N0 (XCount v l P) p ctx xcbs -> loop_wired P p ctx xcbs.
+  Proof. intros v l P p ctx xcbs Hw. cbn [wired] in Hw. destruct Hw as (W1 & W2 & W3 & W4 & W5 & W6 & W7 & W8 & W9 & WP). repeat split; assumption. Qed.
+
+  Lemma loop_else : forall cbk s1 P p ctx cid xcbs t2 g1 ns m pend,
+      frag_block P = true -> loop_wired P p ctx xcbs -> no_parloop xcbs = true ->
       pp p + (4 + nplaces_l P) <= nP -> pt p + (3 + ntrans_b P) <= nT ->
       t2 < nT -> ~ (pt p <= t2 < pt p + (3 + ntrans_b P)) -> In (pp p + 3) (preN N0 t2) ->
-      Inv ns -> GR g ns pend -> ctx_is ns ctx cid ->
+      Inv ns -> ctx_is ns ctx cid ->
       Marks ns m -> (forall q, pp p <= q < pp p + (4 + nplaces_l P) -> cnt m q = cnt [pp p] q) ->
       Hout (pp p) (pp p + (4 + nplaces_l P)) (pt p) (pt p + (3 + ntrans_b P)) t2 m ->
-      decide expected_ops orc e (g_q g) = Ok (false, q') -> g_q g1 = q' ->
-      g_log g1 = rev (map (fun v => EQuery v cid) (expr_vars e)) ++ g_log g -> g_same g g1 ->
+      Inv s1 -> GR g1 s1 pend ->
+      ns_places s1 = ns_places ns -> ns_apis s1 = ns_apis ns -> ns_place_dict s1 = ns_place_dict ns ->
+      ns_sid s1 = ns_sid ns -> ns_cbs s1 = ns_cbs ns ->
+      (forall s', EvalTo tasks env (placed (pp p + 2) s1) s' -> RunCb tasks env cbk ns s') ->
       exists ns' m',
-        Enters [CbWhile e (pp p + 1) (pp p + 2) ctx] ns ns' true xcbs /\ Marks ns' m' /\
+        Enters [cbk] ns ns' true xcbs /\ Marks ns' m' /\
         agrees_in (pp p) (pp p + (4 + nplaces_l P)) m' [pp p + 3] /\
         agrees_out (pp p) (pp p + (4 + nplaces_l P)) m m' /\
         Inv ns' /\ GR g1 ns' pend /\ ns_apis ns' = ns_apis ns /\ ns_place_dict ns' = ns_place_dict ns /\
-        ns_sid ns' = ns_sid ns.
+        ns_sid ns' = ns_sid ns /\ ns_counters ns' = ns_counters s1.
   Proof.
-    intros e P p ctx cid xcbs t2 q' g g1 ns m pend HfP Hw Hnp HP HT Ht2 Hnt2 Hx2 Hinv Hgr Hctx Hm Hin HO Hdec Hq1 Hlog1
-           (T1 & T2 & T3 & T4 & T5 & T6 & T7).
-    cbn [wired] in Hw. destruct Hw as (W1 & W2 & W3 & W4 & W5 & W6 & W7 & W8 & W9 & WP).
+    intros cbk s1 P p ctx cid xcbs t2 g1 ns m pend HfP Hw Hnp HP HT Ht2 Hnt2 Hx2 Hinv Hctx Hm Hin HO
+           Inv1 Gr1 Epl Eap Edi Esid Ecb Hopen.
+    destruct Hw as (W1 & W4 & W5 & W6 & W7 & WP).
     set (PL := pp p) in *. set (PH := pp p + (4 + nplaces_l P)) in *.
-    pose proof Hctx as (ac & Hac & Huc).
-    set (s1 := cond_pre e (ident_nat (a_uuid ac)) q' ns).
-    assert (Inv1 : Inv s1) by (destruct Hinv as [I1 I2 I3 I4 I5 I6 I7 I8 I9 I10 I11]; constructor; assumption).
-    assert (Gr1 : GR g1 s1 pend).
-    { destruct Hgr as [G1 G2 G3 G4 G5 G6 G7 G8 G9 G10]. constructor.
-      - change (ns_tid s1) with (ns_tid ns). congruence.
-      - change (ns_sid s1) with (ns_sid ns). congruence.
-      - change (ns_nss s1) with (ns_nss ns). congruence.
-      - change (ns_running s1) with (ns_running ns). congruence.
-      - change (ns_log s1) with (rev (map (fun v => EQuery v (ident_nat (a_uuid ac))) (expr_vars e)) ++ ns_log ns).
-        rewrite Hlog1, G5, Huc. reflexivity.
-      - change (ns_ls s1) with (ns_ls ns). congruence.
-      - change (ns_obs s1) with (ns_obs ns). congruence.
-      - change (ns_awaited s1) with (ns_awaited ns). congruence.
-      - change (ns_pending s1) with (ns_pending ns). exact G9.
-      - change (ns_q s1) with q'. congruence. }
     set (pb := PL + 2).
     assert (Hlenp : pb < List.length (ns_places s1)).
-    { change (ns_places s1) with (ns_places ns). rewrite (iv_npl _ Hinv). fold nP. unfold pb, PL. lia. }
-    assert (Mk1 : Marks s1 m) by exact Hm.
+    { rewrite Epl, (iv_npl _ Hinv). fold nP. unfold pb, PL. lia. }
+    assert (Mk1 : Marks s1 m) by (eapply Marks_places; [exact Epl|exact Hm]).
     assert (Mk2 : Marks (placed pb s1) (pb :: m)) by (apply Marks_placed; assumption).
     set (s2 := placed pb s1) in *.
     assert (Inv2 : Inv s2).
     { destruct Inv1 as [I1 I2 I3 I4 I5 I6 I7 I8 I9 I10 I11]. constructor; try assumption.
       unfold s2, placed. cbn [ns_places set]. rewrite upd_length. exact I8. }
     assert (Gr2 : GR g1 s2 pend) by (destruct Gr1; constructor; assumption).
-    assert (Hpush : forall rest K, MS (ns, (CbWhile e (PL + 1) (PL + 2) ctx :: rest) :: K) (s2, [] :: rest :: K)).
-    { intros rest K. apply MS_push; [reflexivity|]. intros s' Hev.
-      apply (RunCb_While tasks env e (PL + 1) (PL + 2) ctx ns ac false q' s' Hac).
-      - rewrite Horc, (gr_q _ _ _ Hgr). exact Hdec.
-      - rewrite (gr_aw _ _ _ Hgr). apply no_setplace_awaited.
-      - fold pb. unfold has_place. destruct (proj1 Hm pb) as [k0 Hk0]; [change (ns_places s1) with (ns_places ns) in Hlenp; exact Hlenp|].
-        rewrite Hk0. reflexivity.
-      - fold pb. exact Hev. }
+    assert (Hpush : forall rest K, MS (ns, (cbk :: rest) :: K) (s2, [] :: rest :: K)).
+    { intros rest K. apply MS_push; [exact Ecb|]. intros s' Hev. apply Hopen. exact Hev. }
     (* the condition-failed transition *)
     assert (HffT : pt p + 1 < nT) by lia.
     destruct (trans_exists (pt p + 1) HffT) as [trf Htrf].
@@ -2063,7 +2234,7 @@ Section Sim.
       - apply inb_spec in Eq. rewrite (Hin q Eq). unfold pb. cnt_cases.
       - apply not_true_iff_false in Eq. rewrite inb_spec in Eq. unfold pb, PH, PL in *. cnt_cases. }
     fold nsf in Mkf.
-    pose proof (xplace_range_b P HfP (cond_p p)) as XP. cbn [cond_p pp] in XP. fold PL in XP.
+    pose proof (xplace_range_b P HfP (loop_p p)) as XP. cbn [loop_p pp] in XP. fold PL in XP.
     assert (Hpbm : forall q, PL <= q < PH -> q <> pb -> q <> PL -> ~ In q (pb :: m)).
     { intros q Hq N1 N2 [E0|Hi]; [congruence|]. apply cnt_pos_in in Hi. rewrite (Hin q Hq) in Hi. revert Hi. cnt_cases. }
     assert (Hfire : forall K, MS (s2, [] :: K) (nsf, xcbs :: K)).
@@ -2078,9 +2249,9 @@ Section Sim.
             intros [E0|Hi]; [unfold pb, PH, PL in *; lia|contradiction].
         + destruct (Nat.eq_dec j (pt p)) as [->|N0']; [|destruct (Nat.eq_dec j (pt p + 2)) as [->|N2]].
           * exists (PL + 1). rewrite W1. split; [right; left; reflexivity|]. apply Hpbm; unfold pb, PH, PL; lia.
-          * exists (xplace_b P (cond_p p)). rewrite W7. split; [left; reflexivity|]. apply Hpbm; unfold pb, PH; lia.
-          * destruct (exit_blocked_block N0 P (cond_p p) ctx [] HfP WP j ltac:(unfold in_tb; cbn [cond_p pt]; lia)) as (q & Q1 & Q2 & _).
-            exists q. split; [exact Q1|]. unfold in_pb in Q2. cbn [cond_p pp] in Q2. fold PL in Q2. apply Hpbm; unfold pb, PH; lia.
+          * exists (xplace_b P (loop_p p)). rewrite W7. split; [left; reflexivity|]. apply Hpbm; unfold pb, PH; lia.
+          * destruct (exit_blocked_block N0 P (loop_p p) ctx [] HfP WP j ltac:(unfold in_tb; cbn [loop_p pt]; lia)) as (q & Q1 & Q2 & _).
+            exists q. split; [exact Q1|]. unfold in_pb in Q2. cbn [loop_p pp] in Q2. fold PL in Q2. apply Hpbm; unfold pb, PH; lia.
         + destruct (Nat.eq_dec j t2) as [->|Hn2].
           * exists (PL + 3). split; [exact Hx2|]. apply Hpbm; unfold pb, PH, PL; lia.
           * destruct (HO j Hj ltac:(lia) Hn2) as (q & Q1 & Q2 & Q3). exists q. split; [exact Q1|].
@@ -2092,13 +2263,13 @@ Section Sim.
     split; [exact Mkf|].
     split; [intros q Hq; unfold m3; cnt_cases|].
     split; [intros q Hq; unfold m3; cnt_cases|].
-    split; [exact Invf|]. split; [exact Grf|]. repeat split; reflexivity.
+    split; [exact Invf|]. split; [exact Grf|]. split; [exact Eap|]. split; [exact Edi|]. split; [exact Esid|reflexivity].
   Qed.
 
   Lemma start_cond_case : forall f, (forall f0, f0 < S f -> StartOK f0) ->
-      forall e P F p ctx cid xcbs t2 g st g' ns m pend,
-        start_stmt orc imm (S f) cid [] (XCond e P F) g = Ok (st, g') ->
-        frag (XCond e P F) = true -> wired N0 (XCond e P F) p ctx xcbs -> no_parloop xcbs = true ->
+      forall e P F p ctx cid ie kl rt xcbs t2 g st g' ns m pend,
+        start_stmt orc imm (S f) cid ie (XCond e P F) g = Ok (st, g') ->
+        frag (XCond e P F) = true -> sok NC rt (XCond e P F) = true -> CX ns ctx cid ie kl rt p -> wired N0 (XCond e P F) p ctx xcbs -> no_parloop xcbs = true ->
         pp p + nplaces (XCond e P F) <= nP -> pt p + ntrans (XCond e P F) <= nT ->
         t2 < nT -> ~ in_t (XCond e P F) p t2 -> In (xplace (XCond e P F) p) (preN N0 t2) ->
         Inv ns -> GR g ns pend -> ctx_is ns ctx cid -> ctx < pa p ->
@@ -2108,9 +2279,14 @@ Section Sim.
                        Marks ns' m' /\ agrees_in (pp p) (pp p + nplaces (XCond e P F)) m' (mlx st (XCond e P F) p) /\
                        agrees_out (pp p) (pp p + nplaces (XCond e P F)) m m' /\
                        StartRes ns ns' g g' pend (svc_ids st) p (napis (XCond e P F)) /\
-                       act N0 ns' st (XCond e P F) p ctx.
+                       (act N0 ns' st (XCond e P F) p ctx /\ C0 ns' (rch st (XCond e P F) p kl)).
   Proof.
-    intros f IHf e P F p ctx cid xcbs t2 g st g' ns m pend H Hf Hw Hnp HP HT Ht2 Hnt2 Hx2 Hinv Hgr Hctx Hlt Hm Hin HO.
+    intros f IHf e P F p ctx cid ie kl rt xcbs t2 g st g' ns m pend H Hf Hsok Hcx Hw Hnp HP HT Ht2 Hnt2 Hx2 Hinv Hgr Hctx Hlt Hm Hin HO.
+    cbn [sok] in Hsok. apply andb_prop in Hsok. destruct Hsok as [HsP HsF].
+    assert (HcxP : CX ns ctx cid ie kl rt (cond_p p)).
+    { eapply CX_pos; [exact Hcx|exact (cx_c0 _ _ _ _ _ _ _ Hcx)|]. unfold cond_p, si_sub2, s_path. cbn [psi s_pre]. rewrite !app_length. lia. }
+    assert (HcxF : CX ns ctx cid ie kl rt (cond_f P p)).
+    { eapply CX_pos; [exact Hcx|exact (cx_c0 _ _ _ _ _ _ _ Hcx)|]. unfold cond_f, si_sub2, s_path. cbn [psi s_pre]. rewrite !app_length. lia. }
     destruct (list_nil_dec F) as [->|HneF].
     { (* no Failed block *)
       pose proof (frag_cond0 _ _ Hf) as HfP. pose proof Hw as Hwall.
@@ -2125,8 +2301,8 @@ Section Sim.
       destruct b.
       - (* the test passes *)
         destruct (start_cond_branch f IHf e true P (cond_p p) (pt p) (pt p + 2) (pp p) (pp p + (4 + nplaces_l P))
-                   (pt p) (pt p + (3 + ntrans_b P)) (pa p) (pa p + napis_l P) ctx cid xcbs t2 q' g g1 r g2 ns m pend
-                   HfP WP ltac:(cbn [cond_p pp]; lia) ltac:(cbn [cond_p pp]; lia) ltac:(cbn [cond_p pt]; lia)
+                   (pt p) (pt p + (3 + ntrans_b P)) (pa p) (pa p + napis_l P) ctx cid ie kl rt xcbs t2 q' g g1 r g2 ns m pend
+                   HfP HsP HcxP WP ltac:(cbn [cond_p pp]; lia) ltac:(cbn [cond_p pp]; lia) ltac:(cbn [cond_p pt]; lia)
                    ltac:(cbn [cond_p pt]; lia) ltac:(cbn [cond_p pa]; lia) ltac:(cbn [cond_p pa]; lia)
                    ltac:(lia) ltac:(lia) ltac:(unfold in_tb; cbn [cond_p pt]; lia) W1 W2 W3 W7 W8 W9 Hnp)
           as (ns' & m' & Hen & Mk & Ai & Ao & Inv' & Gr' & Ap' & Aw' & Sid' & Di' & Hab); try assumption.
@@ -2135,20 +2311,20 @@ Section Sim.
           exists (pp p + 1). rewrite W4. split; [right; left; reflexivity|]. unfold in_pb. cbn [cond_p pp]. repeat split; lia. }
         destruct r as [[j st0]|]; mstep; cbn [is_none is_done mlx svc_ids ids_opt actb xplace] in *.
         + exists ns', m'. split; [exact Hen|]. split; [exact Mk|]. split; [rewrite ml_cond; exact Ai|]. split; [exact Ao|].
-          split; [|rewrite act_cond; exact Hab].
+          split; [|split; [rewrite act_cond; exact (proj1 Hab)|rewrite rch_cond; exact (proj2 Hab)]].
           split; [exact Inv'|]. split; [exact Gr'|]. split; [exact Ap'|]. split; [exact Aw'|]. split; [exact Sid'|exact Di'].
         + exists ns', m'. split; [exact Hen|]. split; [exact Mk|]. split; [exact Ai|]. split; [exact Ao|].
-          split; [|exact I].
+          split; [|split; [exact I|exact (proj2 Hab)]].
           split; [exact Inv'|]. split; [exact Gr'|]. split; [exact Ap'|]. split; [exact Aw'|]. split; [exact Sid'|exact Di'].
       - (* the test fails: nothing to run *)
         destruct f as [|f0]; [discriminate E2|].
-        change (run_block orc imm (S f0) cid [] [] 0 g1 = Ok (r, g2)) in E2. rewrite run_block_S in E2. cbn [nth_error] in E2.
+        change (run_block orc imm (S f0) cid ie [] 0 g1 = Ok (r, g2)) in E2. rewrite run_block_S in E2. cbn [nth_error] in E2.
         unfold ret in E2. injection E2 as Er Eg. subst r g2. mstep. cbn [is_done mlx svc_ids xplace].
         destruct (start_cond_empty e P p ctx cid xcbs t2 q' g g1 ns m pend HfP Hwall Hnp HP HT Ht2 Hnt2 Hx2 Hinv Hgr Hctx Hm Hin HO
-                                   Hdec Hq1 Hlog1 Hsame) as (ns' & m' & Hen & Mk & Ai & Ao & Inv' & Gr' & Ea & Ed & Es).
+                                   Hdec Hq1 Hlog1 Hsame) as (ns' & m' & Hen & Mk & Ai & Ao & Inv' & Gr' & Ea & Ed & Es & Ec).
         destruct Hsame as (T1 & T2 & T3 & T4 & T5 & T6 & T7).
         exists ns', m'. split; [exact Hen|]. split; [exact Mk|]. split; [exact Ai|]. split; [exact Ao|].
-        split; [|exact I].
+        split; [|split; [exact I|apply (C0_same ns ns' kl Ec (cx_c0 _ _ _ _ _ _ _ Hcx))]].
         split; [exact Inv'|]. split; [rewrite app_nil_r; exact Gr'|]. split; [intros k _; rewrite Ea; reflexivity|].
         split; [rewrite app_nil_r; exact T7|]. split; [rewrite T2; apply Nat.le_refl|].
         exists []. split; [rewrite Ed; reflexivity|constructor]. }
@@ -2173,11 +2349,12 @@ Section Sim.
           g_awaited g2 = g_awaited g ++ ids_opt r /\ g_sid g <= g_sid g2 /\
           (exists d, ns_place_dict ns' = d ++ ns_place_dict ns /\
                      Forall (fun kv => exists i, fst kv = ITest i /\ ns_sid ns <= i) d) /\
-          actb ns' (if b then P else F) (if b then cond_p p else cond_f P p) ctx r).
+          (actb ns' (if b then P else F) (if b then cond_p p else cond_f P p) ctx r /\
+           C0 ns' (rchb (if b then P else F) (if b then cond_p p else cond_f P p) r kl))).
     { destruct b.
       - apply (start_cond_branch f IHf e true P (cond_p p) (pt p) (pt p + 2) (pp p) (pp p + (4 + nplaces_l P + nplaces_l F))
-                 (pt p) (pt p + (4 + ntrans_b P + ntrans_b F)) (pa p) (pa p + (napis_l P + napis_l F)) ctx cid xcbs t2 q' g g1 r g2 ns m pend
-                 HfP WP); try assumption; try (cbn [cond_p pp pt pa]; lia).
+                 (pt p) (pt p + (4 + ntrans_b P + ntrans_b F)) (pa p) (pa p + (napis_l P + napis_l F)) ctx cid ie kl rt xcbs t2 q' g g1 r g2 ns m pend
+                 HfP HsP HcxP WP); try assumption; try (cbn [cond_p pp pt pa]; lia).
         + unfold in_tb. cbn [cond_p pt]. lia.
         + intros j Hj Hnj Hns Hnf. unfold in_tb in Hnj. cbn [cond_p pt] in Hnj.
           destruct (Nat.eq_dec j (pt p + 1)) as [->|N1]; [|destruct (Nat.eq_dec j (cond_sf P p)) as [->|N3]].
@@ -2187,8 +2364,8 @@ Section Sim.
             destruct (exit_blocked_block N0 F (cond_f P p) ctx [] HfF WF j ltac:(unfold in_tb; cbn [cond_f pt]; lia)) as (q & Q1 & Q2 & _).
             exists q. split; [exact Q1|]. unfold in_pb in *. cbn [cond_f cond_p pp] in *. repeat split; lia.
       - apply (start_cond_branch f IHf e false F (cond_f P p) (pt p + 1) (cond_sf P p) (pp p) (pp p + (4 + nplaces_l P + nplaces_l F))
-                 (pt p) (pt p + (4 + ntrans_b P + ntrans_b F)) (pa p) (pa p + (napis_l P + napis_l F)) ctx cid xcbs t2 q' g g1 r g2 ns m pend
-                 HfF WF); try assumption; try (unfold cond_sf; cbn [cond_f pp pt pa]; lia).
+                 (pt p) (pt p + (4 + ntrans_b P + ntrans_b F)) (pa p) (pa p + (napis_l P + napis_l F)) ctx cid ie kl rt xcbs t2 q' g g1 r g2 ns m pend
+                 HfF HsF HcxF WF); try assumption; try (unfold cond_sf; cbn [cond_f pp pt pa]; lia).
         + unfold in_tb, cond_sf. cbn [cond_f pt]. lia.
         + intros j Hj Hnj Hns Hnf. unfold in_tb in Hnj. cbn [cond_f pt] in Hnj. unfold cond_sf in Hns.
           destruct (Nat.eq_dec j (pt p)) as [->|N1]; [|destruct (Nat.eq_dec j (pt p + 2)) as [->|N3]].
@@ -2200,10 +2377,10 @@ Section Sim.
     cbn [startcbs].
     destruct r as [[j st0]|]; mstep; cbn [is_none is_done mlx svc_ids ids_opt actb xplace] in *.
     - exists ns', m'. split; [exact Hen|]. split; [exact Mk|]. split; [rewrite ml_cond; exact Ai|]. split; [exact Ao|].
-      split; [|rewrite act_cond; exact Hab].
+      split; [|split; [rewrite act_cond; exact (proj1 Hab)|rewrite rch_cond; exact (proj2 Hab)]].
       split; [exact Inv'|]. split; [exact Gr'|]. split; [exact Ap'|]. split; [exact Aw'|]. split; [exact Sid'|exact Di'].
     - exists ns', m'. split; [exact Hen|]. split; [exact Mk|]. split; [exact Ai|]. split; [exact Ao|].
-      split; [|exact I].
+      split; [|split; [exact I|exact (proj2 Hab)]].
       split; [exact Inv'|]. split; [exact Gr'|]. split; [exact Ap'|]. split; [exact Aw'|]. split; [exact Sid'|exact Di'].
   Qed.
 
@@ -2223,9 +2400,9 @@ Section Sim.
   Proof. reflexivity. Qed.
 
   Definition LoopOK (f : nat) : Prop :=
-    forall e B p ctx cid xcbs t2 k g st g' ns m pend,
-      loop_test orc imm f cid [] (XWhile e B) k g = Ok (st, g') ->
-      frag (XWhile e B) = true -> wired N0 (XWhile e B) p ctx xcbs -> no_parloop xcbs = true ->
+    forall e B p ctx cid ie kl rt xcbs t2 k g st g' ns m pend,
+      loop_test orc imm f cid ie (XWhile e B) k g = Ok (st, g') ->
+      frag (XWhile e B) = true -> sok NC rt (XWhile e B) = true -> CX ns ctx cid ie kl rt p -> wired N0 (XWhile e B) p ctx xcbs -> no_parloop xcbs = true ->
       pp p + nplaces (XWhile e B) <= nP -> pt p + ntrans (XWhile e B) <= nT ->
       t2 < nT -> ~ in_t (XWhile e B) p t2 -> In (xplace (XWhile e B) p) (preN N0 t2) ->
       Inv ns -> GR g ns pend -> ctx_is ns ctx cid -> ctx < pa p ->
@@ -2235,54 +2412,61 @@ Section Sim.
                      Marks ns' m' /\ agrees_in (pp p) (pp p + nplaces (XWhile e B)) m' (mlx st (XWhile e B) p) /\
                      agrees_out (pp p) (pp p + nplaces (XWhile e B)) m m' /\
                      StartRes ns ns' g g' pend (svc_ids st) p (napis (XWhile e B)) /\
-                     act N0 ns' st (XWhile e B) p ctx.
+                     (act N0 ns' st (XWhile e B) p ctx /\ C0 ns' (rch st (XWhile e B) p kl)).
 
   Lemma loop_case : forall f, (forall f0, f0 < f -> StartOK f0) -> LoopOK f.
   Proof.
-    induction f as [|f IHf]; intros HS e B p ctx cid xcbs t2 k g st g' ns m pend
-                                    H Hf Hw Hnp HP HT Ht2 Hnt2 Hx2 Hinv Hgr Hctx Hlt Hm Hin HO; [discriminate H|].
+    induction f as [|f IHf]; intros HS e B p ctx cid ie kl rt xcbs t2 k g st g' ns m pend
+                                    H Hf Hsok Hcx Hw Hnp HP HT Ht2 Hnt2 Hx2 Hinv Hgr Hctx Hlt Hm Hin HO; [discriminate H|].
+    pose proof Hsok as HsB. cbn [sok] in HsB.
     pose proof (frag_while _ _ Hf) as HfB. pose proof Hw as Hwall. pose proof HO as HOall. pose proof Hx2 as Hx2all.
     rewrite nplaces_while, ntrans_while, napis_while in *. unfold in_t, in_p in *. rewrite ?nplaces_while, ?ntrans_while in *.
     cbn [xplace] in Hx2. cbn [entries] in Hin. cbn [startcbs].
     cbn [wired] in Hw. destruct Hw as (W1 & W2 & W3 & W4 & W5 & W6 & W7 & W8 & W9 & WB).
     rewrite loop_test_S in H. mstep as b g1 E1.
     destruct (decide_m_spec _ _ _ _ _ E1) as (q' & Hdec & Hq1 & Hlog1 & Hsame).
-    pose proof (xplace_range_b B HfB (cond_p p)) as XB. cbn [cond_p pp] in XB.
+    pose proof (xplace_range_b B HfB (loop_p p)) as XB. cbn [loop_p pp] in XB.
     set (CW := CbWhile e (pp p + 1) (pp p + 2) ctx) in *.
+    pose proof Hctx as (ac & Hac & Huc).
+    destruct (cond_pre_ok e cid q' g g1 ns pend ac Hinv Hgr Huc Hq1 Hlog1 Hsame) as [Inv1 Gr1].
+    set (s1 := cond_pre e (ident_nat (a_uuid ac)) q' ns) in *.
     destruct b.
     - (* the test passes: the body is entered *)
       mstep as r g2 E2.
-      assert (Hopen : forall ac s', nth_error (ns_apis ns) ctx = Some ac ->
-                         EvalTo tasks env (placed (pp p + 1) (cond_pre e (ident_nat (a_uuid ac)) q' ns)) s' ->
+      assert (Hopen : forall s',
+                         EvalTo tasks env (placed (pp p + 1) s1) s' ->
                          RunCb tasks env CW ns s').
-      { intros ac s' Hac Hev. apply (RunCb_While tasks env e (pp p + 1) (pp p + 2) ctx ns ac true q' s' Hac).
+      { intros s' Hev. apply (RunCb_While tasks env e (pp p + 1) (pp p + 2) ctx ns ac true q' s' Hac).
         - rewrite Horc, (gr_q _ _ _ Hgr). exact Hdec.
         - rewrite (gr_aw _ _ _ Hgr). apply no_setplace_awaited.
         - apply (Marks_has_place ns m _ Hinv Hm). lia.
         - exact Hev. }
-      destruct (start_branch f HS e CW (pp p) (pp p + 1) (pp p) [CW] B (cond_p p) (pt p) (pt p + 2)
+      assert (Hcx1 : CX s1 ctx cid ie kl rt (loop_p p)).
+      { eapply CX_pos; [exact Hcx|exact (cx_c0 _ _ _ _ _ _ _ Hcx)|]. unfold loop_p, si_sub, s_path. cbn [psi s_pre]. rewrite app_length. lia. }
+      destruct (start_branch f HS CW (pp p) (pp p + 1) (pp p) [CW] B (loop_p p) (pt p) (pt p + 2)
                              (pp p) (pp p + (4 + nplaces_l B)) (pt p) (pt p + (3 + ntrans_b B)) (pa p) (pa p + napis_l B)
-                             ctx cid t2 q' g g1 r g2 ns m pend
-                             ltac:(lia) ltac:(lia) ltac:(lia) ltac:(lia) HfB WB
-                             ltac:(cbn [cond_p pp]; lia) ltac:(cbn [cond_p pp]; lia) ltac:(cbn [cond_p pt]; lia)
-                             ltac:(cbn [cond_p pt]; lia) ltac:(cbn [cond_p pa]; lia) ltac:(cbn [cond_p pa]; lia)
-                             ltac:(lia) ltac:(lia) ltac:(unfold in_tb; cbn [cond_p pt]; lia) W1 W2 W3 W7 W8 W9 eq_refl)
-        as (ns' & m' & Hen & Mk & Ai & Ao & Inv' & Gr' & Ap' & Aw' & Sid' & Di' & Hab); try assumption.
-      { intros j Hj Hnj Hns Hnf. unfold in_tb in Hnj. cbn [cond_p pt] in Hnj.
+                             ctx cid ie kl rt t2 s1 g g1 r g2 ns m pend
+                             ltac:(lia) ltac:(lia) ltac:(lia) ltac:(lia) HfB HsB WB
+                             ltac:(cbn [loop_p pp]; lia) ltac:(cbn [loop_p pp]; lia) ltac:(cbn [loop_p pt]; lia)
+                             ltac:(cbn [loop_p pt]; lia) ltac:(cbn [loop_p pa]; lia) ltac:(cbn [loop_p pa]; lia)
+                             ltac:(lia) ltac:(lia) ltac:(unfold in_tb; cbn [loop_p pt]; lia) W1 W2 W3 W7 W8 W9 eq_refl)
+        as (ns' & m' & Hen & Mk & Ai & Ao & Inv' & Gr' & Ap' & Aw' & Sid' & Di' & Hab & Hcb); try assumption; try reflexivity.
+      { intros j Hj Hnj Hns Hnf. unfold in_tb in Hnj. cbn [loop_p pt] in Hnj.
         assert (j = pt p + 1) by lia. subst j.
-        exists (pp p + 2). rewrite W4. split; [right; left; reflexivity|]. unfold in_pb. cbn [cond_p pp]. repeat split; lia. }
-      destruct r as [[j st0]|]; cbn [ids_opt actb] in *.
+        exists (pp p + 2). rewrite W4. split; [right; left; reflexivity|]. unfold in_pb. cbn [loop_p pp]. repeat split; lia. }
+      destruct r as [[j st0]|]; cbn [ids_opt actb rchb] in *.
       + (* the body waits *)
         mstep. cbn [is_done mlx svc_ids Enters].
         exists ns', m'. split; [exact Hen|]. split; [exact Mk|]. split; [rewrite ml_loop; exact Ai|]. split; [exact Ao|].
-        split; [|rewrite act_loop; exact Hab].
+        split; [|split; [rewrite act_loop; exact Hab|rewrite rch_loop; exact Hcb]].
         split; [exact Inv'|]. split; [exact Gr'|]. split; [exact Ap'|]. split; [exact Aw'|]. split; [exact Sid'|exact Di'].
       + (* the body completed at once: next test, one evaluation deeper *)
         rewrite app_nil_r in Gr', Aw'.
         assert (Hctx' : ctx_is ns' ctx cid).
-        { destruct Hctx as (ac & Hac & Hu). exists ac. split; [|exact Hu]. rewrite Ap' by lia. exact Hac. }
+        { exists ac. split; [|exact Huc]. rewrite Ap' by lia. exact Hac. }
         assert (Ao' : agrees_out (pp p) (pp p + (4 + nplaces_l B)) m m') by exact Ao.
-        destruct (IHf ltac:(intros f0 Hf0; apply HS; lia) e B p ctx cid xcbs t2 (S k) g2 st g' ns' m' pend H Hf Hwall Hnp)
+        assert (Hcx' : CX ns' ctx cid ie kl rt p) by (eapply CX_pos; [exact Hcx|exact Hcb|apply Nat.le_refl]).
+        destruct (IHf ltac:(intros f0 Hf0; apply HS; lia) e B p ctx cid ie kl rt xcbs t2 (S k) g2 st g' ns' m' pend H Hf Hsok Hcx' Hwall Hnp)
           as (ns'' & m'' & Hen2 & Mk2 & Ai2 & Ao2 & Hres2 & Hact2);
           rewrite ?nplaces_while, ?ntrans_while, ?napis_while; unfold in_t, in_p; rewrite ?nplaces_while, ?ntrans_while;
           try assumption; try lia.
@@ -2301,7 +2485,7 @@ Section Sim.
              change ([] :: Unw kk (rest :: K)) with (Unw (S kk) (rest :: K)).
              apply MS_unwind; [exact Inv2|]. apply (dis_dead ns'' m'' Inv2 Mk2).
              rewrite (mlx_nd _ _ _ D) in Ai2.
-             apply (stmt_dis (XWhile e B) p ctx xcbs t2 st ns'' m m'' Hf Hwall D Hx2all); rewrite ?nplaces_while, ?ntrans_while; assumption.
+             apply (stmt_dis (XWhile e B) p ctx xcbs t2 st ns'' m m'' Hf Hwall D Hx2all); rewrite ?nplaces_while, ?ntrans_while; try assumption. exact (proj1 Hact2).
         * assert (E0 : svc_ids st = [] ++ svc_ids st) by reflexivity. rewrite E0.
           eapply (StartRes_trans ns ns' ns'' g g2 g' pend [] (svc_ids st) p (napis_l B) p (napis_l B) p (napis_l B));
             [exact Hgr| |rewrite app_nil_r; exact Hres2|lia|lia|lia|lia].
@@ -2309,11 +2493,255 @@ Section Sim.
           split; [rewrite app_nil_r; exact Aw'|]. split; [exact Sid'|exact Di'].
     - (* the test fails: the loop is left *)
       mstep. cbn [is_done mlx svc_ids xplace].
-      destruct (loop_else e B p ctx cid xcbs t2 q' g g1 ns m pend HfB Hwall Hnp HP HT Ht2 Hnt2 Hx2 Hinv Hgr Hctx Hm Hin HO
-                          Hdec Hq1 Hlog1 Hsame) as (ns' & m' & Hen & Mk & Ai & Ao & Inv' & Gr' & Ea & Ed & Es).
+      assert (Hopen : forall s', EvalTo tasks env (placed (pp p + 2) s1) s' -> RunCb tasks env CW ns s').
+      { intros s' Hev. apply (RunCb_While tasks env e (pp p + 1) (pp p + 2) ctx ns ac false q' s' Hac).
+        - rewrite Horc, (gr_q _ _ _ Hgr). exact Hdec.
+        - rewrite (gr_aw _ _ _ Hgr). apply no_setplace_awaited.
+        - apply (Marks_has_place ns m _ Hinv Hm). lia.
+        - exact Hev. }
+      destruct (loop_else CW s1 B p ctx cid xcbs t2 g1 ns m pend HfB (loop_wired_while _ _ _ _ _ Hwall) Hnp HP HT Ht2 Hnt2 Hx2 Hinv Hctx Hm Hin HO
+                          Inv1 Gr1 eq_refl eq_refl eq_refl eq_refl eq_refl Hopen) as (ns' & m' & Hen & Mk & Ai & Ao & Inv' & Gr' & Ea & Ed & Es & Ec).
       destruct Hsame as (T1 & T2 & T3 & T4 & T5 & T6 & T7).
       exists ns', m'. split; [exact Hen|]. split; [exact Mk|]. split; [exact Ai|]. split; [exact Ao|].
-      split; [|exact I].
+      split; [|split; [exact I|cbn [rch]; apply (C0_same ns ns' kl Ec (cx_c0 _ _ _ _ _ _ _ Hcx))]].
+      split; [exact Inv'|]. split; [rewrite app_nil_r; exact Gr'|]. split; [intros k0 _; rewrite Ea; reflexivity|].
+      split; [rewrite app_nil_r; exact T7|]. split; [rewrite T2; apply Nat.le_refl|].
+      exists []. split; [rewrite Ed; reflexivity|constructor].
+  Qed.
+
+  (* ---- counting loops: the test before iteration k ---- *)
+  Lemma loop_test_S_count : forall f cid ie v lim B k,
+      loop_test orc imm (S f) cid ie (XCount v lim B) k =
+      (n <- read_limit orc lim cid ;;
+       if (Z.of_nat k <? n)%Z then
+         r <- run_block orc imm f cid ((v, k) :: ie) B 0 ;;
+         match r with
+         | None => loop_test orc imm f cid ie (XCount v lim B) (S k)
+         | Some (i, st) => ret (RLoop k i st)
+         end
+       else ret RDone).
+  Proof. reflexivity. Qed.
+
+  (* the state after get_loop_limit *)
+  Definition lim_pre (lim : limit) (cidn : nat) (s : NS) : NS :=
+    match lim with
+    | LimInt _ => s
+    | LimPath v _ => (s <| ns_log := rev [EQuery v cidn] ++ ns_log s |>) <| ns_q := S (ns_q s) |>
+    end.
+
+  Lemma Qlt_bool_int : forall k (q : Q), Qden q = 1%positive ->
+      Qlt_bool (inject_Z (Z.of_nat k)) q = (Z.of_nat k <? Qnum q)%Z.
+  Proof.
+    intros k [qn qd] H. cbn [Qden] in H. subst qd. unfold Qlt_bool, inject_Z. cbn [Qnum Qden].
+    unfold Qle_bool. cbn [Qnum Qden]. rewrite !Z.mul_1_r. rewrite Z.ltb_antisym. reflexivity.
+  Qed.
+
+  Lemma limit_sim : forall lim ctx cid g n g1 ns pend ac,
+      read_limit orc lim cid g = Ok (n, g1) -> GR g ns pend ->
+      nth_error (ns_apis ns) ctx = Some ac -> a_uuid ac = ITest cid ->
+      exists l, get_loop_limit env lim ctx ns = Ok (l, lim_pre lim cid ns) /\
+                (forall k, Qlt_bool (inject_Z (Z.of_nat k)) l = (Z.of_nat k <? n)%Z) /\
+                g_same g g1 /\ g_q g1 = ns_q (lim_pre lim cid ns) /\ g_log g1 = ns_log (lim_pre lim cid ns).
+  Proof.
+    intros lim ctx cid g n g1 ns pend ac H Hgr Hac Huc. destruct Hgr as [G1 G2 G3 G4 G5 G6 G7 G8 G9 G10].
+    destruct lim as [n0|v pth]; cbn [read_limit get_loop_limit lim_pre] in *.
+    - unfold ret in H. injection H as <- <-. exists (inject_Z (Z.of_nat n0)). split; [reflexivity|].
+      split; [intro k; apply Qlt_bool_int; reflexivity|]. split; [repeat split; reflexivity|]. split; [symmetry; exact G10|symmetry; exact G5].
+    - destruct (orc (g_q g) v) as [x|] eqn:Eo; [|discriminate H].
+      destruct (resolve x pth) as [[q|bb|ss|fs]| | |] eqn:Er; try discriminate H.
+      destruct (Pos.eqb (Qden q) 1) eqn:Ed; [|discriminate H]. apply Pos.eqb_eq in Ed.
+      unfold bind, log_entry, log_entries, set_q, ret in H. injection H as <- <-.
+      exists q. unfold nbind at 1. unfold get_api at 1. rewrite Hac.
+      unfold nbind at 1. unfold nget at 1. unfold nbind at 1. unfold nlog at 1, nmod at 1.
+      rewrite <- G10 in Eo. rewrite Horc, Eo. unfold nbind at 1. unfold nmod at 1. rewrite Er. unfold nret.
+      rewrite Huc. cbn [ident_nat].
+      split; [reflexivity|]. split; [intro k; apply Qlt_bool_int; exact Ed|].
+      split; [repeat split; reflexivity|]. cbn [g_q g_log set ns_q ns_log]. rewrite G10, G5. split; reflexivity.
+  Qed.
+
+  (* Inv and GR only look at some components *)
+  Lemma Inv_cnt : forall ns ns', Inv ns ->
+      ns_trans ns' = ns_trans ns -> ns_cbs ns' = ns_cbs ns -> ns_test_ids ns' = ns_test_ids ns -> ns_ls ns' = ns_ls ns ->
+      ns_start_place ns' = ns_start_place ns -> ns_final_place ns' = ns_final_place ns -> ns_places ns' = ns_places ns ->
+      ns_apis ns' = ns_apis ns -> ns_place_dict ns' = ns_place_dict ns -> ns_sid ns' = ns_sid ns ->
+      cnts_plain (ns_counters ns') -> NC = false -> Inv ns'.
+  Proof.
+    intros ns ns' [I1 I2 I3 I4 I5 I6 I7 I8 I9 I10 I11] E1 E2 E3 E4 E5 E6 E7 E8 E9 E10 Hp Hnc.
+    constructor; rewrite ?E1, ?E2, ?E3, ?E4, ?E5, ?E6, ?E7, ?E8, ?E9, ?E10; try assumption.
+    split; [exact Hp|]. intro Hc. congruence.
+  Qed.
+  Lemma dict_get_set_same : forall (V : Type) u (d : V) l, dict_get ident_eqb u (dict_set ident_eqb u d l) = Some d.
+  Proof.
+    intros V u d. induction l as [|[k v] r IH]; cbn [dict_set dict_get]; [rewrite ident_eqb_refl; reflexivity|].
+    destruct (ident_eqb u k) eqn:E; cbn [dict_get]; [rewrite ident_eqb_refl; reflexivity|rewrite E; exact IH].
+  Qed.
+  Lemma counters_of_set : forall u d s, counters_of u (set_cnt u d s) = d.
+  Proof. intros u d s. unfold counters_of, set_cnt. cbn [ns_counters set]. rewrite dict_get_set_same. reflexivity. Qed.
+
+  Lemma RunCb_Count' : forall key lim pt pf ctx s c k d1 l s2 (b : bool) s3 s',
+      nth_error (ns_apis s) ctx = Some c -> count_next key (counters_of (a_uuid c) s) = k ->
+      dict_set lkey_eqb (KLoop key) (CInt k) (counters_of (a_uuid c) s) = d1 ->
+      get_loop_limit env lim ctx (set_cnt (a_uuid c) d1 s) = Ok (l, s2) ->
+      Qlt_bool (inject_Z (Z.of_nat k)) l = b ->
+      s3 = (if b then s2 else set_cnt (a_uuid c) (dict_del lkey_eqb (KLoop key) (counters_of (a_uuid c) s2)) s2) ->
+      existsb (event_eqb (EvSetPlace (if b then pt else pf))) (ns_awaited s3) = false ->
+      has_place s3 (if b then pt else pf) = true ->
+      EvalTo tasks env (placed (if b then pt else pf) s3) s' ->
+      RunCb tasks env (CbCount key lim pt pf ctx) s s'.
+  Proof.
+    intros key lim pt pf ctx s c k d1 l s2 b s3 s' Hc Hk Hd Hl Hb Hs3 Ha Hh He. subst k d1 b s3.
+    eapply RunCb_Count; eassumption.
+  Qed.
+
+  Definition kpre (k : nat) (kl : list (site * nat)) (p : pos) : list (site * nat) :=
+    match k with 0 => kl | S k' => (pkey p, k') :: kl end.
+
+  Definition CountOK (f : nat) : Prop :=
+    forall v lim B p ctx cid ie kl xcbs t2 k g st g' ns m pend,
+      loop_test orc imm f cid ie (XCount v lim B) k g = Ok (st, g') ->
+      frag (XCount v lim B) = true -> sok NC true (XCount v lim B) = true ->
+      ctx = 0 -> cid = 0 -> klb kl p -> C0 ns (kpre k kl p) ->
+      wired N0 (XCount v lim B) p ctx xcbs -> no_parloop xcbs = true ->
+      pp p + nplaces (XCount v lim B) <= nP -> pt p + ntrans (XCount v lim B) <= nT ->
+      t2 < nT -> ~ in_t (XCount v lim B) p t2 -> In (xplace (XCount v lim B) p) (preN N0 t2) ->
+      Inv ns -> GR g ns pend -> ctx_is ns ctx cid -> ctx < pa p ->
+      Marks ns m -> (forall q, in_p (XCount v lim B) p q -> cnt m q = cnt (entries (XCount v lim B) p) q) ->
+      Hout (pp p) (pp p + nplaces (XCount v lim B)) (pt p) (pt p + ntrans (XCount v lim B)) t2 m ->
+      exists ns' m', Enters (startcbs (XCount v lim B) p ctx) ns ns' (is_done st) xcbs /\
+                     Marks ns' m' /\ agrees_in (pp p) (pp p + nplaces (XCount v lim B)) m' (mlx st (XCount v lim B) p) /\
+                     agrees_out (pp p) (pp p + nplaces (XCount v lim B)) m m' /\
+                     StartRes ns ns' g g' pend (svc_ids st) p (napis (XCount v lim B)) /\
+                     (act N0 ns' st (XCount v lim B) p ctx /\ C0 ns' (rch st (XCount v lim B) p kl)).
+
+  Lemma count_case : forall f, (forall f0, f0 < f -> StartOK f0) -> CountOK f.
+  Proof.
+    induction f as [|f IHf]; intros HS v lim B p ctx cid ie kl xcbs t2 k g st g' ns m pend
+                                    H Hf Hsok Hc0 Hcid0 Hklb Hcnt Hw Hnp HP HT Ht2 Hnt2 Hx2 Hinv Hgr Hctx Hlt Hm Hin HO; [discriminate H|].
+    pose proof Hsok as HsB. cbn [sok] in HsB. apply andb_prop in HsB. destruct HsB as [HsB1 HsB].
+    apply andb_prop in HsB1. destruct HsB1 as [Hnc _]. apply negb_true_iff in Hnc.
+    pose proof (frag_count _ _ _ Hf) as HfB. pose proof Hw as Hwall. pose proof HO as HOall. pose proof Hx2 as Hx2all.
+    rewrite nplaces_count, ntrans_count, napis_count in *. unfold in_t, in_p in *. rewrite ?nplaces_count, ?ntrans_count in *.
+    cbn [xplace] in Hx2. cbn [entries] in Hin. cbn [startcbs].
+    cbn [wired] in Hw. destruct Hw as (W1 & W2 & W3 & W4 & W5 & W6 & W7 & W8 & W9 & WB).
+    rewrite loop_test_S_count in H. mstep as n g1 E1.
+    pose proof (xplace_range_b B HfB (loop_p p)) as XB. cbn [loop_p pp] in XB.
+    set (key := pkey p) in *.
+    set (CW := CbCount key lim (pp p + 1) (pp p + 2) ctx) in *.
+    pose proof Hctx as (ac & Hac & Huc).
+    assert (Hu0 : a_uuid ac = ITest 0) by (rewrite Huc, Hcid0; reflexivity).
+    assert (Hfresh : forall k0, ~ In (key, k0) (rev kl)).
+    { apply in_rev_fresh. apply (klb_fresh kl p Hklb). }
+    (* the count *)
+    assert (Hcn : count_next key (counters_of (a_uuid ac) ns) = k).
+    { rewrite Hu0. unfold count_next. unfold C0 in Hcnt. rewrite Hcnt. destruct k as [|k']; cbn [kpre].
+      - rewrite (enc_get_none key (rev kl) Hfresh). reflexivity.
+      - cbn [rev]. fold key. rewrite (enc_get_last key k' (rev kl) Hfresh). reflexivity. }
+    assert (Hd1 : dict_set lkey_eqb (KLoop key) (CInt k) (counters_of (a_uuid ac) ns) = enc (rev ((key, k) :: kl))).
+    { rewrite Hu0. unfold C0 in Hcnt. rewrite Hcnt. cbn [rev]. destruct k as [|k']; cbn [kpre].
+      - apply (enc_set_new key 0 (rev kl) Hfresh).
+      - cbn [rev]. fold key. apply (enc_set_last key k' (S k') (rev kl) Hfresh). }
+    set (sA := set_cnt (a_uuid ac) (enc (rev ((key, k) :: kl))) ns).
+    assert (GrA : GR g sA pend) by (destruct Hgr; constructor; assumption).
+    destruct (limit_sim lim ctx cid g n g1 sA pend ac E1 GrA Hac Huc) as (l & Hlim & Hltb & Hsame & Hq1 & Hlog1).
+    set (s2 := lim_pre lim cid sA) in *.
+    assert (Fs2 : ns_trans s2 = ns_trans ns /\ ns_cbs s2 = ns_cbs ns /\ ns_test_ids s2 = ns_test_ids ns /\ ns_ls s2 = ns_ls ns /\
+                  ns_start_place s2 = ns_start_place ns /\ ns_final_place s2 = ns_final_place ns /\ ns_places s2 = ns_places ns /\
+                  ns_apis s2 = ns_apis ns /\ ns_place_dict s2 = ns_place_dict ns /\ ns_sid s2 = ns_sid ns /\
+                  ns_counters s2 = dict_set ident_eqb (a_uuid ac) (enc (rev ((key, k) :: kl))) (ns_counters ns) /\
+                  ns_tid s2 = ns_tid ns /\ ns_nss s2 = ns_nss ns /\ ns_running s2 = ns_running ns /\ ns_obs s2 = ns_obs ns /\
+                  ns_awaited s2 = ns_awaited ns /\ ns_pending s2 = ns_pending ns).
+    { unfold s2, lim_pre, sA, set_cnt. destruct lim; repeat split; reflexivity. }
+    destruct Fs2 as (F1 & F2 & F3 & F4 & F5 & F6 & F7 & F8 & F9 & F10 & F11 & F12 & F13 & F14 & F15 & F16 & F17).
+    assert (Inv2 : Inv s2).
+    { apply (Inv_cnt ns s2 Hinv); try assumption. rewrite F11. apply cnts_plain_set; [apply (proj1 (iv_cnt _ Hinv))|apply enc_plain]. }
+    assert (Gr2 : GR g1 s2 pend).
+    { destruct Hgr as [G1 G2 G3 G4 G5 G6 G7 G8 G9 G10]. destruct Hsame as (T1 & T2 & T3 & T4 & T5 & T6 & T7).
+      constructor; rewrite ?F12, ?F10, ?F13, ?F14, ?F4, ?F15, ?F16, ?F17; try congruence; try (symmetry; assumption). }
+    assert (Hc2 : counters_of (ITest 0) s2 = enc (rev ((key, k) :: kl))).
+    { unfold counters_of. rewrite F11, Hu0, dict_get_set_same. reflexivity. }
+    destruct (Z.of_nat k <? n)%Z eqn:Eb.
+    - (* the test passes: the body is entered *)
+      mstep as r g2 E2.
+      assert (Hopen : forall s', EvalTo tasks env (placed (pp p + 1) s2) s' -> RunCb tasks env CW ns s').
+      { intros s' Hev.
+        apply (RunCb_Count' key lim (pp p + 1) (pp p + 2) ctx ns ac k _ l s2 true s2 s' Hac Hcn Hd1 Hlim).
+        - rewrite Hltb. exact Eb.
+        - reflexivity.
+        - rewrite F16, (gr_aw _ _ _ Hgr). apply no_setplace_awaited.
+        - apply (Marks_has_place s2 m _ Inv2); [eapply Marks_places; [exact F7|exact Hm]|lia].
+        - exact Hev. }
+      assert (Hcx1 : CX s2 ctx cid ((v, k) :: ie) ((key, k) :: kl) true (loop_p p)).
+      { constructor; [exact Hc2|intro Hc; congruence|]. intros _. split; [exact Hc0|]. split; [exact Hcid0|]. apply klb_push. exact Hklb. }
+      destruct (start_branch f HS CW (pp p) (pp p + 1) (pp p) [CW] B (loop_p p) (pt p) (pt p + 2)
+                             (pp p) (pp p + (4 + nplaces_l B)) (pt p) (pt p + (3 + ntrans_b B)) (pa p) (pa p + napis_l B)
+                             ctx cid ((v, k) :: ie) ((key, k) :: kl) true t2 s2 g g1 r g2 ns m pend
+                             ltac:(lia) ltac:(lia) ltac:(lia) ltac:(lia) HfB HsB WB
+                             ltac:(cbn [loop_p pp]; lia) ltac:(cbn [loop_p pp]; lia) ltac:(cbn [loop_p pt]; lia)
+                             ltac:(cbn [loop_p pt]; lia) ltac:(cbn [loop_p pa]; lia) ltac:(cbn [loop_p pa]; lia)
+                             ltac:(lia) ltac:(lia) ltac:(unfold in_tb; cbn [loop_p pt]; lia) W1 W2 W3 W7 W8 W9 eq_refl)
+        as (ns' & m' & Hen & Mk & Ai & Ao & Inv' & Gr' & Ap' & Aw' & Sid' & Di' & Hab & Hcb); try assumption.
+      { intros j Hj Hnj Hns Hnf. unfold in_tb in Hnj. cbn [loop_p pt] in Hnj.
+        assert (j = pt p + 1) by lia. subst j.
+        exists (pp p + 2). rewrite W4. split; [right; left; reflexivity|]. unfold in_pb. cbn [loop_p pp]. repeat split; lia. }
+      destruct r as [[j st0]|]; cbn [ids_opt actb rchb] in *.
+      + (* the body waits *)
+        mstep. cbn [is_done mlx svc_ids Enters].
+        exists ns', m'. split; [exact Hen|]. split; [exact Mk|]. split; [rewrite ml_count; exact Ai|]. split; [exact Ao|].
+        split; [|split; [rewrite act_count; exact Hab|rewrite rch_count; exact Hcb]].
+        split; [exact Inv'|]. split; [exact Gr'|]. split; [exact Ap'|]. split; [exact Aw'|]. split; [exact Sid'|exact Di'].
+      + (* the body completed at once: next test, one evaluation deeper *)
+        rewrite app_nil_r in Gr', Aw'.
+        assert (Hctx' : ctx_is ns' ctx cid).
+        { exists ac. split; [|exact Huc]. rewrite Ap' by lia. exact Hac. }
+        assert (Ao' : agrees_out (pp p) (pp p + (4 + nplaces_l B)) m m') by exact Ao.
+        destruct (IHf ltac:(intros f0 Hf0; apply HS; lia) v lim B p ctx cid ie kl xcbs t2 (S k) g2 st g' ns' m' pend H Hf Hsok Hc0 Hcid0 Hklb Hcb Hwall Hnp)
+          as (ns'' & m'' & Hen2 & Mk2 & Ai2 & Ao2 & Hres2 & Hact2);
+          rewrite ?nplaces_count, ?ntrans_count, ?napis_count; unfold in_t, in_p; rewrite ?nplaces_count, ?ntrans_count;
+          try assumption; try lia.
+        { exact (Hout_out _ _ _ _ _ _ _ HO Ao'). }
+        rewrite ?nplaces_count, ?napis_count in *. cbn [startcbs] in Hen2. fold key in Hen2. fold CW in Hen2.
+        destruct Hen as [kk Hkk].
+        assert (Ao2' : agrees_out (pp p) (pp p + (4 + nplaces_l B)) m m'').
+        { intros q Hq. rewrite (Ao2 q Hq). apply Ao'. exact Hq. }
+        pose proof Hres2 as (Inv2' & _).
+        exists ns'', m''. split; [|split; [exact Mk2|split; [exact Ai2|split; [exact Ao2'|split; [|exact Hact2]]]]].
+        * destruct (is_done st) eqn:D; cbn [Enters] in *.
+          -- destruct Hen2 as [k2 Hk2]. exists (k2 + S kk). intros rest K. cbn [app]. eapply MS_trans; [apply Hkk|].
+             specialize (Hk2 [] (Unw kk (rest :: K))). cbn [app] in Hk2. rewrite Unw_nest in Hk2. exact Hk2.
+          -- intros rest K. cbn [app]. eapply MS_trans; [apply Hkk|].
+             eapply MS_trans; [specialize (Hen2 [] (Unw kk (rest :: K))); cbn [app] in Hen2; exact Hen2|].
+             change ([] :: Unw kk (rest :: K)) with (Unw (S kk) (rest :: K)).
+             apply MS_unwind; [exact Inv2'|]. apply (dis_dead ns'' m'' Inv2' Mk2).
+             rewrite (mlx_nd _ _ _ D) in Ai2.
+             apply (stmt_dis (XCount v lim B) p ctx xcbs t2 st ns'' m m'' Hf Hwall D Hx2all); rewrite ?nplaces_count, ?ntrans_count; try assumption. exact (proj1 Hact2).
+        * assert (E0 : svc_ids st = [] ++ svc_ids st) by reflexivity. rewrite E0.
+          eapply (StartRes_trans ns ns' ns'' g g2 g' pend [] (svc_ids st) p (napis_l B) p (napis_l B) p (napis_l B));
+            [exact Hgr| |rewrite app_nil_r; exact Hres2|lia|lia|lia|lia].
+          split; [exact Inv'|]. split; [rewrite app_nil_r; exact Gr'|]. split; [exact Ap'|].
+          split; [rewrite app_nil_r; exact Aw'|]. split; [exact Sid'|exact Di'].
+    - (* the limit is reached: the loop is left, its counter is forgotten *)
+      mstep. cbn [is_done mlx svc_ids xplace].
+      set (s3 := set_cnt (a_uuid ac) (dict_del lkey_eqb (KLoop key) (counters_of (a_uuid ac) s2)) s2).
+      assert (Hc3 : counters_of (ITest 0) s3 = enc (rev kl)).
+      { unfold s3. rewrite Hu0, counters_of_set, Hc2. cbn [rev]. apply (enc_del_last key k (rev kl) Hfresh). }
+      assert (Inv3 : Inv s3).
+      { apply (Inv_cnt s2 s3 Inv2); try reflexivity; [|exact Hnc].
+        unfold s3, set_cnt. cbn [ns_counters set]. apply cnts_plain_set; [apply (proj1 (iv_cnt _ Inv2))|].
+        rewrite Hu0, Hc2. cbn [rev]. rewrite (enc_del_last key k (rev kl) Hfresh). apply enc_plain. }
+      assert (Gr3 : GR g1 s3 pend) by (destruct Gr2; constructor; assumption).
+      assert (Hopen : forall s', EvalTo tasks env (placed (pp p + 2) s3) s' -> RunCb tasks env CW ns s').
+      { intros s' Hev.
+        apply (RunCb_Count' key lim (pp p + 1) (pp p + 2) ctx ns ac k _ l s2 false s3 s' Hac Hcn Hd1 Hlim).
+        - rewrite Hltb. exact Eb.
+        - reflexivity.
+        - change (ns_awaited s3) with (ns_awaited s2). rewrite F16, (gr_aw _ _ _ Hgr). apply no_setplace_awaited.
+        - apply (Marks_has_place s3 m _ Inv3); [eapply Marks_places; [|exact Hm]; change (ns_places s3) with (ns_places s2); exact F7|lia].
+        - exact Hev. }
+      destruct (loop_else CW s3 B p ctx cid xcbs t2 g1 ns m pend HfB (loop_wired_count _ _ _ _ _ _ Hwall) Hnp HP HT Ht2 Hnt2 Hx2 Hinv Hctx Hm Hin HO
+                          Inv3 Gr3 F7 F8 F9 F10 F2 Hopen) as (ns' & m' & Hen & Mk & Ai & Ao & Inv' & Gr' & Ea & Ed & Es & Ec).
+      destruct Hsame as (T1 & T2 & T3 & T4 & T5 & T6 & T7).
+      exists ns', m'. split; [exact Hen|]. split; [exact Mk|]. split; [exact Ai|]. split; [exact Ao|].
+      split; [|split; [exact I|cbn [rch]; unfold C0, counters_of; rewrite Ec; exact Hc3]].
       split; [exact Inv'|]. split; [rewrite app_nil_r; exact Gr'|]. split; [intros k0 _; rewrite Ea; reflexivity|].
       split; [rewrite app_nil_r; exact T7|]. split; [rewrite T2; apply Nat.le_refl|].
       exists []. split; [rewrite Ed; reflexivity|constructor].
@@ -2322,24 +2750,30 @@ Section Sim.
   Theorem start_ok : forall f, StartOK f.
   Proof.
     induction f as [f IH] using lt_wf_ind.
-    intros s p ctx cid xcbs t2 g st g' ns m pend H Hf Hw Hnp HP HT Ht2 Hnt2 Hx2 Hinv Hgr Hctx Hlt Hm Hin HO.
+    intros s p ctx cid ie kl rt xcbs t2 g st g' ns m pend H Hf Hsok Hcx Hw Hnp HP HT Ht2 Hnt2 Hx2 Hinv Hgr Hctx Hlt Hm Hin HO.
     destruct f as [|f]; [discriminate H|].
-    destruct s as [n at_ ins|t at_ ins bd|bs|e P F|e B| | ]; try discriminate Hf.
+    destruct s as [n at_ ins|t at_ ins bd|bs|e P F|e B|v lim B| ]; try discriminate Hf.
     - eapply start_svc_case; eassumption.
     - eapply (start_call_case f); eassumption.
     - eapply (start_par_case f); eassumption.
     - eapply (start_cond_case f); eassumption.
     - cbn [start_stmt] in H. eapply (loop_case f); try eassumption. intros f0 Hf0. apply IH. lia.
+    - cbn [start_stmt] in H.
+      assert (Hrt : rt = true).
+      { cbn [sok] in Hsok. apply andb_prop in Hsok. destruct Hsok as [Hs _]. apply andb_prop in Hs. apply Hs. }
+      subst rt. destruct (cx_rt _ _ _ _ _ _ _ Hcx eq_refl) as (Hc0 & Hcid0 & Hklb).
+      eapply (count_case f); try eassumption; [intros f0 Hf0; apply IH; lia|exact (cx_c0 _ _ _ _ _ _ _ Hcx)].
   Qed.
 
   Theorem start_block_ok : forall f, StartBK f.
   Proof.
-    intros [|f]; [intros ? ? ? ? ? ? ? ? ? ? ? ? ? ? HH; discriminate HH|].
+    intros [|f]; [intros ? ? ? ? ? ? ? ? ? ? ? ? ? ? ? ? ? HH; discriminate HH|].
     apply start_block_case. intros f0 _. apply start_ok.
   Qed.
 
-  Lemma del_svc_case : forall f n at_ ins p ctx cid xcbs t2 id' id g st' g' ns m pend pend0 finp,
-      deliver orc imm (S f) cid [] (XService n at_ ins) (RAwait id') id g = Ok (Some st', g') ->
+  Lemma del_svc_case : forall f ie n at_ ins p ctx cid xcbs t2 id' id g st' g' ns m pend pend0 finp,
+      deliver orc imm (S f) cid ie (XService n at_ ins) (RAwait id') id g = Ok (Some st', g') ->
+      (NC = true -> ie = []) -> NC || idxfree ins = true ->
       wired N0 (XService n at_ ins) p ctx xcbs -> pp p + 3 <= nP -> pt p < nT ->
       t2 < nT -> t2 <> pt p -> In (pp p + 2) (preN N0 t2) ->
       Inv ns -> GR g ns pend -> remove_first (Nat.eqb id) pend = Some pend0 ->
@@ -2353,10 +2787,10 @@ Section Sim.
         (forall j, j < nT -> j <> pt p -> dis m j) /\
         RunList [CbSF (pa p)] (fire_ns tr ns) ns' /\
         Marks ns' m' /\ agrees_in (pp p) (pp p + 3) m' [pp p + 2] /\ agrees_out (pp p) (pp p + 3) m m' /\
-        Post ns ns' g g' pend0 (pa p) (pa p + 1).
+        Post ns ns' g g' pend0 (pa p) (pa p + 1) /\ ns_counters ns' = ns_counters ns.
   Proof.
-    intros f n at_ ins p ctx cid xcbs t2 id' id g st' g' ns m pend pend0 finp
-           H Hw HP HT Ht2 Hne2 Hx2 Hinv Hgr Hrem Hact Hctx Hlt Hm Hd Hin Hout.
+    intros f ie n at_ ins p ctx cid xcbs t2 id' id g st' g' ns m pend pend0 finp
+           H Hie Hidx Hw HP HT Ht2 Hne2 Hx2 Hinv Hgr Hrem Hact Hctx Hlt Hm Hd Hin Hout.
     cbn [deliver] in H. destruct (Nat.eqb_spec id id') as [<-|Hneq]; [|discriminate H].
     unfold bind in H. unfold emit in H.
     rewrite emit_gen_eq in H.
@@ -2393,30 +2827,49 @@ Section Sim.
     { cbn [octx_is a1 with_uuid svc_api a_ctx]. split; [exact Hctx|lia]. }
     { exists id. split; [reflexivity|exact Hrem]. }
     { rewrite <- E2. unfold g_step. cbn [a1 with_uuid svc_api a_name a_site a_uuid a_params ident_nat].
-      rewrite subst_params_nil. repeat split; reflexivity. }
+      rewrite (subst_params_ok ie ins Hie Hidx). repeat split; reflexivity. }
     split.
     { econstructor; [apply RunCb_SF; [apply (iv_ls _ Hinvf)|exact Hapif]|exact Hcbs|constructor]. }
     split; [eapply Marks_places; [exact Hpl|exact Hm']|].
     split; [intros q Hq; unfold m'; cnt_cases|].
     split; [intros q Hq; unfold m'; cnt_cases|].
+    split; [|rewrite nf_counters; reflexivity].
     split; [exact Hinv'|]. split.
     - constructor; [intros k _; rewrite Hap; reflexivity|rewrite nf_sid; apply Nat.le_refl|].
       exists []. split; [rewrite Hdi; reflexivity|constructor].
     - exists []. split; [rewrite <- E2, app_nil_r; reflexivity|rewrite app_nil_r; exact Hgr'].
   Qed.
 
-  Lemma found_in : forall f cid s st id g st' g',
-      deliver orc imm f cid [] s st id g = Ok (Some st', g') -> In id (svc_ids st).
+  Lemma found_in : forall f cid ie s st id g st' g',
+      deliver orc imm f cid ie s st id g = Ok (Some st', g') -> In id (svc_ids st).
   Proof.
-    intros f cid s st id g st' g' H. destruct (in_dec Nat.eq_dec id (svc_ids st)) as [Hi|Hn]; [exact Hi|].
+    intros f cid ie s st id g st' g' H. destruct (in_dec Nat.eq_dec id (svc_ids st)) as [Hi|Hn]; [exact Hi|].
     destruct (proj1 (deliver_absent orc imm f) _ _ _ _ _ _ _ _ H Hn) as [E _]. discriminate E.
   Qed.
 
   (* the two ways a delivery into a component ends *)
   Definition DoneForm (ns : NS) (m : list nat) (g g' : G) (pend0 : list nat) (plo phi alo ahi : nat)
-             (xcbs : list cb) (x : nat) : Prop :=
+             (xcbs : list cb) (x : nat) (kl : list (site * nat)) : Prop :=
     exists ns' m', Exits ns ns' xcbs /\ Marks ns' m' /\ agrees_in plo phi m' [x] /\ agrees_out plo phi m m' /\
-                   Post ns ns' g g' pend0 alo ahi.
+                   (Post ns ns' g g' pend0 alo ahi /\ C0 ns' kl).
+
+  (* what the delivery lemmas assume about the loop counters: [kc] is the chain of the running
+     counting loops of the production task, [kl] the part of it above the component *)
+  Record CD (ns : NS) (ctx cid : nat) (ie : ienv) (kl : list (site * nat)) (rt : bool) (p : pos)
+         (kc : list (site * nat)) : Prop := {
+    cd_c0 : C0 ns kc;
+    cd_ie : NC = true -> ie = [];
+    cd_rt : rt = true -> ctx = 0 /\ cid = 0 /\ klb kl p
+  }.
+  Lemma CD_CX : forall ns ctx cid ie kl rt p, CD ns ctx cid ie kl rt p kl -> CX ns ctx cid ie kl rt p.
+  Proof. intros ns ctx cid ie kl rt p [A B C]. constructor; assumption. Qed.
+  Lemma CD_pos : forall ns ns' ctx cid ie kl rt p q kc kc',
+      CD ns ctx cid ie kl rt p kc -> C0 ns' kc' -> List.length (s_pre (psi p)) <= List.length (s_pre (psi q)) ->
+      CD ns' ctx cid ie kl rt q kc'.
+  Proof.
+    intros ns ns' ctx cid ie kl rt p q kc kc' [H1 H2 H3] Hc Hle. constructor; [exact Hc|exact H2|].
+    intro Hr. destruct (H3 Hr) as (A & B & C). split; [exact A|]. split; [exact B|]. eapply klb_sub; eassumption.
+  Qed.
 
   Definition StayForm (ns : NS) (m : list nat) (g g' : G) (pend0 : list nat) (plo phi alo ahi : nat)
              (ml' : list nat) (ns' : NS) : Prop :=
@@ -2424,9 +2877,10 @@ Section Sim.
                Post ns ns' g g' pend0 alo ahi.
 
   Definition DelS (f : nat) : Prop :=
-    forall s p ctx cid xcbs t2 st id g st' g' ns m pend pend0 finp,
-      deliver orc imm f cid [] s st id g = Ok (Some st', g') ->
-      frag s = true -> wired N0 s p ctx xcbs -> no_parloop xcbs = true ->
+    forall s p ctx cid ie kl rt xcbs t2 st id g st' g' ns m pend pend0 finp,
+      deliver orc imm f cid ie s st id g = Ok (Some st', g') ->
+      frag s = true -> sok NC rt s = true -> CD ns ctx cid ie kl rt p (rch st s p kl) ->
+      wired N0 s p ctx xcbs -> no_parloop xcbs = true ->
       pp p + nplaces s <= nP -> pt p + ntrans s <= nT ->
       t2 < nT -> ~ in_t s p t2 -> In (xplace s p) (preN N0 t2) ->
       Inv ns -> GR g ns pend -> remove_first (Nat.eqb id) pend = Some pend0 ->
@@ -2435,14 +2889,15 @@ Section Sim.
       (forall q, in_p s p q -> cnt m q = cnt (ml st s p) q + (if Nat.eqb q finp then 1 else 0)) ->
       Hout (pp p) (pp p + nplaces s) (pt p) (pt p + ntrans s) t2 m ->
       if is_done st'
-      then DoneForm ns m g g' pend0 (pp p) (pp p + nplaces s) (pa p) (pa p + napis s) xcbs (xplace s p)
+      then DoneForm ns m g g' pend0 (pp p) (pp p + nplaces s) (pa p) (pa p + napis s) xcbs (xplace s p) kl
       else exists ns', StayForm ns m g g' pend0 (pp p) (pp p + nplaces s) (pa p) (pa p + napis s) (ml st' s p) ns' /\
-                       act N0 ns' st' s p ctx.
+                       (act N0 ns' st' s p ctx /\ C0 ns' (rch st' s p kl)).
 
   Definition DelB (f : nat) : Prop :=
-    forall l bp ctx cid xcbs t2 i sti id g r g' ns m pend pend0 finp,
-      deliver_block orc imm f cid [] l i sti id g = Ok (Some r, g') ->
-      frag_block l = true -> wired_block (wired N0) N0 ctx xcbs l bp -> no_parloop xcbs = true ->
+    forall l bp ctx cid ie kl rt xcbs t2 i sti id g r g' ns m pend pend0 finp,
+      deliver_block orc imm f cid ie l i sti id g = Ok (Some r, g') ->
+      frag_block l = true -> sok_block NC rt l = true -> CD ns ctx cid ie kl rt bp (rch_block l bp i sti kl) ->
+      wired_block (wired N0) N0 ctx xcbs l bp -> no_parloop xcbs = true ->
       pp bp + nplaces_l l <= nP -> pt bp + ntrans_b l <= nT ->
       t2 < nT -> ~ in_tb l bp t2 -> In (xplace_b l bp) (preN N0 t2) ->
       Inv ns -> GR g ns pend -> remove_first (Nat.eqb id) pend = Some pend0 ->
@@ -2451,17 +2906,18 @@ Section Sim.
       (forall q, in_pb l bp q -> cnt m q = cnt (ml_block l bp i sti) q + (if Nat.eqb q finp then 1 else 0)) ->
       Hout (pp bp) (pp bp + nplaces_l l) (pt bp) (pt bp + ntrans_b l) t2 m ->
       match r with
-      | None => DoneForm ns m g g' pend0 (pp bp) (pp bp + nplaces_l l) (pa bp) (pa bp + napis_l l) xcbs (xplace_b l bp)
+      | None => DoneForm ns m g g' pend0 (pp bp) (pp bp + nplaces_l l) (pa bp) (pa bp + napis_l l) xcbs (xplace_b l bp) kl
       | Some (j, st') =>
         exists ns', StayForm ns m g g' pend0 (pp bp) (pp bp + nplaces_l l) (pa bp) (pa bp + napis_l l)
                              (ml_block l bp j st') ns' /\
-                    act_block N0 ns' l bp ctx j st'
+                    (act_block N0 ns' l bp ctx j st' /\ C0 ns' (rch_block l bp j st' kl))
       end.
 
   (* after statement i of a block has exited, the connection fires and the block goes on from
      statement i+1 *)
-  Lemma block_continue : forall f l bp ctx cid xcbs t2 i s1 s' g g1 r' g' ns m pend pend0,
-      frag_block l = true -> wired_block (wired N0) N0 ctx xcbs l bp -> no_parloop xcbs = true ->
+  Lemma block_continue : forall f l bp ctx cid ie kl rt kc xcbs t2 i s1 s' g g1 r' g' ns m pend pend0,
+      frag_block l = true -> sok_block NC rt l = true -> CD ns ctx cid ie kl rt bp kc ->
+      wired_block (wired N0) N0 ctx xcbs l bp -> no_parloop xcbs = true ->
       nth_error l i = Some s1 -> nth_error l (S i) = Some s' ->
       pp bp + nplaces_l l <= nP -> pt bp + ntrans_b l <= nT ->
       t2 < nT -> ~ in_tb l bp t2 -> In (xplace_b l bp) (preN N0 t2) ->
@@ -2471,18 +2927,18 @@ Section Sim.
       Hout (pp (spos l bp i)) (pp (spos l bp i) + nplaces s1) (pt (spos l bp i)) (pt (spos l bp i) + ntrans s1)
            (pt (spos l bp i) - 1) m ->
       DoneForm ns m g g1 pend0 (pp (spos l bp i)) (pp (spos l bp i) + nplaces s1)
-               (pa (spos l bp i)) (pa (spos l bp i) + napis s1) [] (xplace s1 (spos l bp i)) ->
-      run_block orc imm f cid [] l (S i) g1 = Ok (r', g') ->
+               (pa (spos l bp i)) (pa (spos l bp i) + napis s1) [] (xplace s1 (spos l bp i)) kl ->
+      run_block orc imm f cid ie l (S i) g1 = Ok (r', g') ->
       match r' with
-      | None => DoneForm ns m g g' pend0 (pp bp) (pp bp + nplaces_l l) (pa bp) (pa bp + napis_l l) xcbs (xplace_b l bp)
+      | None => DoneForm ns m g g' pend0 (pp bp) (pp bp + nplaces_l l) (pa bp) (pa bp + napis_l l) xcbs (xplace_b l bp) kl
       | Some (j, st') =>
         exists ns'', StayForm ns m g g' pend0 (pp bp) (pp bp + nplaces_l l) (pa bp) (pa bp + napis_l l)
                               (ml_block l bp j st') ns'' /\
-                     act_block N0 ns'' l bp ctx j st'
+                     (act_block N0 ns'' l bp ctx j st' /\ C0 ns'' (rch_block l bp j st' kl))
       end.
   Proof.
-    intros f l bp ctx cid xcbs t2 i s1 s' g g1 r' g' ns m pend pend0
-           Hfb Hw Hnp Hn Hn' HP HT Ht2 Hnt2 Hx2 Hinv Hgr Hctx Hlt Hz HO Houti Hdone Hrun.
+    intros f l bp ctx cid ie kl rt kc xcbs t2 i s1 s' g g1 r' g' ns m pend pend0
+           Hfb Hsok Hcd Hw Hnp Hn Hn' HP HT Ht2 Hnt2 Hx2 Hinv Hgr Hctx Hlt Hz HO Houti Hdone Hrun.
     set (pi := spos l bp i) in *. set (pj := spos l bp (S i)).
     pose proof (frag_block_nth _ _ _ Hfb Hn) as Hf1. pose proof (frag_block_nth _ _ _ Hfb Hn') as Hf'.
     destruct (wired_block_nth _ _ _ _ _ _ _ _ Hw Hn) as [W1 Wc].
@@ -2492,7 +2948,7 @@ Section Sim.
     pose proof (spos_range l bp i s1 Hn) as Ri. pose proof (spos_range l bp (S i) s' Hn') as Rj.
     pose proof (spos_mono l bp i (S i) s1 s' ltac:(lia) Hn Hn') as Mij. fold pi in Ri, Mij. fold pj in Rj, Mij.
     destruct (spos_conn l bp i s1 s' Hn Hn') as (Cn1 & Cn2 & Cn3). fold pi in Cn1, Cn2, Cn3.
-    destruct Hdone as (nsa & m' & [k Hk] & Mka & Aia & Aoa & (Inva & Fra & new1 & Aw1 & Gra)).
+    destruct Hdone as (nsa & m' & [k Hk] & Mka & Aia & Aoa & ((Inva & Fra & new1 & Aw1 & Gra) & Hca)).
     (* the connection *)
     set (c := pt pi - 1) in *.
     assert (HcT : c < nT) by (unfold c; lia).
@@ -2536,9 +2992,10 @@ Section Sim.
       assert (cnt (entries s' pj) q = 0) by (apply not_in_cnt; intro Hi; apply Hent in Hi; unfold in_p in Hi; lia).
       destruct (inb (pp bp) (pp bp + nplaces_l l) q) eqn:E; [apply inb_spec in E; lia|].
       rewrite (Aoa q ltac:(lia)). lia. }
-    destruct (start_block_ok f l bp ctx cid xcbs t2 (S i) s' g1 r' g' nsf m'' (pend0 ++ new1)
-                             Hrun Hn' Hfb Hw Hnp HP HT Ht2 Hnt2 Hx2 Invf Grf Hctxa Hlt Mkf Hin'' (Hout_out _ _ _ _ _ _ _ HO Hout''))
-      as (ns2 & m2 & Hen2 & Mk2 & Ai2 & Ao2 & Hres2 & Hact2). fold pj in Hen2.
+    assert (Hcxf : CX nsf ctx cid ie kl rt bp) by (apply CD_CX; eapply CD_pos; [exact Hcd|exact Hca|apply Nat.le_refl]).
+    destruct (start_block_ok f l bp ctx cid ie kl rt xcbs t2 (S i) s' g1 r' g' nsf m'' (pend0 ++ new1)
+                             Hrun Hn' Hfb Hsok Hcxf Hw Hnp HP HT Ht2 Hnt2 Hx2 Invf Grf Hctxa Hlt Mkf Hin'' (Hout_out _ _ _ _ _ _ _ HO Hout''))
+      as (ns2 & m2 & Hen2 & Mk2 & Ai2 & Ao2 & Hres2 & Hact2 & Hc2). fold pj in Hen2.
     pose proof Hres2 as (Inv2 & Gr2 & Ap2 & Aw2 & Sid2 & Di2).
     assert (Hgo : forall K, MS (ns, [] :: K) (nsf, startcbs s' pj ctx :: Unw k K)).
     { intro K. eapply MS_trans; [apply Hk|].
@@ -2554,15 +3011,15 @@ Section Sim.
         + lia.
       - exists (new1 ++ ids_opt r'). split; [rewrite Aw2, Aw1, app_assoc; reflexivity|].
         rewrite app_assoc. exact Gr2. }
-    destruct r' as [[j st']|]; cbn [is_none Enters mlb actb ids_opt] in *.
-    - exists ns2. split; [|exact Hact2].
+    destruct r' as [[j st']|]; cbn [is_none Enters mlb actb ids_opt rchb] in *.
+    - exists ns2. split; [|split; [exact Hact2|exact Hc2]].
       exists m2. split; [|split; [exact Mk2|split; [exact Ai2|split; [exact Ao2'|exact Hpost2]]]].
       intro K. eapply MS_trans; [apply Hgo|].
       eapply MS_trans; [specialize (Hen2 [] (Unw k K)); rewrite app_nil_r in Hen2; exact Hen2|].
       change ([] :: Unw k K) with (Unw (S k) K). rewrite Unw_S'.
       apply MS_unwind; [exact Inv2|]. apply (dis_dead ns2 m2 Inv2 Mk2).
       apply (block_dis l bp ctx xcbs t2 j st' ns2 m m2 Hfb Hw Hx2 HO Ao2' Ai2 Hact2).
-    - exists ns2, m2. split; [|split; [exact Mk2|split; [exact Ai2|split; [exact Ao2'|exact Hpost2]]]].
+    - exists ns2, m2. split; [|split; [exact Mk2|split; [exact Ai2|split; [exact Ao2'|split; [exact Hpost2|exact Hc2]]]]].
       destruct Hen2 as [k2 Hk2]. exists (k2 + S k). intro K. eapply MS_trans; [apply Hgo|].
       specialize (Hk2 [] (Unw k K)). rewrite app_nil_r, Unw_nest in Hk2. exact Hk2.
   Qed.
@@ -2582,23 +3039,23 @@ Section Sim.
       end.
   Proof. reflexivity. Qed.
 
-  Lemma DoneForm_widen : forall ns m g g' pend0 plo phi alo ahi PLO PHI ALO AHI xcbs x,
-      DoneForm ns m g g' pend0 plo phi alo ahi xcbs x ->
+  Lemma DoneForm_widen : forall ns m g g' pend0 plo phi alo ahi PLO PHI ALO AHI xcbs x kl,
+      DoneForm ns m g g' pend0 plo phi alo ahi xcbs x kl ->
       PLO <= plo -> phi <= PHI -> ALO <= alo -> ahi <= AHI ->
       (forall q, PLO <= q < PHI -> ~ (plo <= q < phi) -> cnt m q = 0) -> plo <= x < phi ->
-      DoneForm ns m g g' pend0 PLO PHI ALO AHI xcbs x.
+      DoneForm ns m g g' pend0 PLO PHI ALO AHI xcbs x kl.
   Proof.
-    intros ns m g g' pend0 plo phi alo ahi PLO PHI ALO AHI xcbs x (nsa & m' & Hex & Mka & Aia & Aoa & Hpost) H1 H2 H3 H4 Hz Hx.
+    intros ns m g g' pend0 plo phi alo ahi PLO PHI ALO AHI xcbs x kl (nsa & m' & Hex & Mka & Aia & Aoa & Hpost & Hc) H1 H2 H3 H4 Hz Hx.
     exists nsa, m'. split; [exact Hex|]. split; [exact Mka|].
-    split; [|split; [eapply agrees_out_widen; [exact Aoa|lia|lia]|eapply Post_widen; [exact Hpost|lia|lia]]].
+    split; [|split; [eapply agrees_out_widen; [exact Aoa|lia|lia]|split; [eapply Post_widen; [exact Hpost|lia|lia]|exact Hc]]].
     eapply (agrees_in_widen plo phi); [exact Aia|exact Aoa|lia|lia|].
     intros q Hq Hnq. split; [apply Hz; assumption|]. cnt_cases.
   Qed.
 
   Lemma del_block_case : forall f, DelS f -> DelB (S f).
   Proof.
-    intros f HS l bp ctx cid xcbs t2 i sti id g r g' ns m pend pend0 finp
-           H Hfb Hw Hnp HP HT Ht2 Hnt2 Hx2 Hinv Hgr Hrem Hab Hctx Hlt Hm Hd Hin HO.
+    intros f HS l bp ctx cid ie kl rt xcbs t2 i sti id g r g' ns m pend pend0 finp
+           H Hfb Hsok Hcd Hw Hnp HP HT Ht2 Hnt2 Hx2 Hinv Hgr Hrem Hab Hctx Hlt Hm Hd Hin HO.
     destruct Hab as (Hnd & Hfresh & Ha). destruct (nth_error l i) as [s1|] eqn:En; [|contradiction].
     rewrite deliver_block_S, En in H. mstep as r1 g1 E1.
     destruct r1 as [st''|]; [|mstep; discriminate].
@@ -2606,7 +3063,7 @@ Section Sim.
     pose proof (frag_block_nth _ _ _ Hfb En) as Hf1.
     pose proof (spos_range l bp i s1 En) as Ri. fold pi in Ri.
     (* where the token was put *)
-    destruct (act_dict_in N0 ns sti s1 pi ctx id Hf1 Ha (found_in _ _ _ _ _ _ _ _ E1)) as (fp & Hdf & Hfp).
+    destruct (act_dict_in N0 ns sti s1 pi ctx id Hf1 Ha (found_in _ _ _ _ _ _ _ _ _ E1)) as (fp & Hdf & Hfp).
     assert (fp = finp) by congruence. subst fp.
     assert (Hmlr : forall q, In q (ml sti s1 pi) -> in_p s1 pi q) by (intros q Hq; apply (ml_range N0 ns sti s1 pi ctx Hf1 Ha q Hq)).
     assert (Hmlb : ml_block l bp i sti = ml sti s1 pi) by (unfold ml_block; rewrite En; reflexivity).
@@ -2621,7 +3078,10 @@ Section Sim.
     fold pi in Et2, T1, T2, T3, Houti.
     assert (Hnpi : no_parloop (if Nat.eqb (S i) (List.length l) then xcbs else []) = true)
       by (destruct (Nat.eqb (S i) (List.length l)); [exact Hnp|reflexivity]).
-    pose proof (HS s1 pi ctx cid _ t2i sti id g st'' g1 ns m pend pend0 finp E1 Hf1 W1 Hnpi ltac:(lia) ltac:(lia)
+    assert (Hcd1 : CD ns ctx cid ie kl rt pi (rch sti s1 pi kl)).
+    { eapply CD_pos; [exact Hcd| |unfold pi; rewrite (proj1 (psi_spos l bp i)); apply Nat.le_refl].
+      pose proof (cd_c0 _ _ _ _ _ _ _ _ Hcd) as Hc. unfold rch_block in Hc. rewrite En in Hc. exact Hc. }
+    pose proof (HS s1 pi ctx cid ie kl rt _ t2i sti id g st'' g1 ns m pend pend0 finp E1 Hf1 (sok_block_nth _ _ _ _ _ Hsok En) Hcd1 W1 Hnpi ltac:(lia) ltac:(lia)
                    T1 T2 T3 Hinv Hgr Hrem Ha Hnd Hctx ltac:(lia) Hm Hd Hin1 Houti) as Hres.
     destruct (is_done st'') eqn:D.
     - (* statement i is complete *)
@@ -2631,8 +3091,8 @@ Section Sim.
         assert (Elast : Nat.eqb (S i) (List.length l) = false).
         { apply Nat.eqb_neq. assert (S i < List.length l) by (apply nth_error_Some; congruence). lia. }
         rewrite Elast in Hres. subst t2i.
-        exact (block_continue f l bp ctx cid xcbs t2 i s1 s' g g1 r' g' ns m pend pend0
-                              Hfb Hw Hnp En En' HP HT Ht2 Hnt2 Hx2 Hinv Hgr Hctx Hlt Hz HO Houti Hres E2).
+        exact (block_continue f l bp ctx cid ie kl rt _ xcbs t2 i s1 s' g g1 r' g' ns m pend pend0
+                              Hfb Hsok Hcd Hw Hnp En En' HP HT Ht2 Hnt2 Hx2 Hinv Hgr Hctx Hlt Hz HO Houti Hres E2).
       + (* it was the last one: the block is complete *)
         assert (Elast : Nat.eqb (S i) (List.length l) = true).
         { apply Nat.eqb_eq. apply nth_error_None in En'. assert (i < List.length l) by (apply nth_error_Some; congruence). lia. }
@@ -2645,7 +3105,7 @@ Section Sim.
         rewrite El. eapply DoneForm_widen; [exact Hres|lia|lia|lia|lia| |apply (xplace_range s1 Hf1 pi)].
         intros q Hq Hnq. apply Hz; [exact Hq|exact Hnq].
     - (* still waiting inside statement i *)
-      unfold ret in H. injection H as Hr Hg. subst r g1. destruct Hres as (ns' & (m' & St & Mk & Ai & Ao & Hpost) & Hact).
+      unfold ret in H. injection H as Hr Hg. subst r g1. destruct Hres as (ns' & (m' & St & Mk & Ai & Ao & Hpost) & Hact & Hc').
       exists ns'. split.
       + exists m'. split; [exact St|]. split; [exact Mk|].
         split; [|split; [eapply agrees_out_widen; [exact Ao|lia|lia]|eapply Post_widen; [exact Hpost|lia|lia]]].
@@ -2654,13 +3114,15 @@ Section Sim.
         eapply (agrees_in_widen (pp pi) (pp pi + nplaces s1)); [exact Ai|exact Ao|lia|lia|].
         intros q Hq Hnq. split; [apply Hz; [exact Hq|unfold in_p; lia]|].
         apply not_in_cnt. intro Hi. destruct (ml_range N0 ns' st'' s1 pi ctx Hf1 Hact q Hi) as [Hr _]. unfold in_p in Hr. lia.
-      + split; [exact D|]. split; [reflexivity|rewrite En; exact Hact].
+      + split; [|unfold rch_block; rewrite En; exact Hc'].
+        split; [exact D|]. split; [reflexivity|rewrite En; exact Hact].
   Qed.
 
   Lemma del_call_case : forall f, DelB f ->
-      forall t at_ ins bd p ctx cid xcbs t2 st id g st' g' ns m pend pend0 finp,
-        deliver orc imm (S f) cid [] (XCall t at_ ins bd) st id g = Ok (Some st', g') ->
-        frag (XCall t at_ ins bd) = true -> wired N0 (XCall t at_ ins bd) p ctx xcbs -> no_parloop xcbs = true ->
+      forall t at_ ins bd p ctx cid ie kl rt xcbs t2 st id g st' g' ns m pend pend0 finp,
+        deliver orc imm (S f) cid ie (XCall t at_ ins bd) st id g = Ok (Some st', g') ->
+        frag (XCall t at_ ins bd) = true -> sok NC rt (XCall t at_ ins bd) = true ->
+        CD ns ctx cid ie kl rt p (rch st (XCall t at_ ins bd) p kl) -> wired N0 (XCall t at_ ins bd) p ctx xcbs -> no_parloop xcbs = true ->
         pp p + nplaces (XCall t at_ ins bd) <= nP -> pt p + ntrans (XCall t at_ ins bd) <= nT ->
         t2 < nT -> ~ in_t (XCall t at_ ins bd) p t2 -> In (xplace (XCall t at_ ins bd) p) (preN N0 t2) ->
         Inv ns -> GR g ns pend -> remove_first (Nat.eqb id) pend = Some pend0 ->
@@ -2671,39 +3133,48 @@ Section Sim.
         Hout (pp p) (pp p + nplaces (XCall t at_ ins bd)) (pt p) (pt p + ntrans (XCall t at_ ins bd)) t2 m ->
         if is_done st'
         then DoneForm ns m g g' pend0 (pp p) (pp p + nplaces (XCall t at_ ins bd)) (pa p) (pa p + napis (XCall t at_ ins bd))
-                      xcbs (xplace (XCall t at_ ins bd) p)
+                      xcbs (xplace (XCall t at_ ins bd) p) kl
         else exists ns', StayForm ns m g g' pend0 (pp p) (pp p + nplaces (XCall t at_ ins bd)) (pa p)
                                   (pa p + napis (XCall t at_ ins bd)) (ml st' (XCall t at_ ins bd) p) ns' /\
-                         act N0 ns' st' (XCall t at_ ins bd) p ctx.
+                         (act N0 ns' st' (XCall t at_ ins bd) p ctx /\ C0 ns' (rch st' (XCall t at_ ins bd) p kl)).
   Proof.
-    intros f HB t at_ ins bd p ctx cid xcbs t2 st id g st' g' ns m pend pend0 finp
-           H Hf Hw Hnp HP HT Ht2 Hnt2 Hx2 Hinv Hgr Hrem Hact Hnd Hctx Hlt Hm Hd Hin HO.
+    intros f HB t at_ ins bd p ctx cid ie kl rt xcbs t2 st id g st' g' ns m pend pend0 finp
+           H Hf Hsok Hcd Hw Hnp HP HT Ht2 Hnt2 Hx2 Hinv Hgr Hrem Hact Hnd Hctx Hlt Hm Hd Hin HO.
     pose proof (frag_call _ _ _ _ Hf) as [Hname Hfb].
+    cbn [sok] in Hsok. apply andb_prop in Hsok. destruct Hsok as [Hidx Hsokb].
+    pose proof (subst_params_ok ie ins (cd_ie _ _ _ _ _ _ _ _ Hcd) Hidx) as Hsub.
     destruct st as [|id0|cid' i sti|sts|b i sti|k i sti|sts]; cbn [act] in Hact; try contradiction; try discriminate Hnd.
     destruct Hact as ((il & Hapi) & Hndi & Hfresh & Ha).
     cbn [wired] in Hw. destruct Hw as [Hapi0 Hwb].
     rewrite nplaces_call, ntrans_call, napis_call in *. cbn [xplace] in *.
-    set (bp := body_pos p) in *.
+    set (bp := body_pos t p) in *.
     assert (Hab : act_block N0 ns bd bp (pa p) i sti) by (split; [exact Hndi|split; [exact Hfresh|exact Ha]]).
     assert (Hctx' : ctx_is ns (pa p) cid') by (eexists; split; [exact Hapi|reflexivity]).
     cbn [deliver] in H. mstep as r g1 E1.
     destruct r as [r|]; [|mstep; discriminate].
     assert (Hnp' : no_parloop (CbTF (pa p) :: xcbs) = true) by exact Hnp.
-    pose proof (HB bd bp (pa p) cid' (CbTF (pa p) :: xcbs) t2 i sti id g r g1 ns m pend pend0 finp E1 Hfb Hwb Hnp'
+    assert (Hcdb : CD ns (pa p) cid' [] kl false bp (rch_block bd bp i sti kl)).
+    { constructor; [|reflexivity|discriminate]. change (rch_block bd bp i sti kl) with (rchb bd bp (Some (i, sti)) kl).
+      rewrite (rchb_nocount bd bp (Some (i, sti)) kl Hsokb).
+      pose proof (cd_c0 _ _ _ _ _ _ _ _ Hcd) as Hc. rewrite rch_call in Hc. exact Hc. }
+    pose proof (HB bd bp (pa p) cid' [] kl false (CbTF (pa p) :: xcbs) t2 i sti id g r g1 ns m pend pend0 finp E1 Hfb Hsokb Hcdb Hwb Hnp'
                    HP HT Ht2 Hnt2 Hx2 Hinv Hgr Hrem Hab Hctx' ltac:(cbn [bp body_pos pa]; lia) Hm Hd Hin HO) as Hres.
     destruct r as [[j st'']|].
     - (* still inside the body *)
       unfold ret in H. injection H as Hs Hg. subst st' g1. cbn [is_done].
-      destruct Hres as (ns' & (m' & St & Mk & Ai & Ao & Hpost) & Hab').
+      destruct Hres as (ns' & (m' & St & Mk & Ai & Ao & Hpost) & Hab' & Hc').
+      change (rch_block bd bp j st'' kl) with (rchb bd bp (Some (j, st'')) kl) in Hc'.
+      rewrite (rchb_nocount bd bp (Some (j, st'')) kl Hsokb) in Hc'.
       exists ns'. split.
       + exists m'. split; [exact St|]. split; [exact Mk|]. split; [rewrite ml_call; exact Ai|]. split; [exact Ao|].
         eapply Post_widen; [exact Hpost|cbn [bp body_pos pa]; lia|cbn [bp body_pos pa]; lia].
-      + destruct Hab' as (D' & Fr' & A'). cbn [act]. destruct Hpost as (_ & Fr & _).
+      + split; [|rewrite rch_call; exact Hc'].
+        destruct Hab' as (D' & Fr' & A'). cbn [act]. destruct Hpost as (_ & Fr & _).
         split; [exists il; rewrite (fr_apis _ _ _ _ Fr) by (cbn [bp body_pos pa]; lia); exact Hapi|].
         split; [exact D'|]. split; [exact Fr'|exact A'].
     - (* the body is complete: task finished *)
       unfold bind at 1 in H. unfold emit at 1 in H.
-      destruct Hres as (nsa & m' & Hex & Mka & Aia & Aoa & (Inva & Fra & new & Aw & Gra)).
+      destruct Hres as (nsa & m' & Hex & Mka & Aia & Aoa & ((Inva & Fra & new & Aw & Gra) & Hca)).
       rewrite emit_gen_eq in H.
       unfold ret in H. injection H as Hs Hg. subst st'. cbn [is_done].
       set (a1 := with_uuid (ITest cid') (call_api il t at_ ins ctx (pa p))) in *.
@@ -2715,12 +3186,13 @@ Section Sim.
       { cbn [octx_is a1 with_uuid call_api a_ctx]. split; [exact Hctxa|lia]. }
       { reflexivity. }
       { rewrite <- Hg. unfold g_step. cbn [a1 with_uuid call_api a_name a_site a_uuid a_params ident_nat].
-        rewrite subst_params_nil. repeat split; reflexivity. }
+        rewrite Hsub. repeat split; reflexivity. }
       exists (notified TF a1 false nsa), m'. split.
       { eapply Exits_cb; [exact Hex| |exact Hcbs].
         pose proof (RunCb_TF (pa p) nsa a1 (iv_ls _ Inva) Hapia) as Hr.
         cbn [a1 with_uuid call_api a_name] in Hr. rewrite Hname in Hr. exact Hr. }
       split; [eapply Marks_places; [exact Plb|exact Mka]|]. split; [exact Aia|]. split; [exact Aoa|].
+      split; [|apply (C0_same nsa _ kl (nf_counters _ _ _ _) Hca)].
       split; [exact Invb|]. split.
       + eapply (Frame_trans ns nsa _ (pa p) (pa p + S (napis_l bd)) (pa bp) (pa bp + napis_l bd) (pa p) (pa p));
           [exact Fra| |cbn [bp body_pos pa]; lia|cbn [bp body_pos pa]; lia|lia|lia].
@@ -2730,13 +3202,13 @@ Section Sim.
   Qed.
 
   (* ---- delivery into a Parallel: the branch that awaits the identifier ---- *)
-  Lemma deliver_list_loc : forall fl cid bs sts id g sts' g',
-      deliver_list orc imm fl cid (map (fun b => ([], b)) bs) sts id g = Ok (Some sts', g') ->
+  Lemma deliver_list_loc : forall fl cid ie bs sts id g sts' g',
+      deliver_list orc imm fl cid (map (fun b => (ie, b)) bs) sts id g = Ok (Some sts', g') ->
       exists k b st st' f0, f0 < fl /\ nth_error bs k = Some b /\ nth_error sts k = Some st /\
-                            deliver orc imm f0 cid [] b st id g = Ok (Some st', g') /\
+                            deliver orc imm f0 cid ie b st id g = Ok (Some st', g') /\
                             sts' = update_nth k st' sts.
   Proof.
-    induction fl as [|f IH]; intros cid bs sts id g sts' g' H; [discriminate H|].
+    induction fl as [|f IH]; intros cid ie bs sts id g sts' g' H; [discriminate H|].
     cbn [deliver_list] in H. destruct bs as [|b br]; cbn [map] in H; [mstep; discriminate|].
     destruct sts as [|st sr]; [mstep; discriminate|].
     mstep as r g1 E1. destruct r as [st'|].
@@ -2746,7 +3218,7 @@ Section Sim.
       { pose proof (proj1 (deliver_eff orc imm f) _ _ _ _ _ _ _ _ E1) as D. exact D. }
       subst g1. mstep as r2 g2 E2. destruct r2 as [sr'|]; [|mstep; discriminate].
       unfold ret in H. injection H as Hs Hg. subst sts' g2.
-      destruct (IH cid br sr id g sr' g' E2) as (k & b' & st0 & st' & f0 & Hf0 & Hb & Hs & Hd & Hu).
+      destruct (IH cid ie br sr id g sr' g' E2) as (k & b' & st0 & st' & f0 & Hf0 & Hb & Hs & Hd & Hu).
       exists (S k), b', st0, st', f0. split; [lia|]. split; [exact Hb|]. split; [exact Hs|]. split; [exact Hd|].
       subst sr'. reflexivity.
   Qed.
@@ -2802,10 +3274,16 @@ Section Sim.
 
   (* delivery into the branches of a Parallel.  When the last branch completes, the machine
      stands (possibly some evaluations deeper) where the sync can fire *)
+  Lemma psi_bpos : forall bs q k, s_pre (psi (bpos bs q k)) = s_pre (psi q).
+  Proof.
+    induction bs as [|b0 br IHb]; intros q k; [destruct k; reflexivity|].
+    destruct k as [|k]; [reflexivity|]. cbn [bpos]. rewrite IHb. reflexivity.
+  Qed.
+
   Definition DelL (fl : nat) : Prop :=
-    forall bs q0 ctx cid sync sts id g sts' g' ns m pend pend0 finp,
-      deliver_list orc imm fl cid (map (fun b => ([], b)) bs) sts id g = Ok (Some sts', g') ->
-      frag_brs bs = true -> wired_list (wired N0) ctx bs q0 ->
+    forall bs q0 ctx cid ie kl rt sync sts id g sts' g' ns m pend pend0 finp,
+      deliver_list orc imm fl cid (map (fun b => (ie, b)) bs) sts id g = Ok (Some sts', g') ->
+      frag_brs bs = true -> forallb (sok NC rt) bs = true -> CD ns ctx cid ie kl rt q0 kl -> wired_list (wired N0) ctx bs q0 ->
       pp q0 + nplaces_l bs <= nP -> pt q0 + ntrans_l bs <= nT ->
       sync < nT -> ~ (pt q0 <= sync < pt q0 + ntrans_l bs) ->
       (forall k b, nth_error bs k = Some b -> In (xplace b (bpos bs q0 k)) (preN N0 sync)) ->
@@ -2820,18 +3298,19 @@ Section Sim.
         Marks ns' m' /\ agrees_in (pp q0) (pp q0 + nplaces_l bs) m' (ml_list sts' bs q0) /\
         agrees_out (pp q0) (pp q0 + nplaces_l bs) m m' /\
         Post ns ns' g g' pend0 (pa q0) (pa q0 + napis_l bs) /\
-        act_list N0 ns' sts' bs q0 ctx.
+        (act_list N0 ns' sts' bs q0 ctx /\ C0 ns' kl).
 
   Lemma del_list_case : forall fl, (forall f0, f0 < fl -> DelS f0) -> DelL fl.
   Proof.
-    intros fl HS bs q0 ctx cid sync sts id g sts' g' ns m pend pend0 finp
-           H Hf Hw HP HT Hsy Hnsy Hxs Hinv Hgr Hrem Hal Hctx Hlt Hm Hd Hin HO.
-    destruct (deliver_list_loc _ _ _ _ _ _ _ _ H) as (k & b & st & st' & f0 & Hf0 & Hb & Hs & Hdel & ->).
+    intros fl HS bs q0 ctx cid ie kl rt sync sts id g sts' g' ns m pend pend0 finp
+           H Hf Hsok Hcd Hw HP HT Hsy Hnsy Hxs Hinv Hgr Hrem Hal Hctx Hlt Hm Hd Hin HO.
+    destruct (deliver_list_loc _ _ _ _ _ _ _ _ _ H) as (k & b & st & st' & f0 & Hf0 & Hb & Hs & Hdel & ->).
     set (pk := bpos bs q0 k) in *.
-    destruct (frag_brs_nth _ _ _ Hf Hb) as [Hfb _].
+    destruct (frag_brs_nth _ _ _ Hf Hb) as [Hfb Hcallb].
+    assert (Hsokk : sok NC rt b = true) by (rewrite forallb_forall in Hsok; apply Hsok; eapply nth_error_In; exact Hb).
     pose proof (wired_list_nth _ _ _ _ _ _ Hw Hb) as Wk. fold pk in Wk.
     pose proof (act_list_nth _ _ _ _ _ _ _ _ _ Hal Hs Hb) as Ak. fold pk in Ak.
-    pose proof (found_in _ _ _ _ _ _ _ _ Hdel) as Hid. pose proof (in_ids_nd _ _ Hid) as Hnd.
+    pose proof (found_in _ _ _ _ _ _ _ _ _ Hdel) as Hid. pose proof (in_ids_nd _ _ Hid) as Hnd.
     pose proof (bpos_range bs q0 k b Hb) as Rk. fold pk in Rk.
     assert (Hlen := act_list_length _ _ _ _ _ _ Hal).
     destruct (act_dict_in N0 ns st b pk ctx id Hfb Ak Hid) as (fp & Hdf & Hfp).
@@ -2867,7 +3346,10 @@ Section Sim.
         destruct (Hother k' b' st0 q Hkk Hb' Hs0 Q2) as [D1 D2].
         exists q. split; [exact Q1|]. split; [exact D1|]. apply not_in_cnt. rewrite D2. apply not_in_cnt. exact Q3.
       - destruct (HO j Hj ltac:(lia) Hne) as (q & Q1 & Q2 & Q3). exists q. split; [exact Q1|]. split; [lia|exact Q3]. }
-    pose proof (HS f0 Hf0 b pk ctx cid [] sync st id g st' g' ns m pend pend0 finp Hdel Hfb Wk eq_refl
+    assert (Hcdk : CD ns ctx cid ie kl rt pk (rch st b pk kl)).
+    { rewrite (rch_is_call st b pk kl Hcallb). eapply CD_pos; [exact Hcd|exact (cd_c0 _ _ _ _ _ _ _ _ Hcd)|].
+      unfold pk. rewrite psi_bpos. apply Nat.le_refl. }
+    pose proof (HS f0 Hf0 b pk ctx cid ie kl rt [] sync st id g st' g' ns m pend pend0 finp Hdel Hfb Hsokk Hcdk Wk eq_refl
                    ltac:(lia) ltac:(lia) Hsy ltac:(unfold in_t; lia) (Hxs k b Hb) Hinv Hgr Hrem Ak Hnd Hctx ltac:(lia)
                    Hm Hd Hink Houtk) as Hres.
     assert (Hk_lt : k < List.length sts) by (apply nth_error_Some; congruence).
@@ -2877,15 +3359,15 @@ Section Sim.
                                      agrees_in (pp pk) (pp pk + nplaces b) m' (mlx st' b pk) /\
                                      agrees_out (pp pk) (pp pk + nplaces b) m m' /\
                                      Post ns ns' g g' pend0 (pa pk) (pa pk + napis b) /\
-                                     act N0 ns' st' b pk ctx).
+                                     (act N0 ns' st' b pk ctx /\ C0 ns' kl)).
     { destruct (is_done st') eqn:D.
-      - destruct Hres as (nsa & m' & Hex & Mka & Aia & Aoa & Hpost).
+      - destruct Hres as (nsa & m' & Hex & Mka & Aia & Aoa & Hpost & Hca).
         apply is_done_RDone in D. subst st'. cbn [mlx].
         destruct (all_done (update_nth k RDone sts)) eqn:AD.
         + destruct Hex as [kk Hkk]. exists nsa, m', kk. split; [exact Hkk|]. split; [exact Mka|].
-          split; [exact Aia|]. split; [exact Aoa|]. split; [exact Hpost|exact I].
+          split; [exact Aia|]. split; [exact Aoa|]. split; [exact Hpost|split; [exact I|exact Hca]].
         + (* some other branch is not complete: the sync cannot fire, the evaluations return *)
-          exists nsa, m', 0. split; [|split; [exact Mka|split; [exact Aia|split; [exact Aoa|split; [exact Hpost|exact I]]]]].
+          exists nsa, m', 0. split; [|split; [exact Mka|split; [exact Aia|split; [exact Aoa|split; [exact Hpost|split; [exact I|exact Hca]]]]]].
           pose proof Hpost as (Inva & _).
           apply (Exits_steps ns nsa Hex Inva). apply (dis_dead nsa m' Inva Mka). intros j Hj.
           destruct (Nat.eq_dec j sync) as [->|Hne]; [|exact (exited_only_t2 b pk ctx [] sync m m' Hfb Wk Houtk Aoa Aia j Hj Hne)].
@@ -2902,24 +3384,26 @@ Section Sim.
           exists (xplace b' (bpos bs q0 k')). split; [apply (Hxs k' b' Hb')|].
           apply not_in_cnt. rewrite (Aoa _ D1), D2, (mlx_nd _ _ _ Hd0). apply not_in_cnt. intro Hi.
           destruct (ml_range N0 ns st0 b' _ ctx Hfb' Ak' _ Hi) as [_ Hne]. congruence.
-      - destruct Hres as (ns' & (m' & St & Mk & Ai & Ao & Hpost) & Hact).
+      - destruct Hres as (ns' & (m' & St & Mk & Ai & Ao & Hpost) & Hact & Hc').
+        rewrite (rch_is_call st' b pk kl Hcallb) in Hc'.
         rewrite (all_done_update_false sts k st' Hk_lt D).
         exists ns', m', 0. split; [exact St|]. split; [exact Mk|]. rewrite (mlx_nd _ _ _ D).
-        split; [exact Ai|]. split; [exact Ao|]. split; [exact Hpost|exact Hact]. }
-    destruct Hcommon as (ns' & m' & kk & St & Mk & Ai & Ao & Hpost & Hact).
+        split; [exact Ai|]. split; [exact Ao|]. split; [exact Hpost|split; [exact Hact|exact Hc']]. }
+    destruct Hcommon as (ns' & m' & kk & St & Mk & Ai & Ao & Hpost & Hact & Hcc).
     pose proof Hpost as (Inv' & Fr' & _).
     assert (Hal' : act_list N0 ns' (update_nth k st' sts) bs q0 ctx).
     { apply (act_list_update N0 ns ns' sts bs q0 ctx k st' b Hf Hal Hb Hact);
         [apply (fr_apis _ _ _ _ Fr')|apply (fr_sid _ _ _ _ Fr')|apply (fr_dict _ _ _ _ Fr')]. }
     exists ns', m', kk. split; [exact St|]. split; [exact Mk|].
     split; [eapply (list_finish ns ns' sts bs q0 ctx k st st' b m m' finp); eassumption|].
-    split; [eapply agrees_out_widen; [exact Ao|lia|lia]|]. split; [eapply Post_widen; [exact Hpost|lia|lia]|exact Hal'].
+    split; [eapply agrees_out_widen; [exact Ao|lia|lia]|]. split; [eapply Post_widen; [exact Hpost|lia|lia]|split; [exact Hal'|exact Hcc]].
   Qed.
 
   Lemma del_par_case : forall f, DelL f ->
-      forall bs p ctx cid xcbs t2 st id g st' g' ns m pend pend0 finp,
-        deliver orc imm (S f) cid [] (XParallel bs) st id g = Ok (Some st', g') ->
-        frag (XParallel bs) = true -> wired N0 (XParallel bs) p ctx xcbs -> no_parloop xcbs = true ->
+      forall bs p ctx cid ie kl rt xcbs t2 st id g st' g' ns m pend pend0 finp,
+        deliver orc imm (S f) cid ie (XParallel bs) st id g = Ok (Some st', g') ->
+        frag (XParallel bs) = true -> sok NC rt (XParallel bs) = true ->
+        CD ns ctx cid ie kl rt p (rch st (XParallel bs) p kl) -> wired N0 (XParallel bs) p ctx xcbs -> no_parloop xcbs = true ->
         pp p + nplaces (XParallel bs) <= nP -> pt p + ntrans (XParallel bs) <= nT ->
         t2 < nT -> ~ in_t (XParallel bs) p t2 -> In (xplace (XParallel bs) p) (preN N0 t2) ->
         Inv ns -> GR g ns pend -> remove_first (Nat.eqb id) pend = Some pend0 ->
@@ -2930,13 +3414,13 @@ Section Sim.
         Hout (pp p) (pp p + nplaces (XParallel bs)) (pt p) (pt p + ntrans (XParallel bs)) t2 m ->
         if is_done st'
         then DoneForm ns m g g' pend0 (pp p) (pp p + nplaces (XParallel bs)) (pa p) (pa p + napis (XParallel bs))
-                      xcbs (xplace (XParallel bs) p)
+                      xcbs (xplace (XParallel bs) p) kl
         else exists ns', StayForm ns m g g' pend0 (pp p) (pp p + nplaces (XParallel bs)) (pa p)
                                   (pa p + napis (XParallel bs)) (ml st' (XParallel bs) p) ns' /\
-                         act N0 ns' st' (XParallel bs) p ctx.
+                         (act N0 ns' st' (XParallel bs) p ctx /\ C0 ns' (rch st' (XParallel bs) p kl)).
   Proof.
-    intros f HL bs p ctx cid xcbs t2 st id g st' g' ns m pend pend0 finp
-           H Hf Hw Hnp HP HT Ht2 Hnt2 Hx2 Hinv Hgr Hrem Hact Hnd Hctx Hlt Hm Hd Hin HO.
+    intros f HL bs p ctx cid ie kl rt xcbs t2 st id g st' g' ns m pend pend0 finp
+           H Hf Hsok Hcd Hw Hnp HP HT Ht2 Hnt2 Hx2 Hinv Hgr Hrem Hact Hnd Hctx Hlt Hm Hd Hin HO.
     pose proof (frag_par _ Hf) as [Hne Hfb]. pose proof Hw as Hwall.
     destruct st as [|id0|cid' i sti|sts|b i sti|k i sti|sts]; cbn [act] in Hact; try contradiction;
       try discriminate Hnd; try (destruct Hact; contradiction).
@@ -2979,9 +3463,13 @@ Section Sim.
       - destruct (HO j Hj ltac:(lia) Hn2) as (q & Q1 & Q2 & Q3). exists q. split; [exact Q1|]. split; [lia|exact Q3]. }
     assert (Hxs : forall k b, nth_error bs k = Some b -> In (xplace b (bpos bs q0 k)) (preN N0 (pt p))).
     { intros k b Hb. rewrite Hpre. apply in_cat_of. exists k, b. split; [exact Hb|left; reflexivity]. }
-    destruct (HL bs q0 ctx cid (pt p) sts id g sts' g1 ns m pend pend0 finp E1 Hfb Hwl ltac:(lia) ltac:(lia)
+    assert (Hcd0 : CD ns ctx cid ie kl rt q0 kl).
+    { eapply CD_pos; [exact Hcd|pose proof (cd_c0 _ _ _ _ _ _ _ _ Hcd) as Hc; rewrite rch_par in Hc; exact Hc|].
+      unfold q0, par_pos, si_sub, s_path. cbn [psi s_pre]. rewrite app_length. lia. }
+    cbn [sok] in Hsok.
+    destruct (HL bs q0 ctx cid ie kl rt (pt p) sts id g sts' g1 ns m pend pend0 finp E1 Hfb Hsok Hcd0 Hwl ltac:(lia) ltac:(lia)
                  ltac:(lia) ltac:(lia) Hxs Hinv Hgr Hrem Hal Hctx ltac:(lia) Hm Hd Hinl Houtl)
-      as (ns' & m' & kk & Hms & Mk & Ai & Ao & Hpostl & Hal').
+      as (ns' & m' & kk & Hms & Mk & Ai & Ao & Hpostl & Hal' & Hcl).
     assert (Hpfin' : cnt m' (pp p) = 0) by (rewrite (Ao (pp p) ltac:(lia)); exact Hpfin).
     pose proof Hpostl as (Inv' & Fr' & new & Aw & Gr').
     destruct (all_done sts') eqn:D.
@@ -2991,6 +3479,7 @@ Section Sim.
         as (tr & Hf1 & Mkf & Invf & Aif & Aof). cbv zeta in Hf1, Mkf, Invf, Aif, Aof.
       eexists. eexists. split; [exists kk; intro K; eapply MS_trans; [apply Hms|apply Hf1]|].
       split; [exact Mkf|]. split; [exact Aif|]. split; [exact Aof|].
+      split; [|exact Hcl].
       split; [exact Invf|]. split.
       + destruct Fr' as [A1 S1 D1]. constructor; [intros k Hk; apply A1; lia|exact S1|exact D1].
       + exists new. split; [exact Aw|apply GR_fire; exact Gr'].
@@ -3003,14 +3492,14 @@ Section Sim.
         * rewrite Hpfin'. symmetry. apply not_in_cnt. intro Hi.
           pose proof (ml_list_range N0 ns' sts' bs q0 ctx _ Hfb Hal' Hi). lia.
         * apply Ai. lia.
-      + apply act_par. split; [exact D|exact Hal'].
+      + split; [apply act_par; split; [exact D|exact Hal']|rewrite rch_par; exact Hcl].
   Qed.
 
   (* ---- delivery into a Condition: the chosen branch is a block; when it is complete the
           second transition of that branch puts the token on the 'finished' place ---- *)
   Lemma del_branch : forall f, DelB f ->
-      forall B cb sb x PL PH TL TH AL AH ctx cid xcbs t2 i sti id g r g' ns m pend pend0 finp,
-        frag_block B = true -> wired_block (wired N0) N0 ctx [] B cb ->
+      forall B cb sb x PL PH TL TH AL AH ctx cid ie kl rt xcbs t2 i sti id g r g' ns m pend pend0 finp,
+        frag_block B = true -> sok_block NC rt B = true -> CD ns ctx cid ie kl rt cb (rch_block B cb i sti kl) -> wired_block (wired N0) N0 ctx [] B cb ->
         PL + 4 <= pp cb -> pp cb + nplaces_l B <= PH -> TL + 3 <= pt cb -> pt cb + ntrans_b B <= TH ->
         AL <= pa cb -> pa cb + napis_l B <= AH ->
         TL + 2 <= sb < TH -> ~ in_tb B cb sb ->
@@ -3024,16 +3513,16 @@ Section Sim.
         Marks ns m -> dict_get ident_eqb (ITest id) (ns_place_dict ns) = Some finp ->
         (forall q, PL <= q < PH -> cnt m q = cnt (ml_block B cb i sti) q + (if Nat.eqb q finp then 1 else 0)) ->
         Hout PL PH TL TH t2 m ->
-        deliver_block orc imm f cid [] B i sti id g = Ok (Some r, g') ->
+        deliver_block orc imm f cid ie B i sti id g = Ok (Some r, g') ->
         match r with
-        | None => DoneForm ns m g g' pend0 PL PH AL AH xcbs x
+        | None => DoneForm ns m g g' pend0 PL PH AL AH xcbs x kl
         | Some (j, st') =>
           exists ns', StayForm ns m g g' pend0 PL PH AL AH (ml_block B cb j st') ns' /\
-                      act_block N0 ns' B cb ctx j st'
+                      (act_block N0 ns' B cb ctx j st' /\ C0 ns' (rch_block B cb j st' kl))
         end.
   Proof.
-    intros f HB B cb sb x PL PH TL TH AL AH ctx cid xcbs t2 i sti id g r g' ns m pend pend0 finp
-           HfB WB R1 R2 R3 R4 R5 R6 Hsb Hnsb Psb Qsb Csb Hnp Hxr Hoth HP HT Ht2 Hnt2 Hx2
+    intros f HB B cb sb x PL PH TL TH AL AH ctx cid ie kl rt xcbs t2 i sti id g r g' ns m pend pend0 finp
+           HfB HsB Hcd WB R1 R2 R3 R4 R5 R6 Hsb Hnsb Psb Qsb Csb Hnp Hxr Hoth HP HT Ht2 Hnt2 Hx2
            Hinv Hgr Hrem Hab Hid Hctx Hlt Hm Hd Hin HO H.
     assert (Hmlr : forall q, In q (ml_block B cb i sti) -> in_pb B cb q)
       by (intros q Hq; apply (ml_range_block N0 ns B cb ctx i sti HfB Hab q Hq)).
@@ -3058,29 +3547,30 @@ Section Sim.
         + destruct (HO j Hj ltac:(lia) Hn2) as (q & Q1 & Q2 & Q3). exists q. split; [exact Q1|]. split; [lia|exact Q3]. }
     assert (Hinb : forall q, in_pb B cb q -> cnt m q = cnt (ml_block B cb i sti) q + (if Nat.eqb q finp then 1 else 0)).
     { intros q Hq. apply Hin. unfold in_pb in Hq. lia. }
-    pose proof (HB B cb ctx cid [] sb i sti id g r g' ns m pend pend0 finp H HfB WB eq_refl ltac:(lia) ltac:(lia) ltac:(lia) Hnsb
+    pose proof (HB B cb ctx cid ie kl rt [] sb i sti id g r g' ns m pend pend0 finp H HfB HsB Hcd WB eq_refl ltac:(lia) ltac:(lia) ltac:(lia) Hnsb
                    ltac:(rewrite Psb; left; reflexivity) Hinv Hgr Hrem Hab Hctx ltac:(lia) Hm Hd Hinb HoutB) as Hres.
     destruct r as [[j st'']|].
-    - destruct Hres as (ns' & (m' & St & Mk & Ai & Ao & Hpost) & Hab').
-      exists ns'. split; [|exact Hab'].
+    - destruct Hres as (ns' & (m' & St & Mk & Ai & Ao & Hpost) & Hab' & Hc').
+      exists ns'. split; [|split; [exact Hab'|exact Hc']].
       exists m'. split; [exact St|]. split; [exact Mk|].
       split; [|split; [eapply agrees_out_widen; [exact Ao|lia|lia]|eapply Post_widen; [exact Hpost|lia|lia]]].
       eapply (agrees_in_widen (pp cb) (pp cb + nplaces_l B)); [exact Ai|exact Ao|lia|lia|].
       intros q Hq Hnq. split; [apply Hz; [exact Hq|exact Hnq]|].
       apply not_in_cnt. intro Hi. apply (ml_range_block N0 ns' B cb ctx j st'' HfB Hab' q) in Hi. apply Hnq. apply Hi.
-    - destruct Hres as (nsa & m' & [k Hk] & Mka & Aia & Aoa & (Inva & Fra & new & Aw & Gra)).
+    - destruct Hres as (nsa & m' & [k Hk] & Mka & Aia & Aoa & ((Inva & Fra & new & Aw & Gra) & Hca)).
       destruct (block_exit B cb sb x PL PH xcbs ctx nsa m m' HfB WB R1 R2 HP ltac:(lia) Hxr Psb Qsb Csb Hnp HoutB Hz Inva Mka Aia Aoa)
         as (trs & Hms & Mk5 & Inv5 & Ai5 & Ao5). cbv zeta in Hms, Mk5, Inv5, Ai5, Ao5.
       eexists. eexists. split; [exists k; intro K; eapply MS_trans; [apply Hk|apply Hms]|].
       split; [exact Mk5|]. split; [exact Ai5|]. split; [exact Ao5|].
+      split; [|exact Hca].
       split; [exact Inv5|]. split.
       + destruct Fra as [A1 S1 D1]. constructor; [intros k0 Hk0; apply A1; lia|exact S1|exact D1].
       + exists new. split; [exact Aw|apply GR_fire; exact Gra].
   Qed.
 
   Lemma del_cond_branch : forall f, DelB f ->
-      forall B cb sb PL PH TL TH AL AH ctx cid xcbs t2 i sti id g r g' ns m pend pend0 finp,
-        frag_block B = true -> wired_block (wired N0) N0 ctx [] B cb ->
+      forall B cb sb PL PH TL TH AL AH ctx cid ie kl rt xcbs t2 i sti id g r g' ns m pend pend0 finp,
+        frag_block B = true -> sok_block NC rt B = true -> CD ns ctx cid ie kl rt cb (rch_block B cb i sti kl) -> wired_block (wired N0) N0 ctx [] B cb ->
         PL + 4 <= pp cb -> pp cb + nplaces_l B <= PH -> TL + 3 <= pt cb -> pt cb + ntrans_b B <= TH ->
         AL <= pa cb -> pa cb + napis_l B <= AH ->
         TL + 2 <= sb < TH -> ~ in_tb B cb sb ->
@@ -3093,24 +3583,25 @@ Section Sim.
         Marks ns m -> dict_get ident_eqb (ITest id) (ns_place_dict ns) = Some finp ->
         (forall q, PL <= q < PH -> cnt m q = cnt (ml_block B cb i sti) q + (if Nat.eqb q finp then 1 else 0)) ->
         Hout PL PH TL TH t2 m ->
-        deliver_block orc imm f cid [] B i sti id g = Ok (Some r, g') ->
+        deliver_block orc imm f cid ie B i sti id g = Ok (Some r, g') ->
         match r with
-        | None => DoneForm ns m g g' pend0 PL PH AL AH xcbs (PL + 3)
+        | None => DoneForm ns m g g' pend0 PL PH AL AH xcbs (PL + 3) kl
         | Some (j, st') =>
           exists ns', StayForm ns m g g' pend0 PL PH AL AH (ml_block B cb j st') ns' /\
-                      act_block N0 ns' B cb ctx j st'
+                      (act_block N0 ns' B cb ctx j st' /\ C0 ns' (rch_block B cb j st' kl))
         end.
   Proof.
-    intros f HB B cb sb PL PH TL TH AL AH ctx cid xcbs t2 i sti id g r g' ns m pend pend0 finp
-           HfB WB R1 R2 R3 R4 R5 R6 Hsb Hnsb Psb Qsb Csb Hnp.
-    apply (del_branch f HB B cb sb (PL + 3) PL PH TL TH AL AH ctx cid xcbs t2 i sti id g r g' ns m pend pend0 finp
-                      HfB WB R1 R2 R3 R4 R5 R6 Hsb Hnsb Psb Qsb Csb Hnp). lia.
+    intros f HB B cb sb PL PH TL TH AL AH ctx cid ie kl rt xcbs t2 i sti id g r g' ns m pend pend0 finp
+           HfB HsB Hcd WB R1 R2 R3 R4 R5 R6 Hsb Hnsb Psb Qsb Csb Hnp.
+    apply (del_branch f HB B cb sb (PL + 3) PL PH TL TH AL AH ctx cid ie kl rt xcbs t2 i sti id g r g' ns m pend pend0 finp
+                      HfB HsB Hcd WB R1 R2 R3 R4 R5 R6 Hsb Hnsb Psb Qsb Csb Hnp). lia.
   Qed.
 
   Lemma del_cond_case : forall f, DelB f ->
-      forall e P F p ctx cid xcbs t2 st id g st' g' ns m pend pend0 finp,
-        deliver orc imm (S f) cid [] (XCond e P F) st id g = Ok (Some st', g') ->
-        frag (XCond e P F) = true -> wired N0 (XCond e P F) p ctx xcbs -> no_parloop xcbs = true ->
+      forall e P F p ctx cid ie kl rt xcbs t2 st id g st' g' ns m pend pend0 finp,
+        deliver orc imm (S f) cid ie (XCond e P F) st id g = Ok (Some st', g') ->
+        frag (XCond e P F) = true -> sok NC rt (XCond e P F) = true ->
+        CD ns ctx cid ie kl rt p (rch st (XCond e P F) p kl) -> wired N0 (XCond e P F) p ctx xcbs -> no_parloop xcbs = true ->
         pp p + nplaces (XCond e P F) <= nP -> pt p + ntrans (XCond e P F) <= nT ->
         t2 < nT -> ~ in_t (XCond e P F) p t2 -> In (xplace (XCond e P F) p) (preN N0 t2) ->
         Inv ns -> GR g ns pend -> remove_first (Nat.eqb id) pend = Some pend0 ->
@@ -3121,16 +3612,22 @@ Section Sim.
         Hout (pp p) (pp p + nplaces (XCond e P F)) (pt p) (pt p + ntrans (XCond e P F)) t2 m ->
         if is_done st'
         then DoneForm ns m g g' pend0 (pp p) (pp p + nplaces (XCond e P F)) (pa p) (pa p + napis (XCond e P F))
-                      xcbs (xplace (XCond e P F) p)
+                      xcbs (xplace (XCond e P F) p) kl
         else exists ns', StayForm ns m g g' pend0 (pp p) (pp p + nplaces (XCond e P F)) (pa p)
                                   (pa p + napis (XCond e P F)) (ml st' (XCond e P F) p) ns' /\
-                         act N0 ns' st' (XCond e P F) p ctx.
+                         (act N0 ns' st' (XCond e P F) p ctx /\ C0 ns' (rch st' (XCond e P F) p kl)).
   Proof.
-    intros f HB e P F p ctx cid xcbs t2 st id g st' g' ns m pend pend0 finp
-           H Hf Hw Hnp HP HT Ht2 Hnt2 Hx2 Hinv Hgr Hrem Hact Hnd Hctx Hlt Hm Hd Hin HO.
+    intros f HB e P F p ctx cid ie kl rt xcbs t2 st id g st' g' ns m pend pend0 finp
+           H Hf Hsok Hcd Hw Hnp HP HT Ht2 Hnt2 Hx2 Hinv Hgr Hrem Hact Hnd Hctx Hlt Hm Hd Hin HO.
     destruct st as [|id0|cid' i sti|sts|b i sti|k i sti|sts]; cbn [act] in Hact; try contradiction; try discriminate Hnd.
-    pose proof (found_in _ _ _ _ _ _ _ _ H) as Hid. cbn [svc_ids] in Hid.
+    pose proof (found_in _ _ _ _ _ _ _ _ _ H) as Hid. cbn [svc_ids] in Hid.
     change (act_block N0 ns (if b then P else F) (if b then cond_p p else cond_f P p) ctx i sti) in Hact. rewrite ml_cond in Hin.
+    cbn [sok] in Hsok. apply andb_prop in Hsok. destruct Hsok as [HsP HsF].
+    rewrite rch_cond in Hcd.
+    assert (HcdP : b = true -> CD ns ctx cid ie kl rt (cond_p p) (rch_block P (cond_p p) i sti kl)).
+    { intros ->. eapply CD_pos; [exact Hcd|exact (cd_c0 _ _ _ _ _ _ _ _ Hcd)|]. unfold cond_p, si_sub2, s_path. cbn [psi s_pre]. rewrite !app_length. lia. }
+    assert (HcdF : b = false -> CD ns ctx cid ie kl rt (cond_f P p) (rch_block F (cond_f P p) i sti kl)).
+    { intros ->. eapply CD_pos; [exact Hcd|exact (cd_c0 _ _ _ _ _ _ _ _ Hcd)|]. unfold cond_f, si_sub2, s_path. cbn [psi s_pre]. rewrite !app_length. lia. }
     destruct (list_nil_dec F) as [->|HneF].
     { (* no Failed block: the Passed block is active *)
       destruct b; [|destruct Hact as (_ & _ & Hact); destruct i; contradiction].
@@ -3143,7 +3640,7 @@ Section Sim.
       cbn [deliver] in H. mstep as r g1 E1. destruct r as [r|]; [|mstep; discriminate].
       pose proof (del_cond_branch f HB P (cond_p p) (pt p + 2)
                  (pp p) (pp p + (4 + nplaces_l P)) (pt p) (pt p + (3 + ntrans_b P))
-                 (pa p) (pa p + napis_l P) ctx cid xcbs t2 i sti id g r g1 ns m pend pend0 finp HfP WP
+                 (pa p) (pa p + napis_l P) ctx cid ie kl rt xcbs t2 i sti id g r g1 ns m pend pend0 finp HfP HsP (HcdP eq_refl) WP
                  ltac:(cbn [cond_p pp]; lia) ltac:(cbn [cond_p pp]; lia) ltac:(cbn [cond_p pt]; lia)
                  ltac:(cbn [cond_p pt]; lia) ltac:(cbn [cond_p pa]; lia) ltac:(cbn [cond_p pa]; lia)
                  ltac:(lia) ltac:(unfold in_tb; cbn [cond_p pt]; lia) W7 W8 W9 Hnp) as Hres.
@@ -3156,7 +3653,7 @@ Section Sim.
       specialize (Hres Hoth HP HT Ht2 Hnt2 Hx2 Hinv Hgr Hrem Hact Hid Hctx Hlt Hm Hd Hin HO E1).
       destruct r as [[j st'']|].
       - unfold ret in H. injection H as Hs Hg. subst st' g1. cbn [is_done].
-        destruct Hres as (ns' & Hstay & Hab'). exists ns'. split; [rewrite ml_cond; exact Hstay|rewrite act_cond; exact Hab'].
+        destruct Hres as (ns' & Hstay & Hab' & Hc'). exists ns'. split; [rewrite ml_cond; exact Hstay|split; [rewrite act_cond; exact Hab'|rewrite rch_cond; exact Hc']].
       - unfold ret in H. injection H as Hs Hg. subst st' g1. cbn [is_done]. exact Hres. }
     pose proof (frag_cond_ne _ _ _ HneF Hf) as [HfP HfF].
     rewrite nplaces_cond, (ntrans_cond_ne _ _ _ HneF), napis_cond in *. unfold in_t, in_p in *.
@@ -3168,16 +3665,17 @@ Section Sim.
     cbn [deliver] in H. mstep as r g1 E1. destruct r as [r|]; [|mstep; discriminate].
     assert (Hres : match r with
         | None => DoneForm ns m g g1 pend0 (pp p) (pp p + (4 + nplaces_l P + nplaces_l F)) (pa p) (pa p + (napis_l P + napis_l F))
-                           xcbs (pp p + 3)
+                           xcbs (pp p + 3) kl
         | Some (j, st') =>
           exists ns', StayForm ns m g g1 pend0 (pp p) (pp p + (4 + nplaces_l P + nplaces_l F)) (pa p) (pa p + (napis_l P + napis_l F))
                                (ml_block (if b then P else F) (if b then cond_p p else cond_f P p) j st') ns' /\
-                      act_block N0 ns' (if b then P else F) (if b then cond_p p else cond_f P p) ctx j st'
+                      (act_block N0 ns' (if b then P else F) (if b then cond_p p else cond_f P p) ctx j st' /\
+                       C0 ns' (rch_block (if b then P else F) (if b then cond_p p else cond_f P p) j st' kl))
         end).
     { destruct b.
       - apply (del_cond_branch f HB P (cond_p p) (pt p + 2)
                  (pp p) (pp p + (4 + nplaces_l P + nplaces_l F)) (pt p) (pt p + (4 + ntrans_b P + ntrans_b F))
-                 (pa p) (pa p + (napis_l P + napis_l F)) ctx cid xcbs t2 i sti id g r g1 ns m pend pend0 finp HfP WP);
+                 (pa p) (pa p + (napis_l P + napis_l F)) ctx cid ie kl rt xcbs t2 i sti id g r g1 ns m pend pend0 finp HfP HsP (HcdP eq_refl) WP);
           try assumption; try (cbn [cond_p pp pt pa]; lia).
         + unfold in_tb. cbn [cond_p pt]. lia.
         + intros j Hj Hnj Hns. unfold in_tb in Hnj. cbn [cond_p pt] in Hnj.
@@ -3191,7 +3689,7 @@ Section Sim.
             exists q. split; [exact Q1|]. unfold in_pb in *. cbn [cond_f cond_p pp] in *. split; lia.
       - apply (del_cond_branch f HB F (cond_f P p) (cond_sf P p)
                  (pp p) (pp p + (4 + nplaces_l P + nplaces_l F)) (pt p) (pt p + (4 + ntrans_b P + ntrans_b F))
-                 (pa p) (pa p + (napis_l P + napis_l F)) ctx cid xcbs t2 i sti id g r g1 ns m pend pend0 finp HfF WF);
+                 (pa p) (pa p + (napis_l P + napis_l F)) ctx cid ie kl rt xcbs t2 i sti id g r g1 ns m pend pend0 finp HfF HsF (HcdF eq_refl) WF);
           try assumption; try (unfold cond_sf; cbn [cond_f pp pt pa]; lia).
         + unfold in_tb, cond_sf. cbn [cond_f pt]. lia.
         + intros j Hj Hnj Hns. unfold in_tb in Hnj. cbn [cond_f pt] in Hnj. unfold cond_sf in Hns.
@@ -3204,19 +3702,23 @@ Section Sim.
             exists q. split; [exact Q1|]. unfold in_pb in *. cbn [cond_f cond_p pp] in *. split; lia. }
     destruct r as [[j st'']|].
     - unfold ret in H. injection H as Hs Hg. subst st' g1. cbn [is_done].
-      destruct Hres as (ns' & Hstay & Hab'). exists ns'. split; [rewrite ml_cond; exact Hstay|rewrite act_cond; exact Hab'].
+      destruct Hres as (ns' & Hstay & Hab' & Hc'). exists ns'. split; [rewrite ml_cond; exact Hstay|split; [rewrite act_cond; exact Hab'|rewrite rch_cond; exact Hc']].
     - unfold ret in H. injection H as Hs Hg. subst st' g1. cbn [is_done]. exact Hres.
   Qed.
 
   Theorem loop_ok : forall f, LoopOK f.
   Proof. intro f. apply loop_case. intros f0 _. apply start_ok. Qed.
+  Theorem count_ok : forall f, CountOK f.
+  Proof. intro f. apply count_case. intros f0 _. apply start_ok. Qed.
+
 
   (* ---- delivery into a while loop: into the body; when the body is complete the iteration
           transition fires and the test runs again ---- *)
   Lemma del_while_case : forall f, DelB f ->
-      forall e B p ctx cid xcbs t2 st id g st' g' ns m pend pend0 finp,
-        deliver orc imm (S f) cid [] (XWhile e B) st id g = Ok (Some st', g') ->
-        frag (XWhile e B) = true -> wired N0 (XWhile e B) p ctx xcbs -> no_parloop xcbs = true ->
+      forall e B p ctx cid ie kl rt xcbs t2 st id g st' g' ns m pend pend0 finp,
+        deliver orc imm (S f) cid ie (XWhile e B) st id g = Ok (Some st', g') ->
+        frag (XWhile e B) = true -> sok NC rt (XWhile e B) = true ->
+        CD ns ctx cid ie kl rt p (rch st (XWhile e B) p kl) -> wired N0 (XWhile e B) p ctx xcbs -> no_parloop xcbs = true ->
         pp p + nplaces (XWhile e B) <= nP -> pt p + ntrans (XWhile e B) <= nT ->
         t2 < nT -> ~ in_t (XWhile e B) p t2 -> In (xplace (XWhile e B) p) (preN N0 t2) ->
         Inv ns -> GR g ns pend -> remove_first (Nat.eqb id) pend = Some pend0 ->
@@ -3227,48 +3729,52 @@ Section Sim.
         Hout (pp p) (pp p + nplaces (XWhile e B)) (pt p) (pt p + ntrans (XWhile e B)) t2 m ->
         if is_done st'
         then DoneForm ns m g g' pend0 (pp p) (pp p + nplaces (XWhile e B)) (pa p) (pa p + napis (XWhile e B))
-                      xcbs (xplace (XWhile e B) p)
+                      xcbs (xplace (XWhile e B) p) kl
         else exists ns', StayForm ns m g g' pend0 (pp p) (pp p + nplaces (XWhile e B)) (pa p)
                                   (pa p + napis (XWhile e B)) (ml st' (XWhile e B) p) ns' /\
-                         act N0 ns' st' (XWhile e B) p ctx.
+                         (act N0 ns' st' (XWhile e B) p ctx /\ C0 ns' (rch st' (XWhile e B) p kl)).
   Proof.
-    intros f HB e B p ctx cid xcbs t2 st id g st' g' ns m pend pend0 finp
-           H Hf Hw Hnp HP HT Ht2 Hnt2 Hx2 Hinv Hgr Hrem Hact Hnd Hctx Hlt Hm Hd Hin HO.
+    intros f HB e B p ctx cid ie kl rt xcbs t2 st id g st' g' ns m pend pend0 finp
+           H Hf Hsok Hcd Hw Hnp HP HT Ht2 Hnt2 Hx2 Hinv Hgr Hrem Hact Hnd Hctx Hlt Hm Hd Hin HO.
     destruct st as [|id0|cid' i sti|sts|b i sti|k i sti|sts]; cbn [act] in Hact; try contradiction; try discriminate Hnd.
-    pose proof (found_in _ _ _ _ _ _ _ _ H) as Hid. cbn [svc_ids] in Hid.
-    change (act_block N0 ns B (cond_p p) ctx i sti) in Hact. rewrite ml_loop in Hin.
+    pose proof (found_in _ _ _ _ _ _ _ _ _ H) as Hid. cbn [svc_ids] in Hid.
+    change (act_block N0 ns B (loop_p p) ctx i sti) in Hact. rewrite ml_loop in Hin.
+    pose proof Hsok as HsB. cbn [sok] in HsB. rewrite rch_loop in Hcd.
+    assert (HcdB : CD ns ctx cid ie kl rt (loop_p p) (rch_block B (loop_p p) i sti kl)).
+    { eapply CD_pos; [exact Hcd|exact (cd_c0 _ _ _ _ _ _ _ _ Hcd)|]. unfold loop_p, si_sub, s_path. cbn [psi s_pre]. rewrite app_length. lia. }
     pose proof (frag_while _ _ Hf) as HfB. pose proof Hw as Hwall. pose proof HO as HOall. pose proof Hx2 as Hx2all.
     pose proof HP as HPall. pose proof HT as HTall. pose proof Hnt2 as Hnt2all.
     rewrite nplaces_while, ntrans_while, napis_while in *. unfold in_t, in_p in *. rewrite ?nplaces_while, ?ntrans_while in *.
     cbn [xplace] in Hx2 |- *.
     cbn [wired] in Hw. destruct Hw as (W1 & W2 & W3 & W4 & W5 & W6 & W7 & W8 & W9 & WB).
-    pose proof (xplace_range_b B HfB (cond_p p)) as XB. cbn [cond_p pp] in XB.
+    pose proof (xplace_range_b B HfB (loop_p p)) as XB. cbn [loop_p pp] in XB.
     set (CW := CbWhile e (pp p + 1) (pp p + 2) ctx) in *.
     cbn [deliver] in H. mstep as r g1 E1. destruct r as [r|]; [|mstep; discriminate].
-    pose proof (del_branch f HB B (cond_p p) (pt p + 2) (pp p)
+    pose proof (del_branch f HB B (loop_p p) (pt p + 2) (pp p)
                  (pp p) (pp p + (4 + nplaces_l B)) (pt p) (pt p + (3 + ntrans_b B))
-                 (pa p) (pa p + napis_l B) ctx cid [CW] t2 i sti id g r g1 ns m pend pend0 finp HfB WB
-                 ltac:(cbn [cond_p pp]; lia) ltac:(cbn [cond_p pp]; lia) ltac:(cbn [cond_p pt]; lia)
-                 ltac:(cbn [cond_p pt]; lia) ltac:(cbn [cond_p pa]; lia) ltac:(cbn [cond_p pa]; lia)
-                 ltac:(lia) ltac:(unfold in_tb; cbn [cond_p pt]; lia) W7 W8 W9 eq_refl ltac:(lia)) as Hres.
-    assert (Hoth : forall j, pt p <= j < pt p + (3 + ntrans_b B) -> ~ in_tb B (cond_p p) j -> j <> pt p + 2 ->
-                             exists q, In q (preN N0 j) /\ pp p <= q < pp p + (4 + nplaces_l B) /\ ~ in_pb B (cond_p p) q).
-    { intros j Hj Hnj Hns. unfold in_tb in Hnj. cbn [cond_p pt] in Hnj.
+                 (pa p) (pa p + napis_l B) ctx cid ie kl rt [CW] t2 i sti id g r g1 ns m pend pend0 finp HfB HsB HcdB WB
+                 ltac:(cbn [loop_p pp]; lia) ltac:(cbn [loop_p pp]; lia) ltac:(cbn [loop_p pt]; lia)
+                 ltac:(cbn [loop_p pt]; lia) ltac:(cbn [loop_p pa]; lia) ltac:(cbn [loop_p pa]; lia)
+                 ltac:(lia) ltac:(unfold in_tb; cbn [loop_p pt]; lia) W7 W8 W9 eq_refl ltac:(lia)) as Hres.
+    assert (Hoth : forall j, pt p <= j < pt p + (3 + ntrans_b B) -> ~ in_tb B (loop_p p) j -> j <> pt p + 2 ->
+                             exists q, In q (preN N0 j) /\ pp p <= q < pp p + (4 + nplaces_l B) /\ ~ in_pb B (loop_p p) q).
+    { intros j Hj Hnj Hns. unfold in_tb in Hnj. cbn [loop_p pt] in Hnj.
       destruct (Nat.eq_dec j (pt p)) as [->|N0']; [|assert (j = pt p + 1) by lia; subst j].
-      - exists (pp p). rewrite W1. split; [left; reflexivity|]. unfold in_pb. cbn [cond_p pp]. split; lia.
-      - exists (pp p). rewrite W4. split; [left; reflexivity|]. unfold in_pb. cbn [cond_p pp]. split; lia. }
+      - exists (pp p). rewrite W1. split; [left; reflexivity|]. unfold in_pb. cbn [loop_p pp]. split; lia.
+      - exists (pp p). rewrite W4. split; [left; reflexivity|]. unfold in_pb. cbn [loop_p pp]. split; lia. }
     specialize (Hres Hoth HP HT Ht2 Hnt2 Hx2 Hinv Hgr Hrem Hact Hid Hctx Hlt Hm Hd Hin HO E1).
     destruct r as [[j st'']|].
     - (* still inside the body *)
       unfold ret in H. injection H as Hs Hg. subst st' g1. cbn [is_done].
-      destruct Hres as (ns' & Hstay & Hab'). exists ns'. split; [rewrite ml_loop; exact Hstay|rewrite act_loop; exact Hab'].
+      destruct Hres as (ns' & Hstay & Hab' & Hc'). exists ns'. split; [rewrite ml_loop; exact Hstay|split; [rewrite act_loop; exact Hab'|rewrite rch_loop; exact Hc']].
     - (* the body is complete: the iteration transition has fired, the test runs again *)
       mstep as st2 g2 E2. unfold ret in H. injection H as Hs Hg. subst st' g2.
-      destruct Hres as (ns5 & m5 & [kk Hkk] & Mk5 & Ai5 & Ao5 & (Inv5 & Fr5 & new & Aw5 & Gr5)).
+      destruct Hres as (ns5 & m5 & [kk Hkk] & Mk5 & Ai5 & Ao5 & ((Inv5 & Fr5 & new & Aw5 & Gr5) & Hc5)).
       assert (Hctx5 : ctx_is ns5 ctx cid) by (eapply ctx_is_frame; [exact Hctx|exact Fr5|lia]).
-      destruct (loop_ok f e B p ctx cid xcbs t2 (S k) g1 st2 g' ns5 m5 (pend0 ++ new) E2 Hf Hwall Hnp HPall HTall Ht2 Hnt2all Hx2all
+      assert (Hcx5 : CX ns5 ctx cid ie kl rt p) by (apply CD_CX; eapply CD_pos; [exact Hcd|exact Hc5|apply Nat.le_refl]).
+      destruct (loop_ok f e B p ctx cid ie kl rt xcbs t2 (S k) g1 st2 g' ns5 m5 (pend0 ++ new) E2 Hf Hsok Hcx5 Hwall Hnp HPall HTall Ht2 Hnt2all Hx2all
                         Inv5 Gr5 Hctx5 Hlt Mk5)
-        as (ns6 & m6 & Hen & Mk6 & Ai6 & Ao6 & Hres6 & Hact6).
+        as (ns6 & m6 & Hen & Mk6 & Ai6 & Ao6 & Hres6 & Hact6 & Hc6).
       { unfold in_p. rewrite nplaces_while. intros q Hq. cbn [entries]. exact (Ai5 q Hq). }
       { rewrite nplaces_while, ntrans_while. exact (Hout_out _ _ _ _ _ _ _ HO Ao5). }
       rewrite ?nplaces_while, ?napis_while in *. cbn [startcbs] in Hen. fold CW in Hen.
@@ -3282,10 +3788,10 @@ Section Sim.
           rewrite app_assoc. exact Gr6. }
       destruct (is_done st2) eqn:D; cbn [Enters] in Hen.
       + pose proof (is_done_RDone _ D) as ->. cbn [mlx xplace] in Ai6.
-        exists ns6, m6. split; [|split; [exact Mk6|split; [exact Ai6|split; [exact Ao6'|exact Hpost6]]]].
+        exists ns6, m6. split; [|split; [exact Mk6|split; [exact Ai6|split; [exact Ao6'|split; [exact Hpost6|exact Hc6]]]]].
         destruct Hen as [k2 Hk2]. exists (k2 + S kk). intro K. eapply MS_trans; [apply Hkk|].
         specialize (Hk2 [] (Unw kk K)). cbn [app] in Hk2. rewrite Unw_nest in Hk2. exact Hk2.
-      + rewrite (mlx_nd _ _ _ D) in Ai6. exists ns6. split; [|exact Hact6].
+      + rewrite (mlx_nd _ _ _ D) in Ai6. exists ns6. split; [|split; [exact Hact6|exact Hc6]].
         exists m6. split; [|split; [exact Mk6|split; [exact Ai6|split; [exact Ao6'|exact Hpost6]]]].
         intro K. eapply MS_trans; [apply Hkk|].
         eapply MS_trans; [specialize (Hen [] (Unw kk K)); cbn [app] in Hen; exact Hen|].
@@ -3294,47 +3800,134 @@ Section Sim.
         apply (stmt_dis (XWhile e B) p ctx xcbs t2 st2 ns6 m m6 Hf Hwall D Hx2all); rewrite ?nplaces_while, ?ntrans_while; assumption.
   Qed.
 
+  Lemma del_count_case : forall f, DelB f ->
+      forall v lim B p ctx cid ie kl rt xcbs t2 st id g st' g' ns m pend pend0 finp,
+        deliver orc imm (S f) cid ie (XCount v lim B) st id g = Ok (Some st', g') ->
+        frag (XCount v lim B) = true -> sok NC rt (XCount v lim B) = true ->
+        CD ns ctx cid ie kl rt p (rch st (XCount v lim B) p kl) -> wired N0 (XCount v lim B) p ctx xcbs -> no_parloop xcbs = true ->
+        pp p + nplaces (XCount v lim B) <= nP -> pt p + ntrans (XCount v lim B) <= nT ->
+        t2 < nT -> ~ in_t (XCount v lim B) p t2 -> In (xplace (XCount v lim B) p) (preN N0 t2) ->
+        Inv ns -> GR g ns pend -> remove_first (Nat.eqb id) pend = Some pend0 ->
+        act N0 ns st (XCount v lim B) p ctx -> is_done st = false -> ctx_is ns ctx cid -> ctx < pa p ->
+        Marks ns m -> dict_get ident_eqb (ITest id) (ns_place_dict ns) = Some finp ->
+        (forall q, in_p (XCount v lim B) p q ->
+                   cnt m q = cnt (ml st (XCount v lim B) p) q + (if Nat.eqb q finp then 1 else 0)) ->
+        Hout (pp p) (pp p + nplaces (XCount v lim B)) (pt p) (pt p + ntrans (XCount v lim B)) t2 m ->
+        if is_done st'
+        then DoneForm ns m g g' pend0 (pp p) (pp p + nplaces (XCount v lim B)) (pa p) (pa p + napis (XCount v lim B))
+                      xcbs (xplace (XCount v lim B) p) kl
+        else exists ns', StayForm ns m g g' pend0 (pp p) (pp p + nplaces (XCount v lim B)) (pa p)
+                                  (pa p + napis (XCount v lim B)) (ml st' (XCount v lim B) p) ns' /\
+                         (act N0 ns' st' (XCount v lim B) p ctx /\ C0 ns' (rch st' (XCount v lim B) p kl)).
+  Proof.
+    intros f HB v lim B p ctx cid ie kl rt xcbs t2 st id g st' g' ns m pend pend0 finp
+           H Hf Hsok Hcd Hw Hnp HP HT Ht2 Hnt2 Hx2 Hinv Hgr Hrem Hact Hnd Hctx Hlt Hm Hd Hin HO.
+    destruct st as [|id0|cid' i sti|sts|b i sti|k i sti|sts]; cbn [act] in Hact; try contradiction; try discriminate Hnd.
+    pose proof (found_in _ _ _ _ _ _ _ _ _ H) as Hid. cbn [svc_ids] in Hid.
+    change (act_block N0 ns B (loop_p p) ctx i sti) in Hact. rewrite ml_count in Hin.
+    pose proof Hsok as HsB. cbn [sok] in HsB. apply andb_prop in HsB. destruct HsB as [HsB1 HsB].
+    apply andb_prop in HsB1. destruct HsB1 as [Hnc Hrt]. apply negb_true_iff in Hnc. subst rt.
+    destruct (cd_rt _ _ _ _ _ _ _ _ Hcd eq_refl) as (Hc0 & Hcid0 & Hklb).
+    rewrite rch_count in Hcd.
+    assert (HcdB : CD ns ctx cid ((v, k) :: ie) ((pkey p, k) :: kl) true (loop_p p) (rch_block B (loop_p p) i sti ((pkey p, k) :: kl))).
+    { constructor; [exact (cd_c0 _ _ _ _ _ _ _ _ Hcd)|intro Hc; congruence|].
+      intros _. split; [exact Hc0|]. split; [exact Hcid0|]. apply klb_push. exact Hklb. }
+    pose proof (frag_count _ _ _ Hf) as HfB. pose proof Hw as Hwall. pose proof HO as HOall. pose proof Hx2 as Hx2all.
+    pose proof HP as HPall. pose proof HT as HTall. pose proof Hnt2 as Hnt2all.
+    rewrite nplaces_count, ntrans_count, napis_count in *. unfold in_t, in_p in *. rewrite ?nplaces_count, ?ntrans_count in *.
+    cbn [xplace] in Hx2 |- *.
+    cbn [wired] in Hw. destruct Hw as (W1 & W2 & W3 & W4 & W5 & W6 & W7 & W8 & W9 & WB).
+    pose proof (xplace_range_b B HfB (loop_p p)) as XB. cbn [loop_p pp] in XB.
+    set (CW := CbCount (pkey p) lim (pp p + 1) (pp p + 2) ctx) in *.
+    cbn [deliver] in H. mstep as r g1 E1. destruct r as [r|]; [|mstep; discriminate].
+    pose proof (del_branch f HB B (loop_p p) (pt p + 2) (pp p)
+                 (pp p) (pp p + (4 + nplaces_l B)) (pt p) (pt p + (3 + ntrans_b B))
+                 (pa p) (pa p + napis_l B) ctx cid ((v, k) :: ie) ((pkey p, k) :: kl) true [CW] t2 i sti id g r g1 ns m pend pend0 finp HfB HsB HcdB WB
+                 ltac:(cbn [loop_p pp]; lia) ltac:(cbn [loop_p pp]; lia) ltac:(cbn [loop_p pt]; lia)
+                 ltac:(cbn [loop_p pt]; lia) ltac:(cbn [loop_p pa]; lia) ltac:(cbn [loop_p pa]; lia)
+                 ltac:(lia) ltac:(unfold in_tb; cbn [loop_p pt]; lia) W7 W8 W9 eq_refl ltac:(lia)) as Hres.
+    assert (Hoth : forall j, pt p <= j < pt p + (3 + ntrans_b B) -> ~ in_tb B (loop_p p) j -> j <> pt p + 2 ->
+                             exists q, In q (preN N0 j) /\ pp p <= q < pp p + (4 + nplaces_l B) /\ ~ in_pb B (loop_p p) q).
+    { intros j Hj Hnj Hns. unfold in_tb in Hnj. cbn [loop_p pt] in Hnj.
+      destruct (Nat.eq_dec j (pt p)) as [->|N0']; [|assert (j = pt p + 1) by lia; subst j].
+      - exists (pp p). rewrite W1. split; [left; reflexivity|]. unfold in_pb. cbn [loop_p pp]. split; lia.
+      - exists (pp p). rewrite W4. split; [left; reflexivity|]. unfold in_pb. cbn [loop_p pp]. split; lia. }
+    specialize (Hres Hoth HP HT Ht2 Hnt2 Hx2 Hinv Hgr Hrem Hact Hid Hctx Hlt Hm Hd Hin HO E1).
+    destruct r as [[j st'']|].
+    - (* still inside the body *)
+      unfold ret in H. injection H as Hs Hg. subst st' g1. cbn [is_done].
+      destruct Hres as (ns' & Hstay & Hab' & Hc'). exists ns'. split; [rewrite ml_count; exact Hstay|split; [rewrite act_count; exact Hab'|rewrite rch_count; exact Hc']].
+    - (* the body is complete: the iteration transition has fired, the test runs again *)
+      mstep as st2 g2 E2. unfold ret in H. injection H as Hs Hg. subst st' g2.
+      destruct Hres as (ns5 & m5 & [kk Hkk] & Mk5 & Ai5 & Ao5 & ((Inv5 & Fr5 & new & Aw5 & Gr5) & Hc5)).
+      assert (Hctx5 : ctx_is ns5 ctx cid) by (eapply ctx_is_frame; [exact Hctx|exact Fr5|lia]).
+      destruct (count_ok f v lim B p ctx cid ie kl xcbs t2 (S k) g1 st2 g' ns5 m5 (pend0 ++ new) E2 Hf Hsok Hc0 Hcid0 Hklb Hc5 Hwall Hnp HPall HTall Ht2 Hnt2all Hx2all
+                        Inv5 Gr5 Hctx5 Hlt Mk5)
+        as (ns6 & m6 & Hen & Mk6 & Ai6 & Ao6 & Hres6 & Hact6 & Hc6).
+      { unfold in_p. rewrite nplaces_count. intros q Hq. cbn [entries]. exact (Ai5 q Hq). }
+      { rewrite nplaces_count, ntrans_count. exact (Hout_out _ _ _ _ _ _ _ HO Ao5). }
+      rewrite ?nplaces_count, ?napis_count in *. cbn [startcbs] in Hen. fold CW in Hen.
+      pose proof Hres6 as (Inv6 & Gr6 & Ap6 & Aw6 & Sid6 & Di6).
+      assert (Ao6' : agrees_out (pp p) (pp p + (4 + nplaces_l B)) m m6).
+      { intros q Hq. rewrite (Ao6 q Hq). apply Ao5. exact Hq. }
+      assert (Hpost6 : Post ns ns6 g g' pend0 (pa p) (pa p + napis_l B)).
+      { split; [exact Inv6|]. split.
+        - eapply (Frame_trans ns ns5 ns6); [exact Fr5|apply (Frame_of_StartRes _ _ _ _ _ _ _ _ Gr5 Hres6)|lia|lia|lia|lia].
+        - exists (new ++ svc_ids st2). split; [rewrite Aw6, Aw5, app_assoc; reflexivity|].
+          rewrite app_assoc. exact Gr6. }
+      destruct (is_done st2) eqn:D; cbn [Enters] in Hen.
+      + pose proof (is_done_RDone _ D) as ->. cbn [mlx xplace] in Ai6.
+        exists ns6, m6. split; [|split; [exact Mk6|split; [exact Ai6|split; [exact Ao6'|split; [exact Hpost6|exact Hc6]]]]].
+        destruct Hen as [k2 Hk2]. exists (k2 + S kk). intro K. eapply MS_trans; [apply Hkk|].
+        specialize (Hk2 [] (Unw kk K)). cbn [app] in Hk2. rewrite Unw_nest in Hk2. exact Hk2.
+      + rewrite (mlx_nd _ _ _ D) in Ai6. exists ns6. split; [|split; [exact Hact6|exact Hc6]].
+        exists m6. split; [|split; [exact Mk6|split; [exact Ai6|split; [exact Ao6'|exact Hpost6]]]].
+        intro K. eapply MS_trans; [apply Hkk|].
+        eapply MS_trans; [specialize (Hen [] (Unw kk K)); cbn [app] in Hen; exact Hen|].
+        change ([] :: Unw kk K) with (Unw (S kk) K). rewrite Unw_S'.
+        apply MS_unwind; [exact Inv6|]. apply (dis_dead ns6 m6 Inv6 Mk6).
+        apply (stmt_dis (XCount v lim B) p ctx xcbs t2 st2 ns6 m m6 Hf Hwall D Hx2all); rewrite ?nplaces_count, ?ntrans_count; assumption.
+  Qed.
+
   Theorem del_ok : forall f, DelS f.
   Proof.
     induction f as [f IH] using lt_wf_ind.
-    intros s p ctx cid xcbs t2 st id g st' g' ns m pend pend0 finp
-           H Hf Hw Hnp HP HT Ht2 Hnt2 Hx2 Hinv Hgr Hrem Hact Hnd Hctx Hlt Hm Hd Hin HO.
+    intros s p ctx cid ie kl rt xcbs t2 st id g st' g' ns m pend pend0 finp
+           H Hf Hsok Hcd Hw Hnp HP HT Ht2 Hnt2 Hx2 Hinv Hgr Hrem Hact Hnd Hctx Hlt Hm Hd Hin HO.
     destruct f as [|f]; [discriminate H|].
-    destruct s as [n at_ ins|t at_ ins bd|bs|e P F|e B| | ]; try discriminate Hf.
+    assert (HB : DelB f).
+    { destruct f as [|f']; [intros ? ? ? ? ? ? ? ? ? ? ? ? ? ? ? ? ? ? ? ? HH; discriminate HH|].
+      apply del_block_case. apply IH. lia. }
+    destruct s as [n at_ ins|t at_ ins bd|bs|e P F|e B|v lim B| ]; try discriminate Hf.
     - (* service *)
       destruct st as [|id0|cid' i sti|sts|b i sti|k i sti|sts]; cbn [act] in Hact; try contradiction; try discriminate Hnd.
       unfold in_t, in_p in *. cbn [nplaces ntrans napis xplace ml] in *.
       pose proof Hw as Hwall. cbn [wired] in Hw. destruct Hw as (_ & _ & Hcbs & _).
-      destruct (del_svc_case f n at_ ins p ctx cid xcbs t2 id0 id g st' g' ns m pend pend0 finp H Hwall HP ltac:(lia)
+      cbn [sok] in Hsok.
+      destruct (del_svc_case f ie n at_ ins p ctx cid xcbs t2 id0 id g st' g' ns m pend pend0 finp H (cd_ie _ _ _ _ _ _ _ _ Hcd) Hsok Hwall HP ltac:(lia)
                              Ht2 ltac:(lia) Hx2 Hinv Hgr Hrem Hact Hctx Hlt Hm Hd Hin HO)
-        as (-> & _ & tr & ns' & m' & Htr & Hen & Hdis & Hrl & Mk' & Ai & Ao & Hpost).
+        as (-> & _ & tr & ns' & m' & Htr & Hen & Hdis & Hrl & Mk' & Ai & Ao & Hpost & Hcn).
       cbn [is_done]. exists ns', m'.
-      split; [|split; [exact Mk'|split; [exact Ai|split; [exact Ao|exact Hpost]]]].
+      split; [|split; [exact Mk'|split; [exact Ai|split; [exact Ao|split; [exact Hpost|]]]]].
+      2:{ pose proof (cd_c0 _ _ _ _ _ _ _ _ Hcd) as Hc. rewrite rch_await in Hc. apply (C0_same ns ns' kl Hcn Hc). }
       exists 0. intro K. eapply MS_trans; [apply (MS_fire1 ns m (pt p) tr _ K Hinv Hm ltac:(lia) Htr Hen Hdis Hcbs Hnp)|].
       change (CbSF (pa p) :: xcbs) with ([CbSF (pa p)] ++ xcbs). apply MS_list. exact Hrl.
     - (* task call *)
-      assert (HB : DelB f).
-      { destruct f as [|f']; [intros ? ? ? ? ? ? ? ? ? ? ? ? ? ? ? ? ? HH; discriminate HH|].
-        apply del_block_case. apply IH. lia. }
       eapply (del_call_case f HB); eassumption.
     - (* parallel *)
       assert (HL : DelL f) by (apply del_list_case; intros f0 Hf0; apply IH; lia).
       eapply (del_par_case f HL); eassumption.
     - (* condition *)
-      assert (HB : DelB f).
-      { destruct f as [|f']; [intros ? ? ? ? ? ? ? ? ? ? ? ? ? ? ? ? ? HH; discriminate HH|].
-        apply del_block_case. apply IH. lia. }
       eapply (del_cond_case f HB); eassumption.
     - (* while loop *)
-      assert (HB : DelB f).
-      { destruct f as [|f']; [intros ? ? ? ? ? ? ? ? ? ? ? ? ? ? ? ? ? HH; discriminate HH|].
-        apply del_block_case. apply IH. lia. }
       eapply (del_while_case f HB); eassumption.
+    - (* counting loop *)
+      eapply (del_count_case f HB); eassumption.
   Qed.
 
   Theorem del_block_ok : forall f, DelB f.
   Proof.
-    intros [|f]; [intros ? ? ? ? ? ? ? ? ? ? ? ? ? ? ? ? ? HH; discriminate HH|].
+    intros [|f]; [intros ? ? ? ? ? ? ? ? ? ? ? ? ? ? ? ? ? ? ? ? HH; discriminate HH|].
     apply del_block_case. apply del_ok.
   Qed.
 
@@ -3370,6 +3963,8 @@ Section Sim.
     g_tid g = 0 /\ g_sid g = 0 /\ g_ss g = 0 /\ g_awaited g = [] /\ g_running g = false /\
     True /\ True.
 
+  Variable Hsok0 : sok_block NC true body = true.
+
   Definition Rel (sc : sched) (ns : NS) : Prop :=
     Inv ns /\ ns_log ns = g_log (sc_g sc) /\
     match sc_root sc with
@@ -3377,10 +3972,11 @@ Section Sim.
       g_fresh (sc_g sc) /\ ns_awaited ns = [EvStart] /\ Marks ns [] /\
       (forall k, nth_error (ns_apis ns) k = nth_error (ns_apis N0) k) /\
       ns_tid ns = 0 /\ ns_sid ns = 0 /\ ns_nss ns = 0 /\ ns_running ns = false /\ ns_pending ns = [] /\
-      ns_ls ns = g_ls (sc_g sc) /\ ns_obs ns = g_obs (sc_g sc) /\ ns_q ns = g_q (sc_g sc)
+      ns_ls ns = g_ls (sc_g sc) /\ ns_obs ns = g_obs (sc_g sc) /\ ns_q ns = g_q (sc_g sc) /\ ns_counters ns = []
     | Some (RCall cid i st) =>
       cid = 0 /\ GR (sc_g sc) ns (g_awaited (sc_g sc)) /\ act_block N0 ns body p0 0 i st /\
-      Marks ns (ml_block body p0 i st) /\ nth_error (ns_apis ns) 0 = Some root_api
+      Marks ns (ml_block body p0 i st) /\ nth_error (ns_apis ns) 0 = Some root_api /\
+      C0 ns (rch_block body p0 i st [])
     | Some RDone => GR (sc_g sc) ns (g_awaited (sc_g sc)) /\ Marks ns [1]
     | Some _ => False
     end.
@@ -3478,7 +4074,7 @@ Section Sim.
       exists ns', (exists f0, forall f, f0 <= f -> net_api_call tasks env f ns AStart = Ok (b, ns')) /\ Rel sc' ns'.
   Proof.
     intros fu sc ns b sc' (Hinv & Hlog & Hrel) Hroot H. rewrite Hroot in Hrel.
-    destruct Hrel as ((F1 & F2 & F3 & F4 & F5 & _ & _) & Haw & Hmk & Hapis & Htid & Hsid & Hnss & Hrun & Hpend & Hls & Hobs & Hqq).
+    destruct Hrel as ((F1 & F2 & F3 & F4 & F5 & _ & _) & Haw & Hmk & Hapis & Htid & Hsid & Hnss & Hrun & Hpend & Hls & Hobs & Hqq & Hcn0).
     unfold api_call in H. rewrite Hroot in H.
     set (gc := clear_log (sc_g sc)) in *.
     match type of H with match ?X with _ => _ end = _ => destruct X as [[st g']| | |] eqn:E; try discriminate H end.
@@ -3516,8 +4112,8 @@ Section Sim.
     pose proof (Inv_fire s2 tr1 Inv2 Hlenf) as Invf. pose proof (GR_fire _ _ _ tr1 Gr2) as Grf. fold nsf in Invf, Grf.
     assert (Hapi0 : nth_error (ns_apis nsf) 0 = Some root_api).
     { change (ns_apis nsf) with (ns_apis ns). rewrite Hapis. apply (no_root _ _ HN0). }
-    destruct (sim_TS 0 root_api None g1 g3 nsf [] Invf Grf Hapi0 eq_refl eq_refl I)
-      as (Hrun1 & Hcbs1 & Inv3 & Gr3 & Pl3 & Ap3 & Di3).
+    destruct (sim_TS 0 root_api None g1 g3 nsf [] Invf Grf Hapi0 eq_refl eq_refl (orb_true_r _) I)
+      as (Hrun1 & Hcbs1 & Inv3 & Gr3 & Pl3 & Ap3 & Di3 & Cn3).
     { unfold g3, g_step. rewrite Htid1. cbn [root_api a_name a_site a_params]. repeat split; reflexivity. }
     set (ns3 := notified TS (with_uuid (ITest (ns_tid nsf)) root_api) false (ts_pre 0 nsf)) in *.
     assert (Hn0' : exists s0, nth_error body 0 = Some s0) by (destruct body; [discriminate Hfrag|eexists; reflexivity]).
@@ -3540,11 +4136,14 @@ Section Sim.
     assert (Mk3 : Marks ns3 m3) by (eapply Marks_places; [exact Pl3|exact Mkf]).
     assert (H03 : ~ In 0 m3) by (intro Hi; apply Hent in Hi; unfold in_pb in Hi; cbn [p0 pp] in Hi; lia).
     assert (H1T : 1 < nT) by (rewrite nT_eq; lia).
-    destruct (start_block_ok fu body p0 0 0 [] 1 0 s0 g3 r g4 ns3 m3 [] E4 Hn0 Hfrag (no_body _ _ HN0) eq_refl
+    assert (Hcx3 : CX ns3 0 0 [] [] true p0).
+    { constructor; [|reflexivity|intros _; split; [reflexivity|split; [reflexivity|intros key k []]]].
+      unfold C0, counters_of. rewrite Cn3. change (ns_counters nsf) with (ns_counters ns). rewrite Hcn0. reflexivity. }
+    destruct (start_block_ok fu body p0 0 0 [] [] true [] 1 0 s0 g3 r g4 ns3 m3 [] E4 Hn0 Hfrag Hsok0 Hcx3 (no_body _ _ HN0) eq_refl
                              ltac:(rewrite nP_eq; cbn [p0 pp]; lia) ltac:(rewrite nT_eq; cbn [p0 pt]; lia) H1T
                              ltac:(unfold in_tb; cbn [p0 pt]; lia) ltac:(rewrite Q1; left; reflexivity)
                              Inv3 Gr3 Hctx3 ltac:(cbn [p0 pa]; lia) Mk3 ltac:(intros q _; reflexivity) (root_Hout m3 H03))
-      as (ns4 & m4 & Hen4 & Mk4 & Ai4 & Ao4 & Hres4 & Hact4).
+      as (ns4 & m4 & Hen4 & Mk4 & Ai4 & Ao4 & Hres4 & Hact4 & Hc4).
     pose proof Hres4 as (Inv4 & Gr4 & Ap4 & Aw4 & Sid4 & Di4).
     assert (Hapi4 : nth_error (ns_apis ns4) 0 = Some root_api).
     { rewrite Ap4 by (cbn [p0 pa]; lia). rewrite Ap3. rewrite (nth_error_upd_eq _ _ _ _ _ Hapi0). rewrite Htid1. reflexivity. }
@@ -3572,7 +4171,7 @@ Section Sim.
       + exists f0. intros f Hf. unfold net_api_call. fold nsc.
         change (ns_awaited nsc) with (ns_awaited ns). rewrite Haw. cbn [existsb event_eqb orb].
         rewrite (Hf0 f Hf). reflexivity. }
-    destruct r as [[j st0]|]; cbn [is_none Enters mlb actb ids_opt] in *.
+    destruct r as [[j st0]|]; cbn [is_none Enters mlb actb ids_opt rchb] in *.
     - (* the order waits *)
       mstep.
       assert (Mk4' : Marks ns4 (ml_block body p0 j st0)).
@@ -3586,7 +4185,7 @@ Section Sim.
         eapply dis_disabled; [exact Inv4|exact Mk4'|]. apply (root_quiet ns4 j st0 Hact4 j0 Hj0).
       + split; [exact Inv4|]. split; [apply (gr_log _ _ _ Gr4)|]. cbn [sc_root sc_g].
         split; [reflexivity|]. split; [rewrite Aw4, Haw3; exact Gr4|]. split; [exact Hact4|].
-        split; [exact Mk4'|exact Hapi4].
+        split; [exact Mk4'|split; [exact Hapi4|exact Hc4]].
     - (* the whole order completes at once *)
       assert (Hm4q : forall q, cnt m4 q = if Nat.eqb q (xplace_b body p0) then 1 else 0).
       { intro q. rewrite (root_marking m3 m4 [xplace_b body p0] Hent); [cnt_cases|intros q0 [<-|[]]; apply (xplace_range_b body Hfrag p0)|exact Ai4|exact Ao4]. }
@@ -3640,7 +4239,7 @@ Section Sim.
     intros fu sc ns id b sc' (Hinv & Hlog & Hrel) Hmem H.
     unfold api_call in H. change (g_awaited (clear_log (sc_g sc))) with (g_awaited (sc_g sc)) in H. rewrite Hmem in H.
     destruct (sc_root sc) as [[|id0|cid i sti|sts|bb i sti|k i sti|sts]|] eqn:Hroot; try discriminate H; try contradiction.
-    destruct Hrel as (-> & Hgr & Hab & Hmk & Hapi0).
+    destruct Hrel as (-> & Hgr & Hab & Hmk & Hapi0 & Hc00).
     set (gc := clear_log (sc_g sc)) in *.
     match type of H with match ?X with _ => _ end = _ => destruct X as [[st g']| | |] eqn:E; try discriminate H end.
     injection H as Hb Hsc. subst b sc'.
@@ -3679,8 +4278,10 @@ Section Sim.
     { intros Hi. apply Hmlr in Hi. unfold in_pb in Hi. cbn [p0 pp] in Hi. lia. }
     destruct (no_c2 _ _ HN0) as (Q1 & Q2 & Q3).
     assert (H1T : 1 < nT) by (rewrite nT_eq; lia).
-    pose proof (del_block_ok fu body p0 0 0 [] 1 i sti id g2 r g3 s2 (finp :: ml_block body p0 i sti)
-                   (g_awaited (sc_g sc)) aw' finp E3 Hfrag (no_body _ _ HN0) eq_refl
+    assert (Hcd2 : CD s2 0 0 [] [] true p0 (rch_block body p0 i sti [])).
+    { constructor; [exact Hc00|reflexivity|intros _; split; [reflexivity|split; [reflexivity|intros key k []]]]. }
+    pose proof (del_block_ok fu body p0 0 0 [] [] true [] 1 i sti id g2 r g3 s2 (finp :: ml_block body p0 i sti)
+                   (g_awaited (sc_g sc)) aw' finp E3 Hfrag Hsok0 Hcd2 (no_body _ _ HN0) eq_refl
                    ltac:(rewrite nP_eq; cbn [p0 pp]; lia) ltac:(rewrite nT_eq; cbn [p0 pt]; lia)
                    H1T ltac:(unfold in_tb; cbn [p0 pt]; lia) ltac:(rewrite Q1; left; reflexivity)
                    Inv2 Gr2 Hrem Hab2 Hctx2 ltac:(cbn [p0 pa]; lia) Mk1 Hdf) as Hres.
@@ -3698,7 +4299,7 @@ Section Sim.
       - exists f0. intros f Hf. unfold net_api_call. fold nsc. apply Hf0. exact Hf. }
     destruct r as [[j st']|].
     - (* the order goes on *)
-      mstep. destruct Hres as (ns' & (m' & St & Mk' & Ai & Ao & (Inv' & Fr' & new & Aw' & Gr')) & Hab').
+      mstep. destruct Hres as (ns' & (m' & St & Mk' & Ai & Ao & (Inv' & Fr' & new & Aw' & Gr')) & Hab' & Hc').
       assert (Mk'' : Marks ns' (ml_block body p0 j st')).
       { eapply Marks_ext; [exact Mk'|]. apply (root_marking _ m' _ Hmlr); [|exact Ai|exact Ao].
         intros q Hq. apply (ml_range_block N0 ns' body p0 0 j st' Hfrag Hab' q Hq). }
@@ -3707,9 +4308,9 @@ Section Sim.
         eapply dis_disabled; [exact Inv'|exact Mk''|]. apply (root_quiet ns' j st' Hab' j0 Hj0).
       + split; [exact Inv'|]. split; [apply (gr_log _ _ _ Gr')|]. cbn [sc_root sc_g].
         split; [reflexivity|]. split; [rewrite Aw'; exact Gr'|]. split; [exact Hab'|]. split; [exact Mk''|].
-        rewrite (fr_apis _ _ _ _ Fr') by (cbn [p0 pa]; lia). exact Hapi0.
+        split; [rewrite (fr_apis _ _ _ _ Fr') by (cbn [p0 pa]; lia); exact Hapi0|exact Hc'].
     - (* the last statement is complete: the production task finishes *)
-      destruct Hres as (nsa & m' & Hex & Mka & Aia & Aoa & (Inva & Fra & new & Awa & Gra)).
+      destruct Hres as (nsa & m' & Hex & Mka & Aia & Aoa & ((Inva & Fra & new & Awa & Gra) & Hca)).
       assert (Hm'q : forall q, cnt m' q = if Nat.eqb q (xplace_b body p0) then 1 else 0).
       { intro q. rewrite (root_marking _ m' [xplace_b body p0] Hmlr); [cnt_cases|intros q0 [<-|[]]; apply (xplace_range_b body Hfrag p0)|exact Aia|exact Aoa]. }
       assert (Hapia : nth_error (ns_apis nsa) 0 = Some root_api).
@@ -3732,7 +4333,7 @@ Section Sim.
     - cbn [cleared_sc sc_root sc_g]. destruct (sc_root sc) as [[|id0|cid i sti|sts|bb i sti|k i sti|sts]|]; try contradiction.
       + destruct Hrel as (Hgr & Hmk). split; [|exact Hmk].
         destruct Hgr as [G1 G2 G3 G4 G5 G6 G7 G8 G9 G10]. constructor; try assumption; reflexivity.
-      + destruct Hrel as (-> & Hgr & Hab & Hmk & Hapi). split; [reflexivity|]. split; [|split; [|split; assumption]].
+      + destruct Hrel as (-> & Hgr & Hab & Hmk & Hapi & Hcc). split; [reflexivity|]. split; [|split; [|split; [assumption|split; assumption]]].
         * destruct Hgr as [G1 G2 G3 G4 G5 G6 G7 G8 G9 G10]. constructor; try assumption; reflexivity.
         * apply (act_block_same ns); try assumption; reflexivity.
       + exact Hrel.
@@ -3785,7 +4386,7 @@ Section Sim.
       rewrite (total_one (ns_places ns) 1 Hl); [reflexivity|].
       intro q. rewrite <- tokens_tok, (proj2 Hmk). cnt_cases.
     - (* running *)
-      destruct Hrel as (-> & Hgr & Hab & Hmk & Hapi). rewrite (gr_run _ _ _ Hgr), (gr_aw _ _ _ Hgr), flat_map_EvF.
+      destruct Hrel as (-> & Hgr & Hab & Hmk & Hapi & _). rewrite (gr_run _ _ _ Hgr), (gr_aw _ _ _ Hgr), flat_map_EvF.
       assert (E1 : tokens ns 1 = 0).
       { rewrite (proj2 Hmk). apply not_in_cnt. intro Hi.
         destruct (ml_range_block N0 ns body p0 0 i sti Hfrag Hab 1 Hi) as (Hr & _). unfold in_pb in Hr. cbn [p0 pp] in Hr. lia. }
@@ -3803,6 +4404,7 @@ Section Sim.
     split; [|split; [exact S9|]].
     - constructor; try assumption; try reflexivity.
       + rewrite S7. apply ls_ok_default.
+      + rewrite S4. split; [constructor|reflexivity].
       + apply (no_start _ _ HN0).
       + apply (no_final _ _ HN0).
       + exists []. split; [reflexivity|constructor].
@@ -3859,7 +4461,7 @@ Section Sim.
       + destruct Hrel as (-> & Hgr & Hab & Hmk & Hapi). split; [reflexivity|]. split; [|split; [|split; assumption]].
         * destruct Hgr as [G1 G2 G3 G4 G5 G6 G7 G8 G9 G10]. constructor; try assumption; reflexivity.
         * apply (act_block_same ns); try assumption; reflexivity.
-      + destruct Hrel as (F & Haw & Hmk & Hap & H1 & H2 & H3 & H4 & H5 & H6 & H7 & H8).
+      + destruct Hrel as (F & Haw & Hmk & Hap & H1 & H2 & H3 & H4 & H5 & H6 & H7 & H8 & H9).
         split; [exact F|]. split; [exact Haw|]. split; [exact Hmk|]. split; [exact Hap|].
         repeat split; try assumption; reflexivity.
   Qed.
@@ -3875,7 +4477,7 @@ Section Sim.
       + destruct Hrel as (-> & Hgr & Hab & Hmk & Hapi). split; [reflexivity|]. split; [|split; [|split; assumption]].
         * destruct Hgr as [G1 G2 G3 G4 G5 G6 G7 G8 G9 G10]. constructor; try assumption; reflexivity.
         * apply (act_block_same ns); try assumption; reflexivity.
-      + destruct Hrel as (F & Haw & Hmk & Hap & H1 & H2 & H3 & H4 & H5 & H6 & H7 & H8).
+      + destruct Hrel as (F & Haw & Hmk & Hap & H1 & H2 & H3 & H4 & H5 & H6 & H7 & H8 & H9).
         split; [exact F|]. split; [exact Haw|]. split; [exact Hmk|]. split; [exact Hap|].
         repeat split; try assumption; reflexivity.
   Qed.
